@@ -96,6 +96,7 @@ variables
   rwb = [t \in Procs |-> << >>],
   rneed = [t \in Procs |-> FALSE],
   stres = [t \in Procs |-> FALSE],
+  spName = [t \in Procs |-> ""],
   dsl = [t \in Procs |-> << >>],
   atomic = [t \in Procs |-> FALSE],
   strong = [o \in Objs |-> 1],
@@ -188,7 +189,7 @@ st_spawn:    \* [threads] spawn_thread_if_less_than_maximum
     palive[PoolNames[nspawned + 1]] := TRUE;
     chanOpen[PoolNames[nspawned + 1]] := TRUE;
     nspawned := nspawned + 1;
-    h := ObsSpawn(h, 1);
+    h := ObsSpawn(h, self, 1);
     goto st_reap;
   } else { stres[self] := FALSE; return; }
 }
@@ -409,6 +410,15 @@ z_dispatch:
     goto mx_set;
   }
   else if (K(bcur) = "despawn") { call Despawn(); goto rb_step; }
+  else if (K(bcur) = "spawn_thread") {
+    \* the thread is created (and named) before the threads lock is taken
+    h := ObsSpawn(h, self, 1);
+    spName[self] := PoolNames[nspawned + 1];
+    palive[PoolNames[nspawned + 1]] := TRUE;
+    chanOpen[PoolNames[nspawned + 1]] := TRUE;
+    nspawned := nspawned + 1;
+    goto sp_push;
+  }
   else { rv[self] := 0; goto rb_step; };
 z_then:
   if (rv[self] = 0 /\ OpTab[bcur].then = "await") { call Await(bcur); goto rb_step; }
@@ -434,6 +444,11 @@ rb_wait:     \* [park]
   parkTok[self] := FALSE;
   if (OpTab[bcur].g \in gfired) { goto rb_step; }
   else { gthreads[OpTab[bcur].g] := gthreads[OpTab[bcur].g] \cup {self}; goto rb_wait; };
+sp_push:     \* [threads] Scheduler::spawn_thread: one more pool thread, whatever the maximum is
+  await thrHeld = "";
+  pthreads := Append(pthreads, spName[self]);
+  rv[self] := 0;
+  goto rb_step;
 mx_set:      \* [maxt] set_max_threads (or the accessor that only stores the value)
   maxThreads := OpTab[bcur].n;
   if (OpTab[bcur].then # "real") { h := ObsSetMax(h, OpTab[bcur].n); rv[self] := 0; goto rb_step; };
@@ -1109,7 +1124,7 @@ VARIABLES pc, qstate, qpoll, jobs, wakeBlocked, schedule, pthreads, nspawned,
           gwhist, dwSt, dwW, dblTaken, dblW1, dblW2, nextDW, ready, cwait, 
           cnotif, cvHeld, sdres, jpanic, sfst, slotSt, qrSent, qrWaker, 
           dnState, susDropped, dnWaker, parkTok, barGen, myBar, cdone, rv, 
-          rwb, rneed, stres, dsl, atomic, strong, ppPending, ppClosed, 
+          rwb, rneed, stres, spName, dsl, atomic, strong, ppPending, ppClosed, 
           ppNotify, ppNC, ppBP, ppDepth, ppAlive, ppHeld, inItems, inClosed, 
           inWaker, pollFn, chuteFn, pwTaken, nextPoll, ppItem, pjLive, 
           ppStage, h, stack
@@ -1166,13 +1181,13 @@ vars == << pc, qstate, qpoll, jobs, wakeBlocked, schedule, pthreads, nspawned,
            gwhist, dwSt, dwW, dblTaken, dblW1, dblW2, nextDW, ready, cwait, 
            cnotif, cvHeld, sdres, jpanic, sfst, slotSt, qrSent, qrWaker, 
            dnState, susDropped, dnWaker, parkTok, barGen, myBar, cdone, rv, 
-           rwb, rneed, stres, dsl, atomic, strong, ppPending, ppClosed, 
-           ppNotify, ppNC, ppBP, ppDepth, ppAlive, ppHeld, inItems, inClosed, 
-           inWaker, pollFn, chuteFn, pwTaken, nextPoll, ppItem, pjLive, 
-           ppStage, h, stack, dead, sti, smax, rq, sq, sj, ww, rsq, bown, bwk, 
-           bi, bcur, bw, bsp, jq, jj, jwk, fj, dq, dj, oq, oop, omode, oj, yq, 
-           yop, yclaimed, tq, top, af, wf, wop, sf, sctx, xf, cop, kj, pp, 
-           pwk, np, nbp, nres, dp, pf, pctx, pq, pj, pd, nq >>
+           rwb, rneed, stres, spName, dsl, atomic, strong, ppPending, 
+           ppClosed, ppNotify, ppNC, ppBP, ppDepth, ppAlive, ppHeld, inItems, 
+           inClosed, inWaker, pollFn, chuteFn, pwTaken, nextPoll, ppItem, 
+           pjLive, ppStage, h, stack, dead, sti, smax, rq, sq, sj, ww, rsq, 
+           bown, bwk, bi, bcur, bw, bsp, jq, jj, jwk, fj, dq, dj, oq, oop, 
+           omode, oj, yq, yop, yclaimed, tq, top, af, wf, wop, sf, sctx, xf, 
+           cop, kj, pp, pwk, np, nbp, nres, dp, pf, pctx, pq, pj, pd, nq >>
 
 ProcSet == (Threads) \cup (PoolSet)
 
@@ -1227,6 +1242,7 @@ Init == (* Global variables *)
         /\ rwb = [t \in Procs |-> << >>]
         /\ rneed = [t \in Procs |-> FALSE]
         /\ stres = [t \in Procs |-> FALSE]
+        /\ spName = [t \in Procs |-> ""]
         /\ dsl = [t \in Procs |-> << >>]
         /\ atomic = [t \in Procs |-> FALSE]
         /\ strong = [o \in Objs |-> 1]
@@ -1338,16 +1354,17 @@ st_reap(self) == /\ pc[self] = "st_reap"
                                  nextDW, ready, cwait, cnotif, cvHeld, sdres, 
                                  jpanic, sfst, slotSt, qrSent, qrWaker, 
                                  dnState, susDropped, dnWaker, parkTok, barGen, 
-                                 myBar, cdone, rv, rwb, rneed, stres, dsl, 
-                                 atomic, strong, ppPending, ppClosed, ppNotify, 
-                                 ppNC, ppBP, ppDepth, ppAlive, ppHeld, inItems, 
-                                 inClosed, inWaker, pollFn, chuteFn, pwTaken, 
-                                 nextPoll, ppItem, pjLive, ppStage, h, stack, 
-                                 sti, smax, rq, sq, sj, ww, rsq, bown, bwk, bi, 
-                                 bcur, bw, bsp, jq, jj, jwk, fj, dq, dj, oq, 
-                                 oop, omode, oj, yq, yop, yclaimed, tq, top, 
-                                 af, wf, wop, sf, sctx, xf, cop, kj, pp, pwk, 
-                                 np, nbp, nres, dp, pf, pctx, pq, pj, pd, nq >>
+                                 myBar, cdone, rv, rwb, rneed, stres, spName, 
+                                 dsl, atomic, strong, ppPending, ppClosed, 
+                                 ppNotify, ppNC, ppBP, ppDepth, ppAlive, 
+                                 ppHeld, inItems, inClosed, inWaker, pollFn, 
+                                 chuteFn, pwTaken, nextPoll, ppItem, pjLive, 
+                                 ppStage, h, stack, sti, smax, rq, sq, sj, ww, 
+                                 rsq, bown, bwk, bi, bcur, bw, bsp, jq, jj, 
+                                 jwk, fj, dq, dj, oq, oop, omode, oj, yq, yop, 
+                                 yclaimed, tq, top, af, wf, wop, sf, sctx, xf, 
+                                 cop, kj, pp, pwk, np, nbp, nres, dp, pf, pctx, 
+                                 pq, pj, pd, nq >>
 
 st_join(self) == /\ pc[self] = "st_join"
                  /\ dead' = [dead EXCEPT ![self] = Tail(dead[self])]
@@ -1362,16 +1379,17 @@ st_join(self) == /\ pc[self] = "st_join"
                                  dblW2, nextDW, ready, cwait, cnotif, cvHeld, 
                                  sdres, jpanic, sfst, slotSt, qrSent, qrWaker, 
                                  dnState, susDropped, dnWaker, parkTok, barGen, 
-                                 myBar, cdone, rv, rwb, rneed, stres, dsl, 
-                                 atomic, strong, ppPending, ppClosed, ppNotify, 
-                                 ppNC, ppBP, ppDepth, ppAlive, ppHeld, inItems, 
-                                 inClosed, inWaker, pollFn, chuteFn, pwTaken, 
-                                 nextPoll, ppItem, pjLive, ppStage, h, stack, 
-                                 sti, smax, rq, sq, sj, ww, rsq, bown, bwk, bi, 
-                                 bcur, bw, bsp, jq, jj, jwk, fj, dq, dj, oq, 
-                                 oop, omode, oj, yq, yop, yclaimed, tq, top, 
-                                 af, wf, wop, sf, sctx, xf, cop, kj, pp, pwk, 
-                                 np, nbp, nres, dp, pf, pctx, pq, pj, pd, nq >>
+                                 myBar, cdone, rv, rwb, rneed, stres, spName, 
+                                 dsl, atomic, strong, ppPending, ppClosed, 
+                                 ppNotify, ppNC, ppBP, ppDepth, ppAlive, 
+                                 ppHeld, inItems, inClosed, inWaker, pollFn, 
+                                 chuteFn, pwTaken, nextPoll, ppItem, pjLive, 
+                                 ppStage, h, stack, sti, smax, rq, sq, sj, ww, 
+                                 rsq, bown, bwk, bi, bcur, bw, bsp, jq, jj, 
+                                 jwk, fj, dq, dj, oq, oop, omode, oj, yq, yop, 
+                                 yclaimed, tq, top, af, wf, wop, sf, sctx, xf, 
+                                 cop, kj, pp, pwk, np, nbp, nres, dp, pf, pctx, 
+                                 pq, pj, pd, nq >>
 
 st_dormant(self) == /\ pc[self] = "st_dormant"
                     /\ (thrHeld = "" \/ thrHeld = self) /\ (thrHeld = self => ~busyLocked[pthreads[sti[self]]])
@@ -1404,17 +1422,17 @@ st_dormant(self) == /\ pc[self] = "st_dormant"
                                     sdres, jpanic, sfst, slotSt, qrSent, 
                                     qrWaker, dnState, susDropped, dnWaker, 
                                     parkTok, barGen, myBar, cdone, rv, rwb, 
-                                    rneed, dsl, atomic, strong, ppPending, 
-                                    ppClosed, ppNotify, ppNC, ppBP, ppDepth, 
-                                    ppAlive, ppHeld, inItems, inClosed, 
-                                    inWaker, pollFn, chuteFn, pwTaken, 
-                                    nextPoll, ppItem, pjLive, ppStage, h, rq, 
-                                    sq, sj, ww, rsq, bown, bwk, bi, bcur, bw, 
-                                    bsp, jq, jj, jwk, fj, dq, dj, oq, oop, 
-                                    omode, oj, yq, yop, yclaimed, tq, top, af, 
-                                    wf, wop, sf, sctx, xf, cop, kj, pp, pwk, 
-                                    np, nbp, nres, dp, pf, pctx, pq, pj, pd, 
-                                    nq >>
+                                    rneed, spName, dsl, atomic, strong, 
+                                    ppPending, ppClosed, ppNotify, ppNC, ppBP, 
+                                    ppDepth, ppAlive, ppHeld, inItems, 
+                                    inClosed, inWaker, pollFn, chuteFn, 
+                                    pwTaken, nextPoll, ppItem, pjLive, ppStage, 
+                                    h, rq, sq, sj, ww, rsq, bown, bwk, bi, 
+                                    bcur, bw, bsp, jq, jj, jwk, fj, dq, dj, oq, 
+                                    oop, omode, oj, yq, yop, yclaimed, tq, top, 
+                                    af, wf, wop, sf, sctx, xf, cop, kj, pp, 
+                                    pwk, np, nbp, nres, dp, pf, pctx, pq, pj, 
+                                    pd, nq >>
 
 st_max(self) == /\ pc[self] = "st_max"
                 /\ smax' = [smax EXCEPT ![self] = maxThreads]
@@ -1427,16 +1445,17 @@ st_max(self) == /\ pc[self] = "st_max"
                                 dblW2, nextDW, ready, cwait, cnotif, cvHeld, 
                                 sdres, jpanic, sfst, slotSt, qrSent, qrWaker, 
                                 dnState, susDropped, dnWaker, parkTok, barGen, 
-                                myBar, cdone, rv, rwb, rneed, stres, dsl, 
-                                atomic, strong, ppPending, ppClosed, ppNotify, 
-                                ppNC, ppBP, ppDepth, ppAlive, ppHeld, inItems, 
-                                inClosed, inWaker, pollFn, chuteFn, pwTaken, 
-                                nextPoll, ppItem, pjLive, ppStage, h, stack, 
-                                dead, sti, rq, sq, sj, ww, rsq, bown, bwk, bi, 
-                                bcur, bw, bsp, jq, jj, jwk, fj, dq, dj, oq, 
-                                oop, omode, oj, yq, yop, yclaimed, tq, top, af, 
-                                wf, wop, sf, sctx, xf, cop, kj, pp, pwk, np, 
-                                nbp, nres, dp, pf, pctx, pq, pj, pd, nq >>
+                                myBar, cdone, rv, rwb, rneed, stres, spName, 
+                                dsl, atomic, strong, ppPending, ppClosed, 
+                                ppNotify, ppNC, ppBP, ppDepth, ppAlive, ppHeld, 
+                                inItems, inClosed, inWaker, pollFn, chuteFn, 
+                                pwTaken, nextPoll, ppItem, pjLive, ppStage, h, 
+                                stack, dead, sti, rq, sq, sj, ww, rsq, bown, 
+                                bwk, bi, bcur, bw, bsp, jq, jj, jwk, fj, dq, 
+                                dj, oq, oop, omode, oj, yq, yop, yclaimed, tq, 
+                                top, af, wf, wop, sf, sctx, xf, cop, kj, pp, 
+                                pwk, np, nbp, nres, dp, pf, pctx, pq, pj, pd, 
+                                nq >>
 
 st_spawn(self) == /\ pc[self] = "st_spawn"
                   /\ thrHeld = ""
@@ -1445,7 +1464,7 @@ st_spawn(self) == /\ pc[self] = "st_spawn"
                              /\ palive' = [palive EXCEPT ![PoolNames[nspawned + 1]] = TRUE]
                              /\ chanOpen' = [chanOpen EXCEPT ![PoolNames[nspawned + 1]] = TRUE]
                              /\ nspawned' = nspawned + 1
-                             /\ h' = ObsSpawn(h, 1)
+                             /\ h' = ObsSpawn(h, self, 1)
                              /\ pc' = [pc EXCEPT ![self] = "st_reap"]
                              /\ UNCHANGED << stres, stack, dead, sti, smax >>
                         ELSE /\ stres' = [stres EXCEPT ![self] = FALSE]
@@ -1464,16 +1483,16 @@ st_spawn(self) == /\ pc[self] = "st_spawn"
                                   cnotif, cvHeld, sdres, jpanic, sfst, slotSt, 
                                   qrSent, qrWaker, dnState, susDropped, 
                                   dnWaker, parkTok, barGen, myBar, cdone, rv, 
-                                  rwb, rneed, dsl, atomic, strong, ppPending, 
-                                  ppClosed, ppNotify, ppNC, ppBP, ppDepth, 
-                                  ppAlive, ppHeld, inItems, inClosed, inWaker, 
-                                  pollFn, chuteFn, pwTaken, nextPoll, ppItem, 
-                                  pjLive, ppStage, rq, sq, sj, ww, rsq, bown, 
-                                  bwk, bi, bcur, bw, bsp, jq, jj, jwk, fj, dq, 
-                                  dj, oq, oop, omode, oj, yq, yop, yclaimed, 
-                                  tq, top, af, wf, wop, sf, sctx, xf, cop, kj, 
-                                  pp, pwk, np, nbp, nres, dp, pf, pctx, pq, pj, 
-                                  pd, nq >>
+                                  rwb, rneed, spName, dsl, atomic, strong, 
+                                  ppPending, ppClosed, ppNotify, ppNC, ppBP, 
+                                  ppDepth, ppAlive, ppHeld, inItems, inClosed, 
+                                  inWaker, pollFn, chuteFn, pwTaken, nextPoll, 
+                                  ppItem, pjLive, ppStage, rq, sq, sj, ww, rsq, 
+                                  bown, bwk, bi, bcur, bw, bsp, jq, jj, jwk, 
+                                  fj, dq, dj, oq, oop, omode, oj, yq, yop, 
+                                  yclaimed, tq, top, af, wf, wop, sf, sctx, xf, 
+                                  cop, kj, pp, pwk, np, nbp, nres, dp, pf, 
+                                  pctx, pq, pj, pd, nq >>
 
 ScheduleThread(self) == st_reap(self) \/ st_join(self) \/ st_dormant(self)
                            \/ st_max(self) \/ st_spawn(self)
@@ -1509,7 +1528,7 @@ rq_core(self) == /\ pc[self] = "rq_core"
                                  ready, cwait, cvHeld, sdres, jpanic, sfst, 
                                  slotSt, qrSent, qrWaker, dnState, susDropped, 
                                  dnWaker, parkTok, barGen, myBar, cdone, rv, 
-                                 stres, dsl, atomic, strong, ppPending, 
+                                 stres, spName, dsl, atomic, strong, ppPending, 
                                  ppClosed, ppNotify, ppNC, ppBP, ppDepth, 
                                  ppAlive, ppHeld, inItems, inClosed, inWaker, 
                                  pollFn, chuteFn, pwTaken, nextPoll, ppItem, 
@@ -1541,7 +1560,7 @@ rq_notify(self) == /\ pc[self] = "rq_notify"
                                    cwait, cvHeld, sdres, jpanic, sfst, slotSt, 
                                    qrSent, qrWaker, dnState, susDropped, 
                                    dnWaker, parkTok, barGen, myBar, cdone, rv, 
-                                   rneed, stres, dsl, atomic, strong, 
+                                   rneed, stres, spName, dsl, atomic, strong, 
                                    ppPending, ppClosed, ppNotify, ppNC, ppBP, 
                                    ppDepth, ppAlive, ppHeld, inItems, inClosed, 
                                    inWaker, pollFn, chuteFn, pwTaken, nextPoll, 
@@ -1573,16 +1592,16 @@ rq_sched(self) == /\ pc[self] = "rq_sched"
                                   jpanic, sfst, slotSt, qrSent, qrWaker, 
                                   dnState, susDropped, dnWaker, parkTok, 
                                   barGen, myBar, cdone, rv, rwb, rneed, stres, 
-                                  dsl, atomic, strong, ppPending, ppClosed, 
-                                  ppNotify, ppNC, ppBP, ppDepth, ppAlive, 
-                                  ppHeld, inItems, inClosed, inWaker, pollFn, 
-                                  chuteFn, pwTaken, nextPoll, ppItem, pjLive, 
-                                  ppStage, h, rq, sq, sj, ww, rsq, bown, bwk, 
-                                  bi, bcur, bw, bsp, jq, jj, jwk, fj, dq, dj, 
-                                  oq, oop, omode, oj, yq, yop, yclaimed, tq, 
-                                  top, af, wf, wop, sf, sctx, xf, cop, kj, pp, 
-                                  pwk, np, nbp, nres, dp, pf, pctx, pq, pj, pd, 
-                                  nq >>
+                                  spName, dsl, atomic, strong, ppPending, 
+                                  ppClosed, ppNotify, ppNC, ppBP, ppDepth, 
+                                  ppAlive, ppHeld, inItems, inClosed, inWaker, 
+                                  pollFn, chuteFn, pwTaken, nextPoll, ppItem, 
+                                  pjLive, ppStage, h, rq, sq, sj, ww, rsq, 
+                                  bown, bwk, bi, bcur, bw, bsp, jq, jj, jwk, 
+                                  fj, dq, dj, oq, oop, omode, oj, yq, yop, 
+                                  yclaimed, tq, top, af, wf, wop, sf, sctx, xf, 
+                                  cop, kj, pp, pwk, np, nbp, nres, dp, pf, 
+                                  pctx, pq, pj, pd, nq >>
 
 Reschedule(self) == rq_core(self) \/ rq_notify(self) \/ rq_sched(self)
 
@@ -1612,9 +1631,9 @@ sj_push(self) == /\ pc[self] = "sj_push"
                                  nextDW, ready, cwait, cnotif, cvHeld, sdres, 
                                  jpanic, sfst, slotSt, qrSent, qrWaker, 
                                  dnState, susDropped, dnWaker, parkTok, barGen, 
-                                 myBar, cdone, rwb, rneed, stres, dsl, atomic, 
-                                 strong, ppPending, ppClosed, ppNotify, ppNC, 
-                                 ppBP, ppDepth, ppAlive, ppHeld, inItems, 
+                                 myBar, cdone, rwb, rneed, stres, spName, dsl, 
+                                 atomic, strong, ppPending, ppClosed, ppNotify, 
+                                 ppNC, ppBP, ppDepth, ppAlive, ppHeld, inItems, 
                                  inClosed, inWaker, pollFn, chuteFn, pwTaken, 
                                  nextPoll, ppItem, pjLive, ppStage, h, dead, 
                                  sti, smax, rq, ww, rsq, bown, bwk, bi, bcur, 
@@ -1644,16 +1663,16 @@ sj_sched(self) == /\ pc[self] = "sj_sched"
                                   jpanic, sfst, slotSt, qrSent, qrWaker, 
                                   dnState, susDropped, dnWaker, parkTok, 
                                   barGen, myBar, cdone, rv, rwb, rneed, stres, 
-                                  dsl, atomic, strong, ppPending, ppClosed, 
-                                  ppNotify, ppNC, ppBP, ppDepth, ppAlive, 
-                                  ppHeld, inItems, inClosed, inWaker, pollFn, 
-                                  chuteFn, pwTaken, nextPoll, ppItem, pjLive, 
-                                  ppStage, h, rq, sq, sj, ww, rsq, bown, bwk, 
-                                  bi, bcur, bw, bsp, jq, jj, jwk, fj, dq, dj, 
-                                  oq, oop, omode, oj, yq, yop, yclaimed, tq, 
-                                  top, af, wf, wop, sf, sctx, xf, cop, kj, pp, 
-                                  pwk, np, nbp, nres, dp, pf, pctx, pq, pj, pd, 
-                                  nq >>
+                                  spName, dsl, atomic, strong, ppPending, 
+                                  ppClosed, ppNotify, ppNC, ppBP, ppDepth, 
+                                  ppAlive, ppHeld, inItems, inClosed, inWaker, 
+                                  pollFn, chuteFn, pwTaken, nextPoll, ppItem, 
+                                  pjLive, ppStage, h, rq, sq, sj, ww, rsq, 
+                                  bown, bwk, bi, bcur, bw, bsp, jq, jj, jwk, 
+                                  fj, dq, dj, oq, oop, omode, oj, yq, yop, 
+                                  yclaimed, tq, top, af, wf, wop, sf, sctx, xf, 
+                                  cop, kj, pp, pwk, np, nbp, nres, dp, pf, 
+                                  pctx, pq, pj, pd, nq >>
 
 z_sj_ret(self) == /\ pc[self] = "z_sj_ret"
                   /\ rv' = [rv EXCEPT ![self] = 0]
@@ -1669,14 +1688,14 @@ z_sj_ret(self) == /\ pc[self] = "z_sj_ret"
                                   dblW2, nextDW, ready, cwait, cnotif, cvHeld, 
                                   sdres, jpanic, sfst, slotSt, qrSent, qrWaker, 
                                   dnState, susDropped, dnWaker, parkTok, 
-                                  barGen, myBar, cdone, rwb, rneed, stres, dsl, 
-                                  atomic, strong, ppPending, ppClosed, 
-                                  ppNotify, ppNC, ppBP, ppDepth, ppAlive, 
-                                  ppHeld, inItems, inClosed, inWaker, pollFn, 
-                                  chuteFn, pwTaken, nextPoll, ppItem, pjLive, 
-                                  ppStage, h, dead, sti, smax, rq, ww, rsq, 
-                                  bown, bwk, bi, bcur, bw, bsp, jq, jj, jwk, 
-                                  fj, dq, dj, oq, oop, omode, oj, yq, yop, 
+                                  barGen, myBar, cdone, rwb, rneed, stres, 
+                                  spName, dsl, atomic, strong, ppPending, 
+                                  ppClosed, ppNotify, ppNC, ppBP, ppDepth, 
+                                  ppAlive, ppHeld, inItems, inClosed, inWaker, 
+                                  pollFn, chuteFn, pwTaken, nextPoll, ppItem, 
+                                  pjLive, ppStage, h, dead, sti, smax, rq, ww, 
+                                  rsq, bown, bwk, bi, bcur, bw, bsp, jq, jj, 
+                                  jwk, fj, dq, dj, oq, oop, omode, oj, yq, yop, 
                                   yclaimed, tq, top, af, wf, wop, sf, sctx, xf, 
                                   cop, kj, pp, pwk, np, nbp, nres, dp, pf, 
                                   pctx, pq, pj, pd, nq >>
@@ -1813,15 +1832,15 @@ wk_lock(self) == /\ pc[self] = "wk_lock"
                                  cnotif, cvHeld, sdres, jpanic, sfst, slotSt, 
                                  qrSent, qrWaker, dnState, susDropped, dnWaker, 
                                  barGen, myBar, cdone, rv, rwb, rneed, stres, 
-                                 dsl, atomic, ppPending, ppClosed, ppNotify, 
-                                 ppNC, ppBP, ppDepth, ppAlive, ppHeld, inItems, 
-                                 inClosed, inWaker, pollFn, chuteFn, ppItem, 
-                                 ppStage, h, dead, sti, smax, rsq, bown, bwk, 
-                                 bi, bcur, bw, bsp, jq, jj, jwk, fj, dq, dj, 
-                                 oq, oop, omode, oj, yq, yop, yclaimed, tq, 
-                                 top, af, wf, wop, sf, sctx, xf, cop, kj, pp, 
-                                 pwk, np, nbp, nres, dp, pf, pctx, pq, pj, pd, 
-                                 nq >>
+                                 spName, dsl, atomic, ppPending, ppClosed, 
+                                 ppNotify, ppNC, ppBP, ppDepth, ppAlive, 
+                                 ppHeld, inItems, inClosed, inWaker, pollFn, 
+                                 chuteFn, ppItem, ppStage, h, dead, sti, smax, 
+                                 rsq, bown, bwk, bi, bcur, bw, bsp, jq, jj, 
+                                 jwk, fj, dq, dj, oq, oop, omode, oj, yq, yop, 
+                                 yclaimed, tq, top, af, wf, wop, sf, sctx, xf, 
+                                 cop, kj, pp, pwk, np, nbp, nres, dp, pf, pctx, 
+                                 pq, pj, pd, nq >>
 
 z_wk_second(self) == /\ pc[self] = "z_wk_second"
                      /\ IF IsLocking(dblW2[ww[self].d])
@@ -1841,18 +1860,18 @@ z_wk_second(self) == /\ pc[self] = "z_wk_second"
                                      ready, cwait, cnotif, cvHeld, sdres, 
                                      jpanic, sfst, slotSt, qrSent, qrWaker, 
                                      dnState, susDropped, dnWaker, barGen, 
-                                     myBar, cdone, rv, rwb, rneed, stres, dsl, 
-                                     atomic, strong, ppPending, ppClosed, 
-                                     ppNotify, ppNC, ppBP, ppDepth, ppAlive, 
-                                     ppHeld, inItems, inClosed, inWaker, 
-                                     pollFn, chuteFn, pwTaken, nextPoll, 
-                                     ppItem, pjLive, ppStage, h, dead, sti, 
-                                     smax, rq, sq, sj, rsq, bown, bwk, bi, 
-                                     bcur, bw, bsp, jq, jj, jwk, fj, dq, dj, 
-                                     oq, oop, omode, oj, yq, yop, yclaimed, tq, 
-                                     top, af, wf, wop, sf, sctx, xf, cop, kj, 
-                                     pp, pwk, np, nbp, nres, dp, pf, pctx, pq, 
-                                     pj, pd, nq >>
+                                     myBar, cdone, rv, rwb, rneed, stres, 
+                                     spName, dsl, atomic, strong, ppPending, 
+                                     ppClosed, ppNotify, ppNC, ppBP, ppDepth, 
+                                     ppAlive, ppHeld, inItems, inClosed, 
+                                     inWaker, pollFn, chuteFn, pwTaken, 
+                                     nextPoll, ppItem, pjLive, ppStage, h, 
+                                     dead, sti, smax, rq, sq, sj, rsq, bown, 
+                                     bwk, bi, bcur, bw, bsp, jq, jj, jwk, fj, 
+                                     dq, dj, oq, oop, omode, oj, yq, yop, 
+                                     yclaimed, tq, top, af, wf, wop, sf, sctx, 
+                                     xf, cop, kj, pp, pwk, np, nbp, nres, dp, 
+                                     pf, pctx, pq, pj, pd, nq >>
 
 z_pw_after(self) == /\ pc[self] = "z_pw_after"
                     /\ strong' = [strong EXCEPT ![O(ww[self].d)] = strong[O(ww[self].d)] - 1]
@@ -1881,10 +1900,10 @@ z_pw_after(self) == /\ pc[self] = "z_pw_after"
                                     cwait, cnotif, cvHeld, sdres, jpanic, sfst, 
                                     slotSt, qrSent, qrWaker, dnState, 
                                     susDropped, dnWaker, parkTok, barGen, 
-                                    myBar, cdone, rv, rwb, rneed, stres, dsl, 
-                                    atomic, ppPending, ppClosed, ppNotify, 
-                                    ppNC, ppBP, ppDepth, ppAlive, ppHeld, 
-                                    inItems, inClosed, inWaker, pollFn, 
+                                    myBar, cdone, rv, rwb, rneed, stres, 
+                                    spName, dsl, atomic, ppPending, ppClosed, 
+                                    ppNotify, ppNC, ppBP, ppDepth, ppAlive, 
+                                    ppHeld, inItems, inClosed, inWaker, pollFn, 
                                     chuteFn, pwTaken, nextPoll, ppItem, pjLive, 
                                     ppStage, h, dead, sti, smax, rq, sq, sj, 
                                     rsq, bown, bwk, bi, bcur, bw, bsp, jq, jj, 
@@ -1913,16 +1932,16 @@ pw_take(self) == /\ pc[self] = "pw_take"
                                  nextDW, ready, cwait, cnotif, cvHeld, sdres, 
                                  jpanic, sfst, slotSt, qrSent, qrWaker, 
                                  dnState, susDropped, dnWaker, parkTok, barGen, 
-                                 myBar, cdone, rv, rwb, rneed, stres, dsl, 
-                                 atomic, strong, ppPending, ppClosed, ppNotify, 
-                                 ppNC, ppBP, ppDepth, ppAlive, ppHeld, inItems, 
-                                 inClosed, inWaker, pwTaken, nextPoll, ppItem, 
-                                 pjLive, ppStage, h, dead, sti, smax, rq, ww, 
-                                 rsq, bown, bwk, bi, bcur, bw, bsp, jq, jj, 
-                                 jwk, fj, dq, dj, oq, oop, omode, oj, yq, yop, 
-                                 yclaimed, tq, top, af, wf, wop, sf, sctx, xf, 
-                                 cop, kj, pp, pwk, np, nbp, nres, dp, pf, pctx, 
-                                 pq, pj, pd, nq >>
+                                 myBar, cdone, rv, rwb, rneed, stres, spName, 
+                                 dsl, atomic, strong, ppPending, ppClosed, 
+                                 ppNotify, ppNC, ppBP, ppDepth, ppAlive, 
+                                 ppHeld, inItems, inClosed, inWaker, pwTaken, 
+                                 nextPoll, ppItem, pjLive, ppStage, h, dead, 
+                                 sti, smax, rq, ww, rsq, bown, bwk, bi, bcur, 
+                                 bw, bsp, jq, jj, jwk, fj, dq, dj, oq, oop, 
+                                 omode, oj, yq, yop, yclaimed, tq, top, af, wf, 
+                                 wop, sf, sctx, xf, cop, kj, pp, pwk, np, nbp, 
+                                 nres, dp, pf, pctx, pq, pj, pd, nq >>
 
 z_wk_ret(self) == /\ pc[self] = "z_wk_ret"
                   /\ pc' = [pc EXCEPT ![self] = Head(stack[self]).pc]
@@ -1937,16 +1956,16 @@ z_wk_ret(self) == /\ pc[self] = "z_wk_ret"
                                   sdres, jpanic, sfst, slotSt, qrSent, qrWaker, 
                                   dnState, susDropped, dnWaker, parkTok, 
                                   barGen, myBar, cdone, rv, rwb, rneed, stres, 
-                                  dsl, atomic, strong, ppPending, ppClosed, 
-                                  ppNotify, ppNC, ppBP, ppDepth, ppAlive, 
-                                  ppHeld, inItems, inClosed, inWaker, pollFn, 
-                                  chuteFn, pwTaken, nextPoll, ppItem, pjLive, 
-                                  ppStage, h, dead, sti, smax, rq, sq, sj, rsq, 
-                                  bown, bwk, bi, bcur, bw, bsp, jq, jj, jwk, 
-                                  fj, dq, dj, oq, oop, omode, oj, yq, yop, 
-                                  yclaimed, tq, top, af, wf, wop, sf, sctx, xf, 
-                                  cop, kj, pp, pwk, np, nbp, nres, dp, pf, 
-                                  pctx, pq, pj, pd, nq >>
+                                  spName, dsl, atomic, strong, ppPending, 
+                                  ppClosed, ppNotify, ppNC, ppBP, ppDepth, 
+                                  ppAlive, ppHeld, inItems, inClosed, inWaker, 
+                                  pollFn, chuteFn, pwTaken, nextPoll, ppItem, 
+                                  pjLive, ppStage, h, dead, sti, smax, rq, sq, 
+                                  sj, rsq, bown, bwk, bi, bcur, bw, bsp, jq, 
+                                  jj, jwk, fj, dq, dj, oq, oop, omode, oj, yq, 
+                                  yop, yclaimed, tq, top, af, wf, wop, sf, 
+                                  sctx, xf, cop, kj, pp, pwk, np, nbp, nres, 
+                                  dp, pf, pctx, pq, pj, pd, nq >>
 
 Wake(self) == wk_lock(self) \/ z_wk_second(self) \/ z_pw_after(self)
                  \/ pw_take(self) \/ z_wk_ret(self)
@@ -1977,16 +1996,17 @@ rb_step(self) == /\ pc[self] = "rb_step"
                                  dblW2, nextDW, ready, cwait, cnotif, cvHeld, 
                                  sdres, jpanic, sfst, slotSt, qrSent, qrWaker, 
                                  dnState, susDropped, dnWaker, parkTok, barGen, 
-                                 myBar, cdone, rv, rwb, rneed, stres, dsl, 
-                                 atomic, strong, ppPending, ppClosed, ppNotify, 
-                                 ppNC, ppBP, ppDepth, ppAlive, ppHeld, inItems, 
-                                 inClosed, inWaker, pollFn, chuteFn, pwTaken, 
-                                 nextPoll, ppItem, pjLive, ppStage, stack, 
-                                 dead, sti, smax, rq, sq, sj, ww, rsq, bown, 
-                                 bwk, bw, bsp, jq, jj, jwk, fj, dq, dj, oq, 
-                                 oop, omode, oj, yq, yop, yclaimed, tq, top, 
-                                 af, wf, wop, sf, sctx, xf, cop, kj, pp, pwk, 
-                                 np, nbp, nres, dp, pf, pctx, pq, pj, pd, nq >>
+                                 myBar, cdone, rv, rwb, rneed, stres, spName, 
+                                 dsl, atomic, strong, ppPending, ppClosed, 
+                                 ppNotify, ppNC, ppBP, ppDepth, ppAlive, 
+                                 ppHeld, inItems, inClosed, inWaker, pollFn, 
+                                 chuteFn, pwTaken, nextPoll, ppItem, pjLive, 
+                                 ppStage, stack, dead, sti, smax, rq, sq, sj, 
+                                 ww, rsq, bown, bwk, bw, bsp, jq, jj, jwk, fj, 
+                                 dq, dj, oq, oop, omode, oj, yq, yop, yclaimed, 
+                                 tq, top, af, wf, wop, sf, sctx, xf, cop, kj, 
+                                 pp, pwk, np, nbp, nres, dp, pf, pctx, pq, pj, 
+                                 pd, nq >>
 
 z_finish(self) == /\ pc[self] = "z_finish"
                   /\ IF bown[self] = 0
@@ -2079,15 +2099,15 @@ z_finish(self) == /\ pc[self] = "z_finish"
                                   cnotif, cvHeld, sfst, slotSt, qrSent, 
                                   qrWaker, dnState, susDropped, dnWaker, 
                                   parkTok, barGen, myBar, cdone, rwb, rneed, 
-                                  stres, dsl, atomic, strong, ppPending, 
-                                  ppClosed, ppNotify, ppNC, ppBP, ppDepth, 
-                                  ppAlive, ppHeld, inItems, inClosed, inWaker, 
-                                  pollFn, chuteFn, pwTaken, nextPoll, ppItem, 
-                                  pjLive, ppStage, dead, sti, smax, rq, sq, sj, 
-                                  ww, jq, jj, jwk, fj, dq, dj, oq, oop, omode, 
-                                  oj, yq, yop, yclaimed, tq, top, af, wf, wop, 
-                                  sf, sctx, xf, cop, kj, pp, pwk, np, nbp, 
-                                  nres, dp, pf, pctx, pq, pj, pd, nq >>
+                                  stres, spName, dsl, atomic, strong, 
+                                  ppPending, ppClosed, ppNotify, ppNC, ppBP, 
+                                  ppDepth, ppAlive, ppHeld, inItems, inClosed, 
+                                  inWaker, pollFn, chuteFn, pwTaken, nextPoll, 
+                                  ppItem, pjLive, ppStage, dead, sti, smax, rq, 
+                                  sq, sj, ww, jq, jj, jwk, fj, dq, dj, oq, oop, 
+                                  omode, oj, yq, yop, yclaimed, tq, top, af, 
+                                  wf, wop, sf, sctx, xf, cop, kj, pp, pwk, np, 
+                                  nbp, nres, dp, pf, pctx, pq, pj, pd, nq >>
 
 z_pollaw(self) == /\ pc[self] = "z_pollaw"
                   /\ IF K(0 - AwItem(bown[self])) = "fsync"
@@ -2124,15 +2144,15 @@ z_pollaw(self) == /\ pc[self] = "z_pollaw"
                                   sdres, jpanic, sfst, slotSt, qrSent, qrWaker, 
                                   dnState, susDropped, dnWaker, parkTok, 
                                   barGen, myBar, cdone, rv, rwb, rneed, stres, 
-                                  dsl, atomic, strong, ppPending, ppClosed, 
-                                  ppNotify, ppNC, ppBP, ppDepth, ppAlive, 
-                                  ppHeld, inItems, inClosed, inWaker, pollFn, 
-                                  chuteFn, pwTaken, nextPoll, ppItem, pjLive, 
-                                  ppStage, h, dead, sti, smax, rq, sq, sj, ww, 
-                                  rsq, bown, bwk, bi, bcur, bw, bsp, jq, jj, 
-                                  jwk, fj, dq, dj, oq, oop, omode, oj, yq, yop, 
-                                  yclaimed, tq, top, af, wf, wop, xf, cop, kj, 
-                                  pp, pwk, np, nbp, nres, dp, nq >>
+                                  spName, dsl, atomic, strong, ppPending, 
+                                  ppClosed, ppNotify, ppNC, ppBP, ppDepth, 
+                                  ppAlive, ppHeld, inItems, inClosed, inWaker, 
+                                  pollFn, chuteFn, pwTaken, nextPoll, ppItem, 
+                                  pjLive, ppStage, h, dead, sti, smax, rq, sq, 
+                                  sj, ww, rsq, bown, bwk, bi, bcur, bw, bsp, 
+                                  jq, jj, jwk, fj, dq, dj, oq, oop, omode, oj, 
+                                  yq, yop, yclaimed, tq, top, af, wf, wop, xf, 
+                                  cop, kj, pp, pwk, np, nbp, nres, dp, nq >>
 
 z_pollaw_after(self) == /\ pc[self] = "z_pollaw_after"
                         /\ IF rv[self] = 5
@@ -2163,17 +2183,17 @@ z_pollaw_after(self) == /\ pc[self] = "z_pollaw_after"
                                         cvHeld, sdres, jpanic, sfst, slotSt, 
                                         qrSent, qrWaker, dnState, susDropped, 
                                         dnWaker, parkTok, barGen, myBar, cdone, 
-                                        rv, rwb, rneed, stres, dsl, atomic, 
-                                        strong, ppPending, ppClosed, ppNotify, 
-                                        ppNC, ppBP, ppDepth, ppAlive, ppHeld, 
-                                        inItems, inClosed, inWaker, pollFn, 
-                                        chuteFn, pwTaken, nextPoll, ppItem, 
-                                        pjLive, ppStage, dead, sti, smax, rq, 
-                                        sq, sj, ww, jq, jj, jwk, fj, dq, dj, 
-                                        oq, oop, omode, oj, yq, yop, yclaimed, 
-                                        tq, top, af, wf, wop, sf, sctx, xf, 
-                                        cop, kj, pp, pwk, np, nbp, nres, dp, 
-                                        pf, pctx, pq, pj, pd, nq >>
+                                        rv, rwb, rneed, stres, spName, dsl, 
+                                        atomic, strong, ppPending, ppClosed, 
+                                        ppNotify, ppNC, ppBP, ppDepth, ppAlive, 
+                                        ppHeld, inItems, inClosed, inWaker, 
+                                        pollFn, chuteFn, pwTaken, nextPoll, 
+                                        ppItem, pjLive, ppStage, dead, sti, 
+                                        smax, rq, sq, sj, ww, jq, jj, jwk, fj, 
+                                        dq, dj, oq, oop, omode, oj, yq, yop, 
+                                        yclaimed, tq, top, af, wf, wop, sf, 
+                                        sctx, xf, cop, kj, pp, pwk, np, nbp, 
+                                        nres, dp, pf, pctx, pq, pj, pd, nq >>
 
 z_drop_ret(self) == /\ pc[self] = "z_drop_ret"
                     /\ IF rv[self] = 2 /\ OpTab[bcur[self]].then = "unwinding"
@@ -2190,8 +2210,8 @@ z_drop_ret(self) == /\ pc[self] = "z_drop_ret"
                                     cwait, cnotif, cvHeld, sdres, jpanic, sfst, 
                                     slotSt, qrSent, qrWaker, dnState, 
                                     susDropped, dnWaker, parkTok, barGen, 
-                                    myBar, cdone, rwb, rneed, stres, dsl, 
-                                    atomic, strong, ppPending, ppClosed, 
+                                    myBar, cdone, rwb, rneed, stres, spName, 
+                                    dsl, atomic, strong, ppPending, ppClosed, 
                                     ppNotify, ppNC, ppBP, ppDepth, ppAlive, 
                                     ppHeld, inItems, inClosed, inWaker, pollFn, 
                                     chuteFn, pwTaken, nextPoll, ppItem, pjLive, 
@@ -2218,16 +2238,17 @@ rb_bar(self) == /\ pc[self] = "rb_bar"
                                 dblW2, nextDW, ready, cwait, cnotif, cvHeld, 
                                 sdres, jpanic, sfst, slotSt, qrSent, qrWaker, 
                                 dnState, susDropped, dnWaker, parkTok, myBar, 
-                                cdone, rwb, rneed, stres, dsl, atomic, strong, 
-                                ppPending, ppClosed, ppNotify, ppNC, ppBP, 
-                                ppDepth, ppAlive, ppHeld, inItems, inClosed, 
-                                inWaker, pollFn, chuteFn, pwTaken, nextPoll, 
-                                ppItem, pjLive, ppStage, h, stack, dead, sti, 
-                                smax, rq, sq, sj, ww, rsq, bown, bwk, bi, bcur, 
-                                bw, bsp, jq, jj, jwk, fj, dq, dj, oq, oop, 
-                                omode, oj, yq, yop, yclaimed, tq, top, af, wf, 
-                                wop, sf, sctx, xf, cop, kj, pp, pwk, np, nbp, 
-                                nres, dp, pf, pctx, pq, pj, pd, nq >>
+                                cdone, rwb, rneed, stres, spName, dsl, atomic, 
+                                strong, ppPending, ppClosed, ppNotify, ppNC, 
+                                ppBP, ppDepth, ppAlive, ppHeld, inItems, 
+                                inClosed, inWaker, pollFn, chuteFn, pwTaken, 
+                                nextPoll, ppItem, pjLive, ppStage, h, stack, 
+                                dead, sti, smax, rq, sq, sj, ww, rsq, bown, 
+                                bwk, bi, bcur, bw, bsp, jq, jj, jwk, fj, dq, 
+                                dj, oq, oop, omode, oj, yq, yop, yclaimed, tq, 
+                                top, af, wf, wop, sf, sctx, xf, cop, kj, pp, 
+                                pwk, np, nbp, nres, dp, pf, pctx, pq, pj, pd, 
+                                nq >>
 
 rb_block(self) == /\ pc[self] = "rb_block"
                   /\ parkTok[self]
@@ -2241,17 +2262,17 @@ rb_block(self) == /\ pc[self] = "rb_block"
                                   dblW2, nextDW, ready, cwait, cnotif, cvHeld, 
                                   sdres, jpanic, sfst, slotSt, qrSent, qrWaker, 
                                   dnState, susDropped, dnWaker, barGen, myBar, 
-                                  cdone, rv, rwb, rneed, stres, dsl, atomic, 
-                                  strong, ppPending, ppClosed, ppNotify, ppNC, 
-                                  ppBP, ppDepth, ppAlive, ppHeld, inItems, 
-                                  inClosed, inWaker, pollFn, chuteFn, pwTaken, 
-                                  nextPoll, ppItem, pjLive, ppStage, h, stack, 
-                                  dead, sti, smax, rq, sq, sj, ww, rsq, bown, 
-                                  bwk, bi, bcur, bw, bsp, jq, jj, jwk, fj, dq, 
-                                  dj, oq, oop, omode, oj, yq, yop, yclaimed, 
-                                  tq, top, af, wf, wop, sf, sctx, xf, cop, kj, 
-                                  pp, pwk, np, nbp, nres, dp, pf, pctx, pq, pj, 
-                                  pd, nq >>
+                                  cdone, rv, rwb, rneed, stres, spName, dsl, 
+                                  atomic, strong, ppPending, ppClosed, 
+                                  ppNotify, ppNC, ppBP, ppDepth, ppAlive, 
+                                  ppHeld, inItems, inClosed, inWaker, pollFn, 
+                                  chuteFn, pwTaken, nextPoll, ppItem, pjLive, 
+                                  ppStage, h, stack, dead, sti, smax, rq, sq, 
+                                  sj, ww, rsq, bown, bwk, bi, bcur, bw, bsp, 
+                                  jq, jj, jwk, fj, dq, dj, oq, oop, omode, oj, 
+                                  yq, yop, yclaimed, tq, top, af, wf, wop, sf, 
+                                  sctx, xf, cop, kj, pp, pwk, np, nbp, nres, 
+                                  dp, pf, pctx, pq, pj, pd, nq >>
 
 z_dispatch(self) == /\ pc[self] = "z_dispatch"
                     /\ IF K(bcur[self]) = "desync"
@@ -2264,13 +2285,14 @@ z_dispatch(self) == /\ pc[self] = "z_dispatch"
                                                                            sj        |->  sj[self] ] >>
                                                                        \o stack[self]]
                                /\ pc' = [pc EXCEPT ![self] = "sj_push"]
-                               /\ UNCHANGED << gfired, gwaker, gthreads, 
-                                               parkTok, myBar, rv, strong, 
-                                               inItems, inClosed, inWaker, h, 
-                                               ww, bw, bsp, yq, yop, yclaimed, 
-                                               tq, top, af, wf, wop, sf, sctx, 
-                                               xf, cop, np, nbp, nres, dp, pf, 
-                                               pctx, pq, pj, pd >>
+                               /\ UNCHANGED << nspawned, palive, chanOpen, 
+                                               gfired, gwaker, gthreads, 
+                                               parkTok, myBar, rv, spName, 
+                                               strong, inItems, inClosed, 
+                                               inWaker, h, ww, bw, bsp, yq, 
+                                               yop, yclaimed, tq, top, af, wf, 
+                                               wop, sf, sctx, xf, cop, np, nbp, 
+                                               nres, dp, pf, pctx, pq, pj, pd >>
                           ELSE /\ IF K(bcur[self]) = "sync"
                                      THEN /\ /\ stack' = [stack EXCEPT ![self] = << [ procedure |->  "Sync",
                                                                                       pc        |->  "rb_step",
@@ -2282,9 +2304,11 @@ z_dispatch(self) == /\ pc[self] = "z_dispatch"
                                              /\ yq' = [yq EXCEPT ![self] = O(bcur[self])]
                                           /\ yclaimed' = [yclaimed EXCEPT ![self] = FALSE]
                                           /\ pc' = [pc EXCEPT ![self] = "sy_decide"]
-                                          /\ UNCHANGED << jkind, gfired, 
-                                                          gwaker, gthreads, 
-                                                          parkTok, myBar, rv, 
+                                          /\ UNCHANGED << nspawned, palive, 
+                                                          chanOpen, jkind, 
+                                                          gfired, gwaker, 
+                                                          gthreads, parkTok, 
+                                                          myBar, rv, spName, 
                                                           strong, inItems, 
                                                           inClosed, inWaker, h, 
                                                           sq, sj, ww, bw, bsp, 
@@ -2312,12 +2336,16 @@ z_dispatch(self) == /\ pc[self] = "z_dispatch"
                                                                                 yq, 
                                                                                 yop, 
                                                                                 yclaimed >>
-                                                     /\ UNCHANGED << jkind, 
+                                                     /\ UNCHANGED << nspawned, 
+                                                                     palive, 
+                                                                     chanOpen, 
+                                                                     jkind, 
                                                                      gfired, 
                                                                      gwaker, 
                                                                      gthreads, 
                                                                      parkTok, 
                                                                      myBar, 
+                                                                     spName, 
                                                                      inItems, 
                                                                      inClosed, 
                                                                      inWaker, 
@@ -2340,13 +2368,17 @@ z_dispatch(self) == /\ pc[self] = "z_dispatch"
                                                                                                             cop       |->  cop[self] ] >>
                                                                                                         \o stack[self]]
                                                                 /\ pc' = [pc EXCEPT ![self] = "z_pcr1"]
-                                                                /\ UNCHANGED << jkind, 
+                                                                /\ UNCHANGED << nspawned, 
+                                                                                palive, 
+                                                                                chanOpen, 
+                                                                                jkind, 
                                                                                 gfired, 
                                                                                 gwaker, 
                                                                                 gthreads, 
                                                                                 parkTok, 
                                                                                 myBar, 
                                                                                 rv, 
+                                                                                spName, 
                                                                                 inItems, 
                                                                                 inClosed, 
                                                                                 inWaker, 
@@ -2393,12 +2425,16 @@ z_dispatch(self) == /\ pc[self] = "z_dispatch"
                                                                                  ELSE /\ pc' = [pc EXCEPT ![self] = "rb_step"]
                                                                                       /\ UNCHANGED << stack, 
                                                                                                       ww >>
-                                                                           /\ UNCHANGED << jkind, 
+                                                                           /\ UNCHANGED << nspawned, 
+                                                                                           palive, 
+                                                                                           chanOpen, 
+                                                                                           jkind, 
                                                                                            gfired, 
                                                                                            gwaker, 
                                                                                            gthreads, 
                                                                                            parkTok, 
                                                                                            myBar, 
+                                                                                           spName, 
                                                                                            sq, 
                                                                                            sj, 
                                                                                            bsp, 
@@ -2430,13 +2466,17 @@ z_dispatch(self) == /\ pc[self] = "z_dispatch"
                                                                                       /\ nbp' = [nbp EXCEPT ![self] = NoW]
                                                                                       /\ nres' = [nres EXCEPT ![self] = 0]
                                                                                       /\ pc' = [pc EXCEPT ![self] = "cn_poll"]
-                                                                                      /\ UNCHANGED << jkind, 
+                                                                                      /\ UNCHANGED << nspawned, 
+                                                                                                      palive, 
+                                                                                                      chanOpen, 
+                                                                                                      jkind, 
                                                                                                       gfired, 
                                                                                                       gwaker, 
                                                                                                       gthreads, 
                                                                                                       parkTok, 
                                                                                                       myBar, 
                                                                                                       rv, 
+                                                                                                      spName, 
                                                                                                       h, 
                                                                                                       sq, 
                                                                                                       sj, 
@@ -2465,13 +2505,17 @@ z_dispatch(self) == /\ pc[self] = "z_dispatch"
                                                                                                                                              dp        |->  dp[self] ] >>
                                                                                                                                          \o stack[self]]
                                                                                                  /\ pc' = [pc EXCEPT ![self] = "ps_drop"]
-                                                                                                 /\ UNCHANGED << jkind, 
+                                                                                                 /\ UNCHANGED << nspawned, 
+                                                                                                                 palive, 
+                                                                                                                 chanOpen, 
+                                                                                                                 jkind, 
                                                                                                                  gfired, 
                                                                                                                  gwaker, 
                                                                                                                  gthreads, 
                                                                                                                  parkTok, 
                                                                                                                  myBar, 
                                                                                                                  rv, 
+                                                                                                                 spName, 
                                                                                                                  sq, 
                                                                                                                  sj, 
                                                                                                                  ww, 
@@ -2492,13 +2536,17 @@ z_dispatch(self) == /\ pc[self] = "z_dispatch"
                                                                                                                  pd >>
                                                                                             ELSE /\ IF K(bcur[self]) = "set_depth"
                                                                                                        THEN /\ pc' = [pc EXCEPT ![self] = "pp_setdepth"]
-                                                                                                            /\ UNCHANGED << jkind, 
+                                                                                                            /\ UNCHANGED << nspawned, 
+                                                                                                                            palive, 
+                                                                                                                            chanOpen, 
+                                                                                                                            jkind, 
                                                                                                                             gfired, 
                                                                                                                             gwaker, 
                                                                                                                             gthreads, 
                                                                                                                             parkTok, 
                                                                                                                             myBar, 
                                                                                                                             rv, 
+                                                                                                                            spName, 
                                                                                                                             h, 
                                                                                                                             stack, 
                                                                                                                             sq, 
@@ -2528,13 +2576,17 @@ z_dispatch(self) == /\ pc[self] = "z_dispatch"
                                                                                                                           /\ top' = [top EXCEPT ![self] = bcur[self]]
                                                                                                                           /\ tq' = [tq EXCEPT ![self] = O(bcur[self])]
                                                                                                                        /\ pc' = [pc EXCEPT ![self] = "ts_decide"]
-                                                                                                                       /\ UNCHANGED << jkind, 
+                                                                                                                       /\ UNCHANGED << nspawned, 
+                                                                                                                                       palive, 
+                                                                                                                                       chanOpen, 
+                                                                                                                                       jkind, 
                                                                                                                                        gfired, 
                                                                                                                                        gwaker, 
                                                                                                                                        gthreads, 
                                                                                                                                        parkTok, 
                                                                                                                                        myBar, 
                                                                                                                                        rv, 
+                                                                                                                                       spName, 
                                                                                                                                        h, 
                                                                                                                                        sq, 
                                                                                                                                        sj, 
@@ -2562,12 +2614,16 @@ z_dispatch(self) == /\ pc[self] = "z_dispatch"
                                                                                                                                                                               sj        |->  sj[self] ] >>
                                                                                                                                                                           \o stack[self]]
                                                                                                                                   /\ pc' = [pc EXCEPT ![self] = "sj_push"]
-                                                                                                                                  /\ UNCHANGED << gfired, 
+                                                                                                                                  /\ UNCHANGED << nspawned, 
+                                                                                                                                                  palive, 
+                                                                                                                                                  chanOpen, 
+                                                                                                                                                  gfired, 
                                                                                                                                                   gwaker, 
                                                                                                                                                   gthreads, 
                                                                                                                                                   parkTok, 
                                                                                                                                                   myBar, 
                                                                                                                                                   rv, 
+                                                                                                                                                  spName, 
                                                                                                                                                   h, 
                                                                                                                                                   ww, 
                                                                                                                                                   bw, 
@@ -2593,12 +2649,16 @@ z_dispatch(self) == /\ pc[self] = "z_dispatch"
                                                                                                                                                                                          sj        |->  sj[self] ] >>
                                                                                                                                                                                      \o stack[self]]
                                                                                                                                              /\ pc' = [pc EXCEPT ![self] = "sj_push"]
-                                                                                                                                             /\ UNCHANGED << gfired, 
+                                                                                                                                             /\ UNCHANGED << nspawned, 
+                                                                                                                                                             palive, 
+                                                                                                                                                             chanOpen, 
+                                                                                                                                                             gfired, 
                                                                                                                                                              gwaker, 
                                                                                                                                                              gthreads, 
                                                                                                                                                              parkTok, 
                                                                                                                                                              myBar, 
                                                                                                                                                              rv, 
+                                                                                                                                                             spName, 
                                                                                                                                                              h, 
                                                                                                                                                              ww, 
                                                                                                                                                              bw, 
@@ -2624,12 +2684,16 @@ z_dispatch(self) == /\ pc[self] = "z_dispatch"
                                                                                                                                                                                                     sj        |->  sj[self] ] >>
                                                                                                                                                                                                 \o stack[self]]
                                                                                                                                                         /\ pc' = [pc EXCEPT ![self] = "sj_push"]
-                                                                                                                                                        /\ UNCHANGED << gfired, 
+                                                                                                                                                        /\ UNCHANGED << nspawned, 
+                                                                                                                                                                        palive, 
+                                                                                                                                                                        chanOpen, 
+                                                                                                                                                                        gfired, 
                                                                                                                                                                         gwaker, 
                                                                                                                                                                         gthreads, 
                                                                                                                                                                         parkTok, 
                                                                                                                                                                         myBar, 
                                                                                                                                                                         rv, 
+                                                                                                                                                                        spName, 
                                                                                                                                                                         h, 
                                                                                                                                                                         ww, 
                                                                                                                                                                         bw, 
@@ -2652,12 +2716,16 @@ z_dispatch(self) == /\ pc[self] = "z_dispatch"
                                                                                                                                                                                                            \o stack[self]]
                                                                                                                                                                       /\ xf' = [xf EXCEPT ![self] = OpTab[bcur[self]].f]
                                                                                                                                                                    /\ pc' = [pc EXCEPT ![self] = "z_df"]
-                                                                                                                                                                   /\ UNCHANGED << gfired, 
+                                                                                                                                                                   /\ UNCHANGED << nspawned, 
+                                                                                                                                                                                   palive, 
+                                                                                                                                                                                   chanOpen, 
+                                                                                                                                                                                   gfired, 
                                                                                                                                                                                    gwaker, 
                                                                                                                                                                                    gthreads, 
                                                                                                                                                                                    parkTok, 
                                                                                                                                                                                    myBar, 
                                                                                                                                                                                    rv, 
+                                                                                                                                                                                   spName, 
                                                                                                                                                                                    h, 
                                                                                                                                                                                    ww, 
                                                                                                                                                                                    bw, 
@@ -2675,11 +2743,15 @@ z_dispatch(self) == /\ pc[self] = "z_dispatch"
                                                                                                                                                               ELSE /\ IF K(bcur[self]) = "barrier"
                                                                                                                                                                          THEN /\ myBar' = [myBar EXCEPT ![self] = barGen]
                                                                                                                                                                               /\ pc' = [pc EXCEPT ![self] = "rb_bar"]
-                                                                                                                                                                              /\ UNCHANGED << gfired, 
+                                                                                                                                                                              /\ UNCHANGED << nspawned, 
+                                                                                                                                                                                              palive, 
+                                                                                                                                                                                              chanOpen, 
+                                                                                                                                                                                              gfired, 
                                                                                                                                                                                               gwaker, 
                                                                                                                                                                                               gthreads, 
                                                                                                                                                                                               parkTok, 
                                                                                                                                                                                               rv, 
+                                                                                                                                                                                              spName, 
                                                                                                                                                                                               h, 
                                                                                                                                                                                               stack, 
                                                                                                                                                                                               ww, 
@@ -2712,7 +2784,11 @@ z_dispatch(self) == /\ pc[self] = "z_dispatch"
                                                                                                                                                                                                ELSE /\ pc' = [pc EXCEPT ![self] = "rb_step"]
                                                                                                                                                                                                     /\ UNCHANGED << stack, 
                                                                                                                                                                                                                     ww >>
-                                                                                                                                                                                         /\ UNCHANGED << gthreads, 
+                                                                                                                                                                                         /\ UNCHANGED << nspawned, 
+                                                                                                                                                                                                         palive, 
+                                                                                                                                                                                                         chanOpen, 
+                                                                                                                                                                                                         gthreads, 
+                                                                                                                                                                                                         spName, 
                                                                                                                                                                                                          bsp, 
                                                                                                                                                                                                          af, 
                                                                                                                                                                                                          wf, 
@@ -2731,8 +2807,12 @@ z_dispatch(self) == /\ pc[self] = "z_dispatch"
                                                                                                                                                                                                                                                 af        |->  af[self] ] >>
                                                                                                                                                                                                                                             \o stack[self]]
                                                                                                                                                                                                     /\ pc' = [pc EXCEPT ![self] = "z_aw_poll"]
-                                                                                                                                                                                                    /\ UNCHANGED << gthreads, 
+                                                                                                                                                                                                    /\ UNCHANGED << nspawned, 
+                                                                                                                                                                                                                    palive, 
+                                                                                                                                                                                                                    chanOpen, 
+                                                                                                                                                                                                                    gthreads, 
                                                                                                                                                                                                                     rv, 
+                                                                                                                                                                                                                    spName, 
                                                                                                                                                                                                                     h, 
                                                                                                                                                                                                                     bsp, 
                                                                                                                                                                                                                     wf, 
@@ -2775,8 +2855,12 @@ z_dispatch(self) == /\ pc[self] = "z_dispatch"
                                                                                                                                                                                                                           /\ pc' = [pc EXCEPT ![self] = "pf_decide"]
                                                                                                                                                                                                                           /\ UNCHANGED << sf, 
                                                                                                                                                                                                                                           sctx >>
-                                                                                                                                                                                                               /\ UNCHANGED << gthreads, 
+                                                                                                                                                                                                               /\ UNCHANGED << nspawned, 
+                                                                                                                                                                                                                               palive, 
+                                                                                                                                                                                                                               chanOpen, 
+                                                                                                                                                                                                                               gthreads, 
                                                                                                                                                                                                                                rv, 
+                                                                                                                                                                                                                               spName, 
                                                                                                                                                                                                                                h, 
                                                                                                                                                                                                                                bsp, 
                                                                                                                                                                                                                                wf, 
@@ -2790,15 +2874,23 @@ z_dispatch(self) == /\ pc[self] = "z_dispatch"
                                                                                                                                                                                                                              /\ wf' = [wf EXCEPT ![self] = OpTab[bcur[self]].f]
                                                                                                                                                                                                                              /\ wop' = [wop EXCEPT ![self] = bcur[self]]
                                                                                                                                                                                                                           /\ pc' = [pc EXCEPT ![self] = "fs_take"]
-                                                                                                                                                                                                                          /\ UNCHANGED << gthreads, 
+                                                                                                                                                                                                                          /\ UNCHANGED << nspawned, 
+                                                                                                                                                                                                                                          palive, 
+                                                                                                                                                                                                                                          chanOpen, 
+                                                                                                                                                                                                                                          gthreads, 
                                                                                                                                                                                                                                           rv, 
+                                                                                                                                                                                                                                          spName, 
                                                                                                                                                                                                                                           h, 
                                                                                                                                                                                                                                           bsp >>
                                                                                                                                                                                                                      ELSE /\ IF K(bcur[self]) = "spur"
                                                                                                                                                                                                                                 THEN /\ bsp' = [bsp EXCEPT ![self] = gwhist[OpTab[bcur[self]].g]]
                                                                                                                                                                                                                                      /\ rv' = [rv EXCEPT ![self] = 0]
                                                                                                                                                                                                                                      /\ pc' = [pc EXCEPT ![self] = "z_spur"]
-                                                                                                                                                                                                                                     /\ UNCHANGED << gthreads, 
+                                                                                                                                                                                                                                     /\ UNCHANGED << nspawned, 
+                                                                                                                                                                                                                                                     palive, 
+                                                                                                                                                                                                                                                     chanOpen, 
+                                                                                                                                                                                                                                                     gthreads, 
+                                                                                                                                                                                                                                                     spName, 
                                                                                                                                                                                                                                                      h, 
                                                                                                                                                                                                                                                      stack >>
                                                                                                                                                                                                                                 ELSE /\ IF K(bcur[self]) = "block_on"
@@ -2808,7 +2900,11 @@ z_dispatch(self) == /\ pc[self] = "z_dispatch"
                                                                                                                                                                                                                                                            /\ UNCHANGED gthreads
                                                                                                                                                                                                                                                       ELSE /\ gthreads' = [gthreads EXCEPT ![OpTab[bcur[self]].g] = gthreads[OpTab[bcur[self]].g] \cup {self}]
                                                                                                                                                                                                                                                            /\ pc' = [pc EXCEPT ![self] = "rb_wait"]
-                                                                                                                                                                                                                                                /\ UNCHANGED << h, 
+                                                                                                                                                                                                                                                /\ UNCHANGED << nspawned, 
+                                                                                                                                                                                                                                                                palive, 
+                                                                                                                                                                                                                                                                chanOpen, 
+                                                                                                                                                                                                                                                                spName, 
+                                                                                                                                                                                                                                                                h, 
                                                                                                                                                                                                                                                                 stack >>
                                                                                                                                                                                                                                            ELSE /\ IF K(bcur[self]) = "set_max"
                                                                                                                                                                                                                                                       THEN /\ IF OpTab[bcur[self]].then = "real"
@@ -2816,18 +2912,39 @@ z_dispatch(self) == /\ pc[self] = "z_dispatch"
                                                                                                                                                                                                                                                                  ELSE /\ TRUE
                                                                                                                                                                                                                                                                       /\ h' = h
                                                                                                                                                                                                                                                            /\ pc' = [pc EXCEPT ![self] = "mx_set"]
-                                                                                                                                                                                                                                                           /\ UNCHANGED << rv, 
+                                                                                                                                                                                                                                                           /\ UNCHANGED << nspawned, 
+                                                                                                                                                                                                                                                                           palive, 
+                                                                                                                                                                                                                                                                           chanOpen, 
+                                                                                                                                                                                                                                                                           rv, 
+                                                                                                                                                                                                                                                                           spName, 
                                                                                                                                                                                                                                                                            stack >>
                                                                                                                                                                                                                                                       ELSE /\ IF K(bcur[self]) = "despawn"
                                                                                                                                                                                                                                                                  THEN /\ stack' = [stack EXCEPT ![self] = << [ procedure |->  "Despawn",
                                                                                                                                                                                                                                                                                                                pc        |->  "rb_step" ] >>
                                                                                                                                                                                                                                                                                                            \o stack[self]]
                                                                                                                                                                                                                                                                       /\ pc' = [pc EXCEPT ![self] = "ds_max"]
-                                                                                                                                                                                                                                                                      /\ rv' = rv
-                                                                                                                                                                                                                                                                 ELSE /\ rv' = [rv EXCEPT ![self] = 0]
-                                                                                                                                                                                                                                                                      /\ pc' = [pc EXCEPT ![self] = "rb_step"]
+                                                                                                                                                                                                                                                                      /\ UNCHANGED << nspawned, 
+                                                                                                                                                                                                                                                                                      palive, 
+                                                                                                                                                                                                                                                                                      chanOpen, 
+                                                                                                                                                                                                                                                                                      rv, 
+                                                                                                                                                                                                                                                                                      spName, 
+                                                                                                                                                                                                                                                                                      h >>
+                                                                                                                                                                                                                                                                 ELSE /\ IF K(bcur[self]) = "spawn_thread"
+                                                                                                                                                                                                                                                                            THEN /\ h' = ObsSpawn(h, self, 1)
+                                                                                                                                                                                                                                                                                 /\ spName' = [spName EXCEPT ![self] = PoolNames[nspawned + 1]]
+                                                                                                                                                                                                                                                                                 /\ palive' = [palive EXCEPT ![PoolNames[nspawned + 1]] = TRUE]
+                                                                                                                                                                                                                                                                                 /\ chanOpen' = [chanOpen EXCEPT ![PoolNames[nspawned + 1]] = TRUE]
+                                                                                                                                                                                                                                                                                 /\ nspawned' = nspawned + 1
+                                                                                                                                                                                                                                                                                 /\ pc' = [pc EXCEPT ![self] = "sp_push"]
+                                                                                                                                                                                                                                                                                 /\ rv' = rv
+                                                                                                                                                                                                                                                                            ELSE /\ rv' = [rv EXCEPT ![self] = 0]
+                                                                                                                                                                                                                                                                                 /\ pc' = [pc EXCEPT ![self] = "rb_step"]
+                                                                                                                                                                                                                                                                                 /\ UNCHANGED << nspawned, 
+                                                                                                                                                                                                                                                                                                 palive, 
+                                                                                                                                                                                                                                                                                                 chanOpen, 
+                                                                                                                                                                                                                                                                                                 spName, 
+                                                                                                                                                                                                                                                                                                 h >>
                                                                                                                                                                                                                                                                       /\ stack' = stack
-                                                                                                                                                                                                                                                           /\ h' = h
                                                                                                                                                                                                                                                 /\ UNCHANGED gthreads
                                                                                                                                                                                                                                      /\ bsp' = bsp
                                                                                                                                                                                                                           /\ UNCHANGED << wf, 
@@ -2864,20 +2981,19 @@ z_dispatch(self) == /\ pc[self] = "z_dispatch"
                                                                      yq, yop, 
                                                                      yclaimed >>
                     /\ UNCHANGED << qstate, qpoll, jobs, wakeBlocked, schedule, 
-                                    pthreads, nspawned, palive, busy, 
-                                    busyLocked, inbox, chanOpen, pfin, thrHeld, 
-                                    maxThreads, jaw, fres, fwaker, gwhist, 
-                                    dwSt, dwW, dblTaken, dblW1, dblW2, nextDW, 
-                                    ready, cwait, cnotif, cvHeld, sdres, 
-                                    jpanic, sfst, slotSt, qrSent, qrWaker, 
-                                    dnState, susDropped, dnWaker, barGen, 
-                                    cdone, rwb, rneed, stres, dsl, atomic, 
-                                    ppPending, ppClosed, ppNotify, ppNC, ppBP, 
-                                    ppDepth, ppAlive, ppHeld, pollFn, chuteFn, 
-                                    pwTaken, nextPoll, ppItem, pjLive, ppStage, 
-                                    dead, sti, smax, rq, rsq, bown, bwk, bi, 
-                                    bcur, jq, jj, jwk, fj, dq, dj, oq, oop, 
-                                    omode, oj, kj, pp, pwk, nq >>
+                                    pthreads, busy, busyLocked, inbox, pfin, 
+                                    thrHeld, maxThreads, jaw, fres, fwaker, 
+                                    gwhist, dwSt, dwW, dblTaken, dblW1, dblW2, 
+                                    nextDW, ready, cwait, cnotif, cvHeld, 
+                                    sdres, jpanic, sfst, slotSt, qrSent, 
+                                    qrWaker, dnState, susDropped, dnWaker, 
+                                    barGen, cdone, rwb, rneed, stres, dsl, 
+                                    atomic, ppPending, ppClosed, ppNotify, 
+                                    ppNC, ppBP, ppDepth, ppAlive, ppHeld, 
+                                    pollFn, chuteFn, pwTaken, nextPoll, ppItem, 
+                                    pjLive, ppStage, dead, sti, smax, rq, rsq, 
+                                    bown, bwk, bi, bcur, jq, jj, jwk, fj, dq, 
+                                    dj, oq, oop, omode, oj, kj, pp, pwk, nq >>
 
 z_then(self) == /\ pc[self] = "z_then"
                 /\ IF rv[self] = 0 /\ OpTab[bcur[self]].then = "await"
@@ -2906,16 +3022,16 @@ z_then(self) == /\ pc[self] = "z_then"
                                 dblW2, nextDW, ready, cwait, cnotif, cvHeld, 
                                 sdres, jpanic, sfst, slotSt, qrSent, qrWaker, 
                                 dnState, susDropped, dnWaker, parkTok, barGen, 
-                                myBar, cdone, rv, rwb, rneed, stres, dsl, 
-                                atomic, strong, ppPending, ppClosed, ppNotify, 
-                                ppNC, ppBP, ppDepth, ppAlive, ppHeld, inItems, 
-                                inClosed, inWaker, pollFn, chuteFn, pwTaken, 
-                                nextPoll, ppItem, pjLive, ppStage, h, dead, 
-                                sti, smax, rq, sq, sj, ww, rsq, bown, bwk, bi, 
-                                bcur, bw, bsp, jq, jj, jwk, fj, dq, dj, oq, 
-                                oop, omode, oj, yq, yop, yclaimed, tq, top, wf, 
-                                wop, sf, sctx, cop, kj, pp, pwk, np, nbp, nres, 
-                                dp, pf, pctx, pq, pj, pd, nq >>
+                                myBar, cdone, rv, rwb, rneed, stres, spName, 
+                                dsl, atomic, strong, ppPending, ppClosed, 
+                                ppNotify, ppNC, ppBP, ppDepth, ppAlive, ppHeld, 
+                                inItems, inClosed, inWaker, pollFn, chuteFn, 
+                                pwTaken, nextPoll, ppItem, pjLive, ppStage, h, 
+                                dead, sti, smax, rq, sq, sj, ww, rsq, bown, 
+                                bwk, bi, bcur, bw, bsp, jq, jj, jwk, fj, dq, 
+                                dj, oq, oop, omode, oj, yq, yop, yclaimed, tq, 
+                                top, wf, wop, sf, sctx, cop, kj, pp, pwk, np, 
+                                nbp, nres, dp, pf, pctx, pq, pj, pd, nq >>
 
 z_polled(self) == /\ pc[self] = "z_polled"
                   /\ IF rv[self] \in {0, 3, 4}
@@ -2932,16 +3048,16 @@ z_polled(self) == /\ pc[self] = "z_polled"
                                   sdres, jpanic, sfst, slotSt, qrSent, qrWaker, 
                                   dnState, susDropped, dnWaker, parkTok, 
                                   barGen, myBar, cdone, rv, rwb, rneed, stres, 
-                                  dsl, atomic, strong, ppPending, ppClosed, 
-                                  ppNotify, ppNC, ppBP, ppDepth, ppAlive, 
-                                  ppHeld, inItems, inClosed, inWaker, pollFn, 
-                                  chuteFn, pwTaken, nextPoll, ppItem, pjLive, 
-                                  ppStage, stack, dead, sti, smax, rq, sq, sj, 
-                                  ww, rsq, bown, bwk, bi, bcur, bw, bsp, jq, 
-                                  jj, jwk, fj, dq, dj, oq, oop, omode, oj, yq, 
-                                  yop, yclaimed, tq, top, af, wf, wop, sf, 
-                                  sctx, xf, cop, kj, pp, pwk, np, nbp, nres, 
-                                  dp, pf, pctx, pq, pj, pd, nq >>
+                                  spName, dsl, atomic, strong, ppPending, 
+                                  ppClosed, ppNotify, ppNC, ppBP, ppDepth, 
+                                  ppAlive, ppHeld, inItems, inClosed, inWaker, 
+                                  pollFn, chuteFn, pwTaken, nextPoll, ppItem, 
+                                  pjLive, ppStage, stack, dead, sti, smax, rq, 
+                                  sq, sj, ww, rsq, bown, bwk, bi, bcur, bw, 
+                                  bsp, jq, jj, jwk, fj, dq, dj, oq, oop, omode, 
+                                  oj, yq, yop, yclaimed, tq, top, af, wf, wop, 
+                                  sf, sctx, xf, cop, kj, pp, pwk, np, nbp, 
+                                  nres, dp, pf, pctx, pq, pj, pd, nq >>
 
 pp_setdepth(self) == /\ pc[self] = "pp_setdepth"
                      /\ ppDepth' = [ppDepth EXCEPT ![OpTab[bcur[self]].p] = OpTab[bcur[self]].n]
@@ -2957,17 +3073,17 @@ pp_setdepth(self) == /\ pc[self] = "pp_setdepth"
                                      jpanic, sfst, slotSt, qrSent, qrWaker, 
                                      dnState, susDropped, dnWaker, parkTok, 
                                      barGen, myBar, cdone, rwb, rneed, stres, 
-                                     dsl, atomic, strong, ppPending, ppClosed, 
-                                     ppNotify, ppNC, ppBP, ppAlive, ppHeld, 
-                                     inItems, inClosed, inWaker, pollFn, 
-                                     chuteFn, pwTaken, nextPoll, ppItem, 
-                                     pjLive, ppStage, h, stack, dead, sti, 
-                                     smax, rq, sq, sj, ww, rsq, bown, bwk, bi, 
-                                     bcur, bw, bsp, jq, jj, jwk, fj, dq, dj, 
-                                     oq, oop, omode, oj, yq, yop, yclaimed, tq, 
-                                     top, af, wf, wop, sf, sctx, xf, cop, kj, 
-                                     pp, pwk, np, nbp, nres, dp, pf, pctx, pq, 
-                                     pj, pd, nq >>
+                                     spName, dsl, atomic, strong, ppPending, 
+                                     ppClosed, ppNotify, ppNC, ppBP, ppAlive, 
+                                     ppHeld, inItems, inClosed, inWaker, 
+                                     pollFn, chuteFn, pwTaken, nextPoll, 
+                                     ppItem, pjLive, ppStage, h, stack, dead, 
+                                     sti, smax, rq, sq, sj, ww, rsq, bown, bwk, 
+                                     bi, bcur, bw, bsp, jq, jj, jwk, fj, dq, 
+                                     dj, oq, oop, omode, oj, yq, yop, yclaimed, 
+                                     tq, top, af, wf, wop, sf, sctx, xf, cop, 
+                                     kj, pp, pwk, np, nbp, nres, dp, pf, pctx, 
+                                     pq, pj, pd, nq >>
 
 z_spur(self) == /\ pc[self] = "z_spur"
                 /\ IF bsp[self] = << >>
@@ -2994,9 +3110,9 @@ z_spur(self) == /\ pc[self] = "z_spur"
                                 dblW2, nextDW, ready, cwait, cnotif, cvHeld, 
                                 sdres, jpanic, sfst, slotSt, qrSent, qrWaker, 
                                 dnState, susDropped, dnWaker, barGen, myBar, 
-                                cdone, rv, rwb, rneed, stres, dsl, atomic, 
-                                strong, ppPending, ppClosed, ppNotify, ppNC, 
-                                ppBP, ppDepth, ppAlive, ppHeld, inItems, 
+                                cdone, rv, rwb, rneed, stres, spName, dsl, 
+                                atomic, strong, ppPending, ppClosed, ppNotify, 
+                                ppNC, ppBP, ppDepth, ppAlive, ppHeld, inItems, 
                                 inClosed, inWaker, pollFn, chuteFn, pwTaken, 
                                 nextPoll, ppItem, pjLive, ppStage, h, dead, 
                                 sti, smax, rq, sq, sj, rsq, bown, bwk, bi, 
@@ -3021,9 +3137,34 @@ rb_wait(self) == /\ pc[self] = "rb_wait"
                                  nextDW, ready, cwait, cnotif, cvHeld, sdres, 
                                  jpanic, sfst, slotSt, qrSent, qrWaker, 
                                  dnState, susDropped, dnWaker, barGen, myBar, 
-                                 cdone, rv, rwb, rneed, stres, dsl, atomic, 
-                                 strong, ppPending, ppClosed, ppNotify, ppNC, 
-                                 ppBP, ppDepth, ppAlive, ppHeld, inItems, 
+                                 cdone, rv, rwb, rneed, stres, spName, dsl, 
+                                 atomic, strong, ppPending, ppClosed, ppNotify, 
+                                 ppNC, ppBP, ppDepth, ppAlive, ppHeld, inItems, 
+                                 inClosed, inWaker, pollFn, chuteFn, pwTaken, 
+                                 nextPoll, ppItem, pjLive, ppStage, h, stack, 
+                                 dead, sti, smax, rq, sq, sj, ww, rsq, bown, 
+                                 bwk, bi, bcur, bw, bsp, jq, jj, jwk, fj, dq, 
+                                 dj, oq, oop, omode, oj, yq, yop, yclaimed, tq, 
+                                 top, af, wf, wop, sf, sctx, xf, cop, kj, pp, 
+                                 pwk, np, nbp, nres, dp, pf, pctx, pq, pj, pd, 
+                                 nq >>
+
+sp_push(self) == /\ pc[self] = "sp_push"
+                 /\ thrHeld = ""
+                 /\ pthreads' = Append(pthreads, spName[self])
+                 /\ rv' = [rv EXCEPT ![self] = 0]
+                 /\ pc' = [pc EXCEPT ![self] = "rb_step"]
+                 /\ UNCHANGED << qstate, qpoll, jobs, wakeBlocked, schedule, 
+                                 nspawned, palive, busy, busyLocked, inbox, 
+                                 chanOpen, pfin, thrHeld, maxThreads, jkind, 
+                                 jaw, fres, fwaker, gfired, gwaker, gthreads, 
+                                 gwhist, dwSt, dwW, dblTaken, dblW1, dblW2, 
+                                 nextDW, ready, cwait, cnotif, cvHeld, sdres, 
+                                 jpanic, sfst, slotSt, qrSent, qrWaker, 
+                                 dnState, susDropped, dnWaker, parkTok, barGen, 
+                                 myBar, cdone, rwb, rneed, stres, spName, dsl, 
+                                 atomic, strong, ppPending, ppClosed, ppNotify, 
+                                 ppNC, ppBP, ppDepth, ppAlive, ppHeld, inItems, 
                                  inClosed, inWaker, pollFn, chuteFn, pwTaken, 
                                  nextPoll, ppItem, pjLive, ppStage, h, stack, 
                                  dead, sti, smax, rq, sq, sj, ww, rsq, bown, 
@@ -3049,16 +3190,16 @@ mx_set(self) == /\ pc[self] = "mx_set"
                                 ready, cwait, cnotif, cvHeld, sdres, jpanic, 
                                 sfst, slotSt, qrSent, qrWaker, dnState, 
                                 susDropped, dnWaker, parkTok, barGen, myBar, 
-                                cdone, rwb, rneed, stres, dsl, atomic, strong, 
-                                ppPending, ppClosed, ppNotify, ppNC, ppBP, 
-                                ppDepth, ppAlive, ppHeld, inItems, inClosed, 
-                                inWaker, pollFn, chuteFn, pwTaken, nextPoll, 
-                                ppItem, pjLive, ppStage, stack, dead, sti, 
-                                smax, rq, sq, sj, ww, rsq, bown, bwk, bi, bcur, 
-                                bw, bsp, jq, jj, jwk, fj, dq, dj, oq, oop, 
-                                omode, oj, yq, yop, yclaimed, tq, top, af, wf, 
-                                wop, sf, sctx, xf, cop, kj, pp, pwk, np, nbp, 
-                                nres, dp, pf, pctx, pq, pj, pd, nq >>
+                                cdone, rwb, rneed, stres, spName, dsl, atomic, 
+                                strong, ppPending, ppClosed, ppNotify, ppNC, 
+                                ppBP, ppDepth, ppAlive, ppHeld, inItems, 
+                                inClosed, inWaker, pollFn, chuteFn, pwTaken, 
+                                nextPoll, ppItem, pjLive, ppStage, stack, dead, 
+                                sti, smax, rq, sq, sj, ww, rsq, bown, bwk, bi, 
+                                bcur, bw, bsp, jq, jj, jwk, fj, dq, dj, oq, 
+                                oop, omode, oj, yq, yop, yclaimed, tq, top, af, 
+                                wf, wop, sf, sctx, xf, cop, kj, pp, pwk, np, 
+                                nbp, nres, dp, pf, pctx, pq, pj, pd, nq >>
 
 z_mx_loop(self) == /\ pc[self] = "z_mx_loop"
                    /\ stack' = [stack EXCEPT ![self] = << [ procedure |->  "ScheduleThread",
@@ -3080,16 +3221,17 @@ z_mx_loop(self) == /\ pc[self] = "z_mx_loop"
                                    cwait, cnotif, cvHeld, sdres, jpanic, sfst, 
                                    slotSt, qrSent, qrWaker, dnState, 
                                    susDropped, dnWaker, parkTok, barGen, myBar, 
-                                   cdone, rv, rwb, rneed, stres, dsl, atomic, 
-                                   strong, ppPending, ppClosed, ppNotify, ppNC, 
-                                   ppBP, ppDepth, ppAlive, ppHeld, inItems, 
-                                   inClosed, inWaker, pollFn, chuteFn, pwTaken, 
-                                   nextPoll, ppItem, pjLive, ppStage, h, rq, 
-                                   sq, sj, ww, rsq, bown, bwk, bi, bcur, bw, 
-                                   bsp, jq, jj, jwk, fj, dq, dj, oq, oop, 
-                                   omode, oj, yq, yop, yclaimed, tq, top, af, 
-                                   wf, wop, sf, sctx, xf, cop, kj, pp, pwk, np, 
-                                   nbp, nres, dp, pf, pctx, pq, pj, pd, nq >>
+                                   cdone, rv, rwb, rneed, stres, spName, dsl, 
+                                   atomic, strong, ppPending, ppClosed, 
+                                   ppNotify, ppNC, ppBP, ppDepth, ppAlive, 
+                                   ppHeld, inItems, inClosed, inWaker, pollFn, 
+                                   chuteFn, pwTaken, nextPoll, ppItem, pjLive, 
+                                   ppStage, h, rq, sq, sj, ww, rsq, bown, bwk, 
+                                   bi, bcur, bw, bsp, jq, jj, jwk, fj, dq, dj, 
+                                   oq, oop, omode, oj, yq, yop, yclaimed, tq, 
+                                   top, af, wf, wop, sf, sctx, xf, cop, kj, pp, 
+                                   pwk, np, nbp, nres, dp, pf, pctx, pq, pj, 
+                                   pd, nq >>
 
 z_mx_chk(self) == /\ pc[self] = "z_mx_chk"
                   /\ IF stres[self]
@@ -3105,24 +3247,24 @@ z_mx_chk(self) == /\ pc[self] = "z_mx_chk"
                                   dblW2, nextDW, ready, cwait, cnotif, cvHeld, 
                                   sdres, jpanic, sfst, slotSt, qrSent, qrWaker, 
                                   dnState, susDropped, dnWaker, parkTok, 
-                                  barGen, myBar, cdone, rwb, rneed, stres, dsl, 
-                                  atomic, strong, ppPending, ppClosed, 
-                                  ppNotify, ppNC, ppBP, ppDepth, ppAlive, 
-                                  ppHeld, inItems, inClosed, inWaker, pollFn, 
-                                  chuteFn, pwTaken, nextPoll, ppItem, pjLive, 
-                                  ppStage, h, stack, dead, sti, smax, rq, sq, 
-                                  sj, ww, rsq, bown, bwk, bi, bcur, bw, bsp, 
-                                  jq, jj, jwk, fj, dq, dj, oq, oop, omode, oj, 
-                                  yq, yop, yclaimed, tq, top, af, wf, wop, sf, 
-                                  sctx, xf, cop, kj, pp, pwk, np, nbp, nres, 
-                                  dp, pf, pctx, pq, pj, pd, nq >>
+                                  barGen, myBar, cdone, rwb, rneed, stres, 
+                                  spName, dsl, atomic, strong, ppPending, 
+                                  ppClosed, ppNotify, ppNC, ppBP, ppDepth, 
+                                  ppAlive, ppHeld, inItems, inClosed, inWaker, 
+                                  pollFn, chuteFn, pwTaken, nextPoll, ppItem, 
+                                  pjLive, ppStage, h, stack, dead, sti, smax, 
+                                  rq, sq, sj, ww, rsq, bown, bwk, bi, bcur, bw, 
+                                  bsp, jq, jj, jwk, fj, dq, dj, oq, oop, omode, 
+                                  oj, yq, yop, yclaimed, tq, top, af, wf, wop, 
+                                  sf, sctx, xf, cop, kj, pp, pwk, np, nbp, 
+                                  nres, dp, pf, pctx, pq, pj, pd, nq >>
 
 RunOps(self) == rb_step(self) \/ z_finish(self) \/ z_pollaw(self)
                    \/ z_pollaw_after(self) \/ z_drop_ret(self)
                    \/ rb_bar(self) \/ rb_block(self) \/ z_dispatch(self)
                    \/ z_then(self) \/ z_polled(self) \/ pp_setdepth(self)
-                   \/ z_spur(self) \/ rb_wait(self) \/ mx_set(self)
-                   \/ z_mx_loop(self) \/ z_mx_chk(self)
+                   \/ z_spur(self) \/ rb_wait(self) \/ sp_push(self)
+                   \/ mx_set(self) \/ z_mx_loop(self) \/ z_mx_chk(self)
 
 z_rj(self) == /\ pc[self] = "z_rj"
               /\ IF K(jj[self]) \in {"desync", "sync", "try_sync"}
@@ -3492,13 +3634,14 @@ z_rj(self) == /\ pc[self] = "z_rj"
                               dwW, dblTaken, dblW1, dblW2, nextDW, ready, 
                               cwait, cnotif, cvHeld, jpanic, sfst, qrWaker, 
                               dnState, susDropped, dnWaker, barGen, myBar, 
-                              cdone, rwb, rneed, stres, dsl, atomic, ppPending, 
-                              ppClosed, ppNotify, ppNC, ppBP, ppDepth, ppAlive, 
-                              ppHeld, inItems, inClosed, inWaker, pollFn, 
-                              pwTaken, nextPoll, ppItem, pjLive, ppStage, dead, 
-                              sti, smax, rq, sq, sj, fj, dq, dj, oq, oop, 
-                              omode, oj, tq, top, af, wf, wop, sf, sctx, xf, 
-                              cop, np, nbp, nres, dp, pf, pctx, pq, pj, pd, nq >>
+                              cdone, rwb, rneed, stres, spName, dsl, atomic, 
+                              ppPending, ppClosed, ppNotify, ppNC, ppBP, 
+                              ppDepth, ppAlive, ppHeld, inItems, inClosed, 
+                              inWaker, pollFn, pwTaken, nextPoll, ppItem, 
+                              pjLive, ppStage, dead, sti, smax, rq, sq, sj, fj, 
+                              dq, dj, oq, oop, omode, oj, tq, top, af, wf, wop, 
+                              sf, sctx, xf, cop, np, nbp, nres, dp, pf, pctx, 
+                              pq, pj, pd, nq >>
 
 z_rj_ret(self) == /\ pc[self] = "z_rj_ret"
                   /\ pc' = [pc EXCEPT ![self] = Head(stack[self]).pc]
@@ -3515,16 +3658,16 @@ z_rj_ret(self) == /\ pc[self] = "z_rj_ret"
                                   sdres, jpanic, sfst, slotSt, qrSent, qrWaker, 
                                   dnState, susDropped, dnWaker, parkTok, 
                                   barGen, myBar, cdone, rv, rwb, rneed, stres, 
-                                  dsl, atomic, strong, ppPending, ppClosed, 
-                                  ppNotify, ppNC, ppBP, ppDepth, ppAlive, 
-                                  ppHeld, inItems, inClosed, inWaker, pollFn, 
-                                  chuteFn, pwTaken, nextPoll, ppItem, pjLive, 
-                                  ppStage, h, dead, sti, smax, rq, sq, sj, ww, 
-                                  rsq, bown, bwk, bi, bcur, bw, bsp, fj, dq, 
-                                  dj, oq, oop, omode, oj, yq, yop, yclaimed, 
-                                  tq, top, af, wf, wop, sf, sctx, xf, cop, kj, 
-                                  pp, pwk, np, nbp, nres, dp, pf, pctx, pq, pj, 
-                                  pd, nq >>
+                                  spName, dsl, atomic, strong, ppPending, 
+                                  ppClosed, ppNotify, ppNC, ppBP, ppDepth, 
+                                  ppAlive, ppHeld, inItems, inClosed, inWaker, 
+                                  pollFn, chuteFn, pwTaken, nextPoll, ppItem, 
+                                  pjLive, ppStage, h, dead, sti, smax, rq, sq, 
+                                  sj, ww, rsq, bown, bwk, bi, bcur, bw, bsp, 
+                                  fj, dq, dj, oq, oop, omode, oj, yq, yop, 
+                                  yclaimed, tq, top, af, wf, wop, sf, sctx, xf, 
+                                  cop, kj, pp, pwk, np, nbp, nres, dp, pf, 
+                                  pctx, pq, pj, pd, nq >>
 
 z_rj_ok(self) == /\ pc[self] = "z_rj_ok"
                  /\ rv' = [rv EXCEPT ![self] = 0]
@@ -3541,9 +3684,9 @@ z_rj_ok(self) == /\ pc[self] = "z_rj_ok"
                                  dblW2, nextDW, ready, cwait, cnotif, cvHeld, 
                                  sdres, jpanic, sfst, slotSt, qrSent, qrWaker, 
                                  dnState, susDropped, dnWaker, parkTok, barGen, 
-                                 myBar, cdone, rwb, rneed, stres, dsl, atomic, 
-                                 strong, ppPending, ppClosed, ppNotify, ppNC, 
-                                 ppBP, ppDepth, ppAlive, ppHeld, inItems, 
+                                 myBar, cdone, rwb, rneed, stres, spName, dsl, 
+                                 atomic, strong, ppPending, ppClosed, ppNotify, 
+                                 ppNC, ppBP, ppDepth, ppAlive, ppHeld, inItems, 
                                  inClosed, inWaker, pollFn, chuteFn, pwTaken, 
                                  nextPoll, ppItem, pjLive, ppStage, h, dead, 
                                  sti, smax, rq, sq, sj, ww, rsq, bown, bwk, bi, 
@@ -3577,16 +3720,16 @@ z_pp_gc(self) == /\ pc[self] = "z_pp_gc"
                                  dblW2, nextDW, ready, cwait, cnotif, cvHeld, 
                                  sdres, jpanic, sfst, slotSt, qrSent, qrWaker, 
                                  dnState, susDropped, dnWaker, parkTok, barGen, 
-                                 myBar, cdone, rv, rwb, rneed, stres, dsl, 
-                                 atomic, strong, ppPending, ppClosed, ppNotify, 
-                                 ppNC, ppBP, ppDepth, ppAlive, ppHeld, inItems, 
-                                 inClosed, inWaker, chuteFn, pwTaken, nextPoll, 
-                                 ppItem, ppStage, dead, sti, smax, rq, sq, sj, 
-                                 ww, rsq, bown, bwk, bi, bcur, bw, bsp, fj, dq, 
-                                 dj, oq, oop, omode, oj, yq, yop, yclaimed, tq, 
-                                 top, af, wf, wop, sf, sctx, xf, cop, kj, pp, 
-                                 pwk, np, nbp, nres, dp, pf, pctx, pq, pj, pd, 
-                                 nq >>
+                                 myBar, cdone, rv, rwb, rneed, stres, spName, 
+                                 dsl, atomic, strong, ppPending, ppClosed, 
+                                 ppNotify, ppNC, ppBP, ppDepth, ppAlive, 
+                                 ppHeld, inItems, inClosed, inWaker, chuteFn, 
+                                 pwTaken, nextPoll, ppItem, ppStage, dead, sti, 
+                                 smax, rq, sq, sj, ww, rsq, bown, bwk, bi, 
+                                 bcur, bw, bsp, fj, dq, dj, oq, oop, omode, oj, 
+                                 yq, yop, yclaimed, tq, top, af, wf, wop, sf, 
+                                 sctx, xf, cop, kj, pp, pwk, np, nbp, nres, dp, 
+                                 pf, pctx, pq, pj, pd, nq >>
 
 z_slot2(self) == /\ pc[self] = "z_slot2"
                  /\ IF dnState[jj[self]] # "open"
@@ -3612,16 +3755,16 @@ z_slot2(self) == /\ pc[self] = "z_slot2"
                                  dblW2, nextDW, ready, cwait, cnotif, cvHeld, 
                                  sdres, jpanic, sfst, slotSt, qrSent, qrWaker, 
                                  dnState, susDropped, parkTok, barGen, myBar, 
-                                 cdone, rwb, rneed, stres, dsl, atomic, strong, 
-                                 ppPending, ppClosed, ppNotify, ppNC, ppBP, 
-                                 ppDepth, ppAlive, ppHeld, inItems, inClosed, 
-                                 inWaker, pollFn, chuteFn, pwTaken, nextPoll, 
-                                 ppItem, pjLive, ppStage, h, dead, sti, smax, 
-                                 rq, sq, sj, ww, rsq, bown, bwk, bi, bcur, bw, 
-                                 bsp, fj, dq, dj, oq, oop, omode, oj, yq, yop, 
-                                 yclaimed, tq, top, af, wf, wop, sf, sctx, xf, 
-                                 cop, kj, pp, pwk, np, nbp, nres, dp, pf, pctx, 
-                                 pq, pj, pd, nq >>
+                                 cdone, rwb, rneed, stres, spName, dsl, atomic, 
+                                 strong, ppPending, ppClosed, ppNotify, ppNC, 
+                                 ppBP, ppDepth, ppAlive, ppHeld, inItems, 
+                                 inClosed, inWaker, pollFn, chuteFn, pwTaken, 
+                                 nextPoll, ppItem, pjLive, ppStage, h, dead, 
+                                 sti, smax, rq, sq, sj, ww, rsq, bown, bwk, bi, 
+                                 bcur, bw, bsp, fj, dq, dj, oq, oop, omode, oj, 
+                                 yq, yop, yclaimed, tq, top, af, wf, wop, sf, 
+                                 sctx, xf, cop, kj, pp, pwk, np, nbp, nres, dp, 
+                                 pf, pctx, pq, pj, pd, nq >>
 
 sus_signal(self) == /\ pc[self] = "sus_signal"
                     /\ LET w == fwaker[jj[self]] IN
@@ -3647,7 +3790,7 @@ sus_signal(self) == /\ pc[self] = "sus_signal"
                                     cvHeld, sdres, jpanic, sfst, slotSt, 
                                     qrSent, qrWaker, dnState, susDropped, 
                                     dnWaker, barGen, myBar, cdone, rv, rwb, 
-                                    rneed, stres, dsl, atomic, strong, 
+                                    rneed, stres, spName, dsl, atomic, strong, 
                                     ppPending, ppClosed, ppNotify, ppNC, ppBP, 
                                     ppDepth, ppAlive, ppHeld, inItems, 
                                     inClosed, inWaker, pollFn, chuteFn, 
@@ -3687,8 +3830,8 @@ sus_sigdrop(self) == /\ pc[self] = "sus_sigdrop"
                                      cnotif, cvHeld, sdres, jpanic, sfst, 
                                      slotSt, qrSent, qrWaker, dnState, 
                                      susDropped, dnWaker, parkTok, barGen, 
-                                     myBar, cdone, rwb, rneed, stres, dsl, 
-                                     atomic, strong, ppPending, ppClosed, 
+                                     myBar, cdone, rwb, rneed, stres, spName, 
+                                     dsl, atomic, strong, ppPending, ppClosed, 
                                      ppNotify, ppNC, ppBP, ppDepth, ppAlive, 
                                      ppHeld, inItems, inClosed, inWaker, 
                                      pollFn, chuteFn, pwTaken, nextPoll, 
@@ -3711,17 +3854,17 @@ sus_inner(self) == /\ pc[self] = "sus_inner"
                                    cwait, cnotif, cvHeld, sdres, jpanic, sfst, 
                                    slotSt, qrSent, qrWaker, dnState, 
                                    susDropped, dnWaker, parkTok, barGen, myBar, 
-                                   cdone, rv, rwb, rneed, stres, dsl, atomic, 
-                                   strong, ppPending, ppClosed, ppNotify, ppNC, 
-                                   ppBP, ppDepth, ppAlive, ppHeld, inItems, 
-                                   inClosed, inWaker, pollFn, chuteFn, pwTaken, 
-                                   nextPoll, ppItem, pjLive, ppStage, h, stack, 
-                                   dead, sti, smax, rq, sq, sj, ww, rsq, bown, 
-                                   bwk, bi, bcur, bw, bsp, jq, jj, jwk, fj, dq, 
-                                   dj, oq, oop, omode, oj, yq, yop, yclaimed, 
-                                   tq, top, af, wf, wop, sf, sctx, xf, cop, kj, 
-                                   pp, pwk, np, nbp, nres, dp, pf, pctx, pq, 
-                                   pj, pd, nq >>
+                                   cdone, rv, rwb, rneed, stres, spName, dsl, 
+                                   atomic, strong, ppPending, ppClosed, 
+                                   ppNotify, ppNC, ppBP, ppDepth, ppAlive, 
+                                   ppHeld, inItems, inClosed, inWaker, pollFn, 
+                                   chuteFn, pwTaken, nextPoll, ppItem, pjLive, 
+                                   ppStage, h, stack, dead, sti, smax, rq, sq, 
+                                   sj, ww, rsq, bown, bwk, bi, bcur, bw, bsp, 
+                                   jq, jj, jwk, fj, dq, dj, oq, oop, omode, oj, 
+                                   yq, yop, yclaimed, tq, top, af, wf, wop, sf, 
+                                   sctx, xf, cop, kj, pp, pwk, np, nbp, nres, 
+                                   dp, pf, pctx, pq, pj, pd, nq >>
 
 sus_innerdrop(self) == /\ pc[self] = "sus_innerdrop"
                        /\ rv' = [rv EXCEPT ![self] = 0]
@@ -3740,16 +3883,16 @@ sus_innerdrop(self) == /\ pc[self] = "sus_innerdrop"
                                        cvHeld, sdres, jpanic, sfst, slotSt, 
                                        qrSent, qrWaker, dnState, susDropped, 
                                        dnWaker, parkTok, barGen, myBar, cdone, 
-                                       rwb, rneed, stres, dsl, atomic, strong, 
-                                       ppPending, ppClosed, ppNotify, ppNC, 
-                                       ppBP, ppDepth, ppAlive, ppHeld, inItems, 
-                                       inClosed, inWaker, pollFn, chuteFn, 
-                                       pwTaken, nextPoll, ppItem, pjLive, 
-                                       ppStage, h, dead, sti, smax, rq, sq, sj, 
-                                       ww, rsq, bown, bwk, bi, bcur, bw, bsp, 
-                                       fj, dq, dj, oq, oop, omode, oj, yq, yop, 
-                                       yclaimed, tq, top, af, wf, wop, sf, 
-                                       sctx, xf, cop, kj, pp, pwk, np, nbp, 
+                                       rwb, rneed, stres, spName, dsl, atomic, 
+                                       strong, ppPending, ppClosed, ppNotify, 
+                                       ppNC, ppBP, ppDepth, ppAlive, ppHeld, 
+                                       inItems, inClosed, inWaker, pollFn, 
+                                       chuteFn, pwTaken, nextPoll, ppItem, 
+                                       pjLive, ppStage, h, dead, sti, smax, rq, 
+                                       sq, sj, ww, rsq, bown, bwk, bi, bcur, 
+                                       bw, bsp, fj, dq, dj, oq, oop, omode, oj, 
+                                       yq, yop, yclaimed, tq, top, af, wf, wop, 
+                                       sf, sctx, xf, cop, kj, pp, pwk, np, nbp, 
                                        nres, dp, pf, pctx, pq, pj, pd, nq >>
 
 ws_take(self) == /\ pc[self] = "ws_take"
@@ -3778,16 +3921,16 @@ ws_take(self) == /\ pc[self] = "ws_take"
                                  nextDW, ready, cwait, cnotif, cvHeld, jpanic, 
                                  sfst, slotSt, qrSent, qrWaker, dnState, 
                                  susDropped, dnWaker, parkTok, barGen, myBar, 
-                                 cdone, rwb, rneed, stres, dsl, atomic, strong, 
-                                 ppPending, ppClosed, ppNotify, ppNC, ppBP, 
-                                 ppDepth, ppAlive, ppHeld, inItems, inClosed, 
-                                 inWaker, pollFn, chuteFn, pwTaken, nextPoll, 
-                                 ppItem, pjLive, ppStage, h, dead, sti, smax, 
-                                 rq, sq, sj, ww, rsq, bown, bwk, bi, bcur, bw, 
-                                 bsp, fj, dq, dj, oq, oop, omode, oj, yq, yop, 
-                                 yclaimed, tq, top, af, wf, wop, sf, sctx, xf, 
-                                 cop, kj, pp, pwk, np, nbp, nres, dp, pf, pctx, 
-                                 pq, pj, pd, nq >>
+                                 cdone, rwb, rneed, stres, spName, dsl, atomic, 
+                                 strong, ppPending, ppClosed, ppNotify, ppNC, 
+                                 ppBP, ppDepth, ppAlive, ppHeld, inItems, 
+                                 inClosed, inWaker, pollFn, chuteFn, pwTaken, 
+                                 nextPoll, ppItem, pjLive, ppStage, h, dead, 
+                                 sti, smax, rq, sq, sj, ww, rsq, bown, bwk, bi, 
+                                 bcur, bw, bsp, fj, dq, dj, oq, oop, omode, oj, 
+                                 yq, yop, yclaimed, tq, top, af, wf, wop, sf, 
+                                 sctx, xf, cop, kj, pp, pwk, np, nbp, nres, dp, 
+                                 pf, pctx, pq, pj, pd, nq >>
 
 RunJob(self) == z_rj(self) \/ z_rj_ret(self) \/ z_rj_ok(self)
                    \/ z_pp_gc(self) \/ z_slot2(self) \/ sus_signal(self)
@@ -3825,16 +3968,16 @@ fj_lock(self) == /\ pc[self] = "fj_lock"
                                  cwait, cvHeld, sdres, jpanic, sfst, slotSt, 
                                  qrSent, qrWaker, dnState, susDropped, dnWaker, 
                                  barGen, myBar, cdone, rv, rwb, rneed, stres, 
-                                 dsl, atomic, strong, ppPending, ppClosed, 
-                                 ppNotify, ppNC, ppBP, ppDepth, ppAlive, 
-                                 ppHeld, inItems, inClosed, inWaker, pollFn, 
-                                 chuteFn, pwTaken, nextPoll, ppItem, pjLive, 
-                                 ppStage, h, dead, sti, smax, rq, sq, sj, rsq, 
-                                 bown, bwk, bi, bcur, bw, bsp, jq, jj, jwk, dq, 
-                                 dj, oq, oop, omode, oj, yq, yop, yclaimed, tq, 
-                                 top, af, wf, wop, sf, sctx, xf, cop, kj, pp, 
-                                 pwk, np, nbp, nres, dp, pf, pctx, pq, pj, pd, 
-                                 nq >>
+                                 spName, dsl, atomic, strong, ppPending, 
+                                 ppClosed, ppNotify, ppNC, ppBP, ppDepth, 
+                                 ppAlive, ppHeld, inItems, inClosed, inWaker, 
+                                 pollFn, chuteFn, pwTaken, nextPoll, ppItem, 
+                                 pjLive, ppStage, h, dead, sti, smax, rq, sq, 
+                                 sj, rsq, bown, bwk, bi, bcur, bw, bsp, jq, jj, 
+                                 jwk, dq, dj, oq, oop, omode, oj, yq, yop, 
+                                 yclaimed, tq, top, af, wf, wop, sf, sctx, xf, 
+                                 cop, kj, pp, pwk, np, nbp, nres, dp, pf, pctx, 
+                                 pq, pj, pd, nq >>
 
 z_fj_chk(self) == /\ pc[self] = "z_fj_chk"
                   /\ IF jpanic[fj[self]] /\ jkind[fj[self]] = "fut"
@@ -3852,16 +3995,16 @@ z_fj_chk(self) == /\ pc[self] = "z_fj_chk"
                                   sdres, jpanic, sfst, slotSt, qrSent, qrWaker, 
                                   dnState, susDropped, dnWaker, parkTok, 
                                   barGen, myBar, cdone, rv, rwb, rneed, stres, 
-                                  dsl, atomic, strong, ppPending, ppClosed, 
-                                  ppNotify, ppNC, ppBP, ppDepth, ppAlive, 
-                                  ppHeld, inItems, inClosed, inWaker, pollFn, 
-                                  chuteFn, pwTaken, nextPoll, ppItem, pjLive, 
-                                  ppStage, h, dead, sti, smax, rq, sq, sj, ww, 
-                                  rsq, bown, bwk, bi, bcur, bw, bsp, jq, jj, 
-                                  jwk, dq, dj, oq, oop, omode, oj, yq, yop, 
-                                  yclaimed, tq, top, af, wf, wop, sf, sctx, xf, 
-                                  cop, kj, pp, pwk, np, nbp, nres, dp, pf, 
-                                  pctx, pq, pj, pd, nq >>
+                                  spName, dsl, atomic, strong, ppPending, 
+                                  ppClosed, ppNotify, ppNC, ppBP, ppDepth, 
+                                  ppAlive, ppHeld, inItems, inClosed, inWaker, 
+                                  pollFn, chuteFn, pwTaken, nextPoll, ppItem, 
+                                  pjLive, ppStage, h, dead, sti, smax, rq, sq, 
+                                  sj, ww, rsq, bown, bwk, bi, bcur, bw, bsp, 
+                                  jq, jj, jwk, dq, dj, oq, oop, omode, oj, yq, 
+                                  yop, yclaimed, tq, top, af, wf, wop, sf, 
+                                  sctx, xf, cop, kj, pp, pwk, np, nbp, nres, 
+                                  dp, pf, pctx, pq, pj, pd, nq >>
 
 fj_sigdrop(self) == /\ pc[self] = "fj_sigdrop"
                     /\ pc' = [pc EXCEPT ![self] = Head(stack[self]).pc]
@@ -3876,17 +4019,18 @@ fj_sigdrop(self) == /\ pc[self] = "fj_sigdrop"
                                     cwait, cnotif, cvHeld, sdres, jpanic, sfst, 
                                     slotSt, qrSent, qrWaker, dnState, 
                                     susDropped, dnWaker, parkTok, barGen, 
-                                    myBar, cdone, rv, rwb, rneed, stres, dsl, 
-                                    atomic, strong, ppPending, ppClosed, 
-                                    ppNotify, ppNC, ppBP, ppDepth, ppAlive, 
-                                    ppHeld, inItems, inClosed, inWaker, pollFn, 
-                                    chuteFn, pwTaken, nextPoll, ppItem, pjLive, 
-                                    ppStage, h, dead, sti, smax, rq, sq, sj, 
-                                    ww, rsq, bown, bwk, bi, bcur, bw, bsp, jq, 
-                                    jj, jwk, dq, dj, oq, oop, omode, oj, yq, 
-                                    yop, yclaimed, tq, top, af, wf, wop, sf, 
-                                    sctx, xf, cop, kj, pp, pwk, np, nbp, nres, 
-                                    dp, pf, pctx, pq, pj, pd, nq >>
+                                    myBar, cdone, rv, rwb, rneed, stres, 
+                                    spName, dsl, atomic, strong, ppPending, 
+                                    ppClosed, ppNotify, ppNC, ppBP, ppDepth, 
+                                    ppAlive, ppHeld, inItems, inClosed, 
+                                    inWaker, pollFn, chuteFn, pwTaken, 
+                                    nextPoll, ppItem, pjLive, ppStage, h, dead, 
+                                    sti, smax, rq, sq, sj, ww, rsq, bown, bwk, 
+                                    bi, bcur, bw, bsp, jq, jj, jwk, dq, dj, oq, 
+                                    oop, omode, oj, yq, yop, yclaimed, tq, top, 
+                                    af, wf, wop, sf, sctx, xf, cop, kj, pp, 
+                                    pwk, np, nbp, nres, dp, pf, pctx, pq, pj, 
+                                    pd, nq >>
 
 FinishJob(self) == fj_lock(self) \/ z_fj_chk(self) \/ fj_sigdrop(self)
 
@@ -3914,9 +4058,9 @@ pd_deq(self) == /\ pc[self] = "pd_deq"
                                 nextDW, ready, cwait, cnotif, cvHeld, sdres, 
                                 jpanic, sfst, slotSt, qrSent, qrWaker, dnState, 
                                 susDropped, dnWaker, parkTok, barGen, myBar, 
-                                cdone, rv, rwb, rneed, stres, dsl, atomic, 
-                                strong, ppPending, ppClosed, ppNotify, ppNC, 
-                                ppBP, ppDepth, ppAlive, ppHeld, inItems, 
+                                cdone, rv, rwb, rneed, stres, spName, dsl, 
+                                atomic, strong, ppPending, ppClosed, ppNotify, 
+                                ppNC, ppBP, ppDepth, ppAlive, ppHeld, inItems, 
                                 inClosed, inWaker, pollFn, chuteFn, pwTaken, 
                                 nextPoll, ppItem, pjLive, ppStage, h, dead, 
                                 sti, smax, rq, sq, sj, ww, rsq, bown, bwk, bi, 
@@ -3957,17 +4101,18 @@ z_pd_after(self) == /\ pc[self] = "z_pd_after"
                                     cwait, cnotif, cvHeld, sdres, jpanic, sfst, 
                                     slotSt, qrSent, qrWaker, dnState, 
                                     susDropped, dnWaker, parkTok, barGen, 
-                                    myBar, cdone, rv, rwb, rneed, stres, dsl, 
-                                    atomic, strong, ppPending, ppClosed, 
-                                    ppNotify, ppNC, ppBP, ppDepth, ppAlive, 
-                                    ppHeld, inItems, inClosed, inWaker, pollFn, 
-                                    chuteFn, pwTaken, nextPoll, ppItem, pjLive, 
-                                    ppStage, h, dead, sti, smax, rq, sq, sj, 
-                                    ww, rsq, bown, bwk, bi, bcur, bw, bsp, jq, 
-                                    jj, jwk, dq, dj, oq, oop, omode, oj, yq, 
-                                    yop, yclaimed, tq, top, af, wf, wop, sf, 
-                                    sctx, xf, cop, kj, pp, pwk, np, nbp, nres, 
-                                    dp, pf, pctx, pq, pj, pd, nq >>
+                                    myBar, cdone, rv, rwb, rneed, stres, 
+                                    spName, dsl, atomic, strong, ppPending, 
+                                    ppClosed, ppNotify, ppNC, ppBP, ppDepth, 
+                                    ppAlive, ppHeld, inItems, inClosed, 
+                                    inWaker, pollFn, chuteFn, pwTaken, 
+                                    nextPoll, ppItem, pjLive, ppStage, h, dead, 
+                                    sti, smax, rq, sq, sj, ww, rsq, bown, bwk, 
+                                    bi, bcur, bw, bsp, jq, jj, jwk, dq, dj, oq, 
+                                    oop, omode, oj, yq, yop, yclaimed, tq, top, 
+                                    af, wf, wop, sf, sctx, xf, cop, kj, pp, 
+                                    pwk, np, nbp, nres, dp, pf, pctx, pq, pj, 
+                                    pd, nq >>
 
 pd_requeue(self) == /\ pc[self] = "pd_requeue"
                     /\ jobs' = [jobs EXCEPT ![dq[self]] = << dj[self] >> \o jobs[dq[self]]]
@@ -3981,17 +4126,18 @@ pd_requeue(self) == /\ pc[self] = "pd_requeue"
                                     cwait, cnotif, cvHeld, sdres, jpanic, sfst, 
                                     slotSt, qrSent, qrWaker, dnState, 
                                     susDropped, dnWaker, parkTok, barGen, 
-                                    myBar, cdone, rv, rwb, rneed, stres, dsl, 
-                                    atomic, strong, ppPending, ppClosed, 
-                                    ppNotify, ppNC, ppBP, ppDepth, ppAlive, 
-                                    ppHeld, inItems, inClosed, inWaker, pollFn, 
-                                    chuteFn, pwTaken, nextPoll, ppItem, pjLive, 
-                                    ppStage, h, stack, dead, sti, smax, rq, sq, 
-                                    sj, ww, rsq, bown, bwk, bi, bcur, bw, bsp, 
-                                    jq, jj, jwk, fj, dq, dj, oq, oop, omode, 
-                                    oj, yq, yop, yclaimed, tq, top, af, wf, 
-                                    wop, sf, sctx, xf, cop, kj, pp, pwk, np, 
-                                    nbp, nres, dp, pf, pctx, pq, pj, pd, nq >>
+                                    myBar, cdone, rv, rwb, rneed, stres, 
+                                    spName, dsl, atomic, strong, ppPending, 
+                                    ppClosed, ppNotify, ppNC, ppBP, ppDepth, 
+                                    ppAlive, ppHeld, inItems, inClosed, 
+                                    inWaker, pollFn, chuteFn, pwTaken, 
+                                    nextPoll, ppItem, pjLive, ppStage, h, 
+                                    stack, dead, sti, smax, rq, sq, sj, ww, 
+                                    rsq, bown, bwk, bi, bcur, bw, bsp, jq, jj, 
+                                    jwk, fj, dq, dj, oq, oop, omode, oj, yq, 
+                                    yop, yclaimed, tq, top, af, wf, wop, sf, 
+                                    sctx, xf, cop, kj, pp, pwk, np, nbp, nres, 
+                                    dp, pf, pctx, pq, pj, pd, nq >>
 
 pd_park(self) == /\ pc[self] = "pd_park"
                  /\ IF qstate[dq[self]] = "Running"
@@ -4015,9 +4161,9 @@ pd_park(self) == /\ pc[self] = "pd_park"
                                  nextDW, ready, cwait, cnotif, cvHeld, sdres, 
                                  jpanic, sfst, slotSt, qrSent, qrWaker, 
                                  dnState, susDropped, dnWaker, parkTok, barGen, 
-                                 myBar, cdone, rwb, rneed, stres, dsl, atomic, 
-                                 strong, ppPending, ppClosed, ppNotify, ppNC, 
-                                 ppBP, ppDepth, ppAlive, ppHeld, inItems, 
+                                 myBar, cdone, rwb, rneed, stres, spName, dsl, 
+                                 atomic, strong, ppPending, ppClosed, ppNotify, 
+                                 ppNC, ppBP, ppDepth, ppAlive, ppHeld, inItems, 
                                  inClosed, inWaker, pollFn, chuteFn, pwTaken, 
                                  nextPoll, ppItem, pjLive, ppStage, h, dead, 
                                  sti, smax, rq, sq, sj, ww, rsq, bown, bwk, bi, 
@@ -4054,16 +4200,16 @@ pd_end(self) == /\ pc[self] = "pd_end"
                                 nextDW, ready, cwait, cnotif, cvHeld, sdres, 
                                 jpanic, sfst, slotSt, qrSent, qrWaker, dnState, 
                                 susDropped, dnWaker, parkTok, barGen, myBar, 
-                                cdone, rwb, rneed, stres, dsl, atomic, strong, 
-                                ppPending, ppClosed, ppNotify, ppNC, ppBP, 
-                                ppDepth, ppAlive, ppHeld, inItems, inClosed, 
-                                inWaker, pollFn, chuteFn, pwTaken, nextPoll, 
-                                ppItem, pjLive, ppStage, h, dead, sti, smax, 
-                                rq, sq, sj, ww, rsq, bown, bwk, bi, bcur, bw, 
-                                bsp, jq, jj, jwk, fj, oq, oop, omode, oj, yq, 
-                                yop, yclaimed, tq, top, af, wf, wop, sf, sctx, 
-                                xf, cop, kj, pp, pwk, np, nbp, nres, dp, pf, 
-                                pctx, pq, pj, pd, nq >>
+                                cdone, rwb, rneed, stres, spName, dsl, atomic, 
+                                strong, ppPending, ppClosed, ppNotify, ppNC, 
+                                ppBP, ppDepth, ppAlive, ppHeld, inItems, 
+                                inClosed, inWaker, pollFn, chuteFn, pwTaken, 
+                                nextPoll, ppItem, pjLive, ppStage, h, dead, 
+                                sti, smax, rq, sq, sj, ww, rsq, bown, bwk, bi, 
+                                bcur, bw, bsp, jq, jj, jwk, fj, oq, oop, omode, 
+                                oj, yq, yop, yclaimed, tq, top, af, wf, wop, 
+                                sf, sctx, xf, cop, kj, pp, pwk, np, nbp, nres, 
+                                dp, pf, pctx, pq, pj, pd, nq >>
 
 pd_panic(self) == /\ pc[self] = "pd_panic"
                   /\ qstate' = [qstate EXCEPT ![dq[self]] = "Panicked"]
@@ -4080,14 +4226,14 @@ pd_panic(self) == /\ pc[self] = "pd_panic"
                                   nextDW, ready, cwait, cnotif, cvHeld, sdres, 
                                   jpanic, sfst, slotSt, qrSent, qrWaker, 
                                   dnState, susDropped, dnWaker, parkTok, 
-                                  barGen, myBar, cdone, rwb, rneed, stres, dsl, 
-                                  atomic, strong, ppPending, ppClosed, 
-                                  ppNotify, ppNC, ppBP, ppDepth, ppAlive, 
-                                  ppHeld, inItems, inClosed, inWaker, pollFn, 
-                                  chuteFn, pwTaken, nextPoll, ppItem, pjLive, 
-                                  ppStage, h, dead, sti, smax, rq, sq, sj, ww, 
-                                  rsq, bown, bwk, bi, bcur, bw, bsp, jq, jj, 
-                                  jwk, fj, oq, oop, omode, oj, yq, yop, 
+                                  barGen, myBar, cdone, rwb, rneed, stres, 
+                                  spName, dsl, atomic, strong, ppPending, 
+                                  ppClosed, ppNotify, ppNC, ppBP, ppDepth, 
+                                  ppAlive, ppHeld, inItems, inClosed, inWaker, 
+                                  pollFn, chuteFn, pwTaken, nextPoll, ppItem, 
+                                  pjLive, ppStage, h, dead, sti, smax, rq, sq, 
+                                  sj, ww, rsq, bown, bwk, bi, bcur, bw, bsp, 
+                                  jq, jj, jwk, fj, oq, oop, omode, oj, yq, yop, 
                                   yclaimed, tq, top, af, wf, wop, sf, sctx, xf, 
                                   cop, kj, pp, pwk, np, nbp, nres, dp, pf, 
                                   pctx, pq, pj, pd, nq >>
@@ -4130,15 +4276,16 @@ ro_deq(self) == /\ pc[self] = "ro_deq"
                                 nextDW, ready, cwait, cnotif, cvHeld, sdres, 
                                 jpanic, sfst, slotSt, qrSent, qrWaker, dnState, 
                                 susDropped, dnWaker, parkTok, barGen, myBar, 
-                                cdone, rwb, rneed, stres, dsl, atomic, strong, 
-                                ppPending, ppClosed, ppNotify, ppNC, ppBP, 
-                                ppDepth, ppAlive, ppHeld, inItems, inClosed, 
-                                inWaker, pollFn, chuteFn, pwTaken, nextPoll, 
-                                ppItem, pjLive, ppStage, h, dead, sti, smax, 
-                                rq, sq, sj, ww, rsq, bown, bwk, bi, bcur, bw, 
-                                bsp, fj, dq, dj, yq, yop, yclaimed, tq, top, 
-                                af, wf, wop, sf, sctx, xf, cop, kj, pp, pwk, 
-                                np, nbp, nres, dp, pf, pctx, pq, pj, pd, nq >>
+                                cdone, rwb, rneed, stres, spName, dsl, atomic, 
+                                strong, ppPending, ppClosed, ppNotify, ppNC, 
+                                ppBP, ppDepth, ppAlive, ppHeld, inItems, 
+                                inClosed, inWaker, pollFn, chuteFn, pwTaken, 
+                                nextPoll, ppItem, pjLive, ppStage, h, dead, 
+                                sti, smax, rq, sq, sj, ww, rsq, bown, bwk, bi, 
+                                bcur, bw, bsp, fj, dq, dj, yq, yop, yclaimed, 
+                                tq, top, af, wf, wop, sf, sctx, xf, cop, kj, 
+                                pp, pwk, np, nbp, nres, dp, pf, pctx, pq, pj, 
+                                pd, nq >>
 
 z_ro_after(self) == /\ pc[self] = "z_ro_after"
                     /\ IF rv[self] = 5
@@ -4172,17 +4319,18 @@ z_ro_after(self) == /\ pc[self] = "z_ro_after"
                                     cwait, cnotif, cvHeld, sdres, jpanic, sfst, 
                                     slotSt, qrSent, qrWaker, dnState, 
                                     susDropped, dnWaker, parkTok, barGen, 
-                                    myBar, cdone, rv, rwb, rneed, stres, dsl, 
-                                    atomic, strong, ppPending, ppClosed, 
-                                    ppNotify, ppNC, ppBP, ppDepth, ppAlive, 
-                                    ppHeld, inItems, inClosed, inWaker, pollFn, 
-                                    chuteFn, pwTaken, nextPoll, ppItem, pjLive, 
-                                    ppStage, h, dead, sti, smax, rq, sq, sj, 
-                                    ww, rsq, bown, bwk, bi, bcur, bw, bsp, jq, 
-                                    jj, jwk, dq, dj, oq, oop, omode, oj, yq, 
-                                    yop, yclaimed, tq, top, af, wf, wop, sf, 
-                                    sctx, xf, cop, kj, pp, pwk, np, nbp, nres, 
-                                    dp, pf, pctx, pq, pj, pd, nq >>
+                                    myBar, cdone, rv, rwb, rneed, stres, 
+                                    spName, dsl, atomic, strong, ppPending, 
+                                    ppClosed, ppNotify, ppNC, ppBP, ppDepth, 
+                                    ppAlive, ppHeld, inItems, inClosed, 
+                                    inWaker, pollFn, chuteFn, pwTaken, 
+                                    nextPoll, ppItem, pjLive, ppStage, h, dead, 
+                                    sti, smax, rq, sq, sj, ww, rsq, bown, bwk, 
+                                    bi, bcur, bw, bsp, jq, jj, jwk, dq, dj, oq, 
+                                    oop, omode, oj, yq, yop, yclaimed, tq, top, 
+                                    af, wf, wop, sf, sctx, xf, cop, kj, pp, 
+                                    pwk, np, nbp, nres, dp, pf, pctx, pq, pj, 
+                                    pd, nq >>
 
 z_ro_done(self) == /\ pc[self] = "z_ro_done"
                    /\ IF omode[self] = "sd" /\ ~sdres[oop[self]]
@@ -4204,16 +4352,16 @@ z_ro_done(self) == /\ pc[self] = "z_ro_done"
                                    cwait, cnotif, cvHeld, sdres, jpanic, sfst, 
                                    slotSt, qrSent, qrWaker, dnState, 
                                    susDropped, dnWaker, parkTok, barGen, myBar, 
-                                   cdone, rwb, rneed, stres, dsl, atomic, 
-                                   strong, ppPending, ppClosed, ppNotify, ppNC, 
-                                   ppBP, ppDepth, ppAlive, ppHeld, inItems, 
-                                   inClosed, inWaker, pollFn, chuteFn, pwTaken, 
-                                   nextPoll, ppItem, pjLive, ppStage, h, dead, 
-                                   sti, smax, rq, sq, sj, ww, rsq, bown, bwk, 
-                                   bi, bcur, bw, bsp, jq, jj, jwk, fj, dq, dj, 
-                                   yq, yop, yclaimed, tq, top, af, wf, wop, sf, 
-                                   sctx, xf, cop, kj, pp, pwk, np, nbp, nres, 
-                                   dp, pf, pctx, pq, pj, pd, nq >>
+                                   cdone, rwb, rneed, stres, spName, dsl, 
+                                   atomic, strong, ppPending, ppClosed, 
+                                   ppNotify, ppNC, ppBP, ppDepth, ppAlive, 
+                                   ppHeld, inItems, inClosed, inWaker, pollFn, 
+                                   chuteFn, pwTaken, nextPoll, ppItem, pjLive, 
+                                   ppStage, h, dead, sti, smax, rq, sq, sj, ww, 
+                                   rsq, bown, bwk, bi, bcur, bw, bsp, jq, jj, 
+                                   jwk, fj, dq, dj, yq, yop, yclaimed, tq, top, 
+                                   af, wf, wop, sf, sctx, xf, cop, kj, pp, pwk, 
+                                   np, nbp, nres, dp, pf, pctx, pq, pj, pd, nq >>
 
 z_ro_panic(self) == /\ pc[self] = "z_ro_panic"
                     /\ rv' = [rv EXCEPT ![self] = 9]
@@ -4232,8 +4380,8 @@ z_ro_panic(self) == /\ pc[self] = "z_ro_panic"
                                     cwait, cnotif, cvHeld, sdres, jpanic, sfst, 
                                     slotSt, qrSent, qrWaker, dnState, 
                                     susDropped, dnWaker, parkTok, barGen, 
-                                    myBar, cdone, rwb, rneed, stres, dsl, 
-                                    atomic, strong, ppPending, ppClosed, 
+                                    myBar, cdone, rwb, rneed, stres, spName, 
+                                    dsl, atomic, strong, ppPending, ppClosed, 
                                     ppNotify, ppNC, ppBP, ppDepth, ppAlive, 
                                     ppHeld, inItems, inClosed, inWaker, pollFn, 
                                     chuteFn, pwTaken, nextPoll, ppItem, pjLive, 
@@ -4258,7 +4406,7 @@ ro_park(self) == /\ pc[self] = "ro_park"
                                                                     \o stack[self]]
                             /\ pc' = [pc EXCEPT ![self] = "z_rj"]
                        ELSE /\ Assert(qstate[oq[self]] = "Running", 
-                                      "Failure of assertion at line 615, column 5.")
+                                      "Failure of assertion at line 630, column 5.")
                             /\ qstate' = [qstate EXCEPT ![oq[self]] = "WaitingForUnpark"]
                             /\ pc' = [pc EXCEPT ![self] = "ro_check"]
                             /\ UNCHANGED << stack, jq, jj, jwk >>
@@ -4270,16 +4418,17 @@ ro_park(self) == /\ pc[self] = "ro_park"
                                  nextDW, ready, cwait, cnotif, cvHeld, sdres, 
                                  jpanic, sfst, slotSt, qrSent, qrWaker, 
                                  dnState, susDropped, dnWaker, parkTok, barGen, 
-                                 myBar, cdone, rv, rwb, rneed, stres, dsl, 
-                                 atomic, strong, ppPending, ppClosed, ppNotify, 
-                                 ppNC, ppBP, ppDepth, ppAlive, ppHeld, inItems, 
-                                 inClosed, inWaker, pollFn, chuteFn, pwTaken, 
-                                 nextPoll, ppItem, pjLive, ppStage, h, dead, 
-                                 sti, smax, rq, sq, sj, ww, rsq, bown, bwk, bi, 
-                                 bcur, bw, bsp, fj, dq, dj, oq, oop, omode, oj, 
-                                 yq, yop, yclaimed, tq, top, af, wf, wop, sf, 
-                                 sctx, xf, cop, kj, pp, pwk, np, nbp, nres, dp, 
-                                 pf, pctx, pq, pj, pd, nq >>
+                                 myBar, cdone, rv, rwb, rneed, stres, spName, 
+                                 dsl, atomic, strong, ppPending, ppClosed, 
+                                 ppNotify, ppNC, ppBP, ppDepth, ppAlive, 
+                                 ppHeld, inItems, inClosed, inWaker, pollFn, 
+                                 chuteFn, pwTaken, nextPoll, ppItem, pjLive, 
+                                 ppStage, h, dead, sti, smax, rq, sq, sj, ww, 
+                                 rsq, bown, bwk, bi, bcur, bw, bsp, fj, dq, dj, 
+                                 oq, oop, omode, oj, yq, yop, yclaimed, tq, 
+                                 top, af, wf, wop, sf, sctx, xf, cop, kj, pp, 
+                                 pwk, np, nbp, nres, dp, pf, pctx, pq, pj, pd, 
+                                 nq >>
 
 ro_check(self) == /\ pc[self] = "ro_check"
                   /\ IF qstate[oq[self]] \in {"Running", "AwokenWhileRunning"}
@@ -4294,7 +4443,7 @@ ro_check(self) == /\ pc[self] = "ro_check"
                                                                      \o stack[self]]
                              /\ pc' = [pc EXCEPT ![self] = "z_rj"]
                         ELSE /\ Assert(qstate[oq[self]] = "WaitingForUnpark", 
-                                       "Failure of assertion at line 622, column 12.")
+                                       "Failure of assertion at line 637, column 12.")
                              /\ pc' = [pc EXCEPT ![self] = "ro_parked"]
                              /\ UNCHANGED << stack, jq, jj, jwk >>
                   /\ UNCHANGED << qstate, qpoll, jobs, wakeBlocked, schedule, 
@@ -4306,16 +4455,16 @@ ro_check(self) == /\ pc[self] = "ro_check"
                                   sdres, jpanic, sfst, slotSt, qrSent, qrWaker, 
                                   dnState, susDropped, dnWaker, parkTok, 
                                   barGen, myBar, cdone, rv, rwb, rneed, stres, 
-                                  dsl, atomic, strong, ppPending, ppClosed, 
-                                  ppNotify, ppNC, ppBP, ppDepth, ppAlive, 
-                                  ppHeld, inItems, inClosed, inWaker, pollFn, 
-                                  chuteFn, pwTaken, nextPoll, ppItem, pjLive, 
-                                  ppStage, h, dead, sti, smax, rq, sq, sj, ww, 
-                                  rsq, bown, bwk, bi, bcur, bw, bsp, fj, dq, 
-                                  dj, oq, oop, omode, oj, yq, yop, yclaimed, 
-                                  tq, top, af, wf, wop, sf, sctx, xf, cop, kj, 
-                                  pp, pwk, np, nbp, nres, dp, pf, pctx, pq, pj, 
-                                  pd, nq >>
+                                  spName, dsl, atomic, strong, ppPending, 
+                                  ppClosed, ppNotify, ppNC, ppBP, ppDepth, 
+                                  ppAlive, ppHeld, inItems, inClosed, inWaker, 
+                                  pollFn, chuteFn, pwTaken, nextPoll, ppItem, 
+                                  pjLive, ppStage, h, dead, sti, smax, rq, sq, 
+                                  sj, ww, rsq, bown, bwk, bi, bcur, bw, bsp, 
+                                  fj, dq, dj, oq, oop, omode, oj, yq, yop, 
+                                  yclaimed, tq, top, af, wf, wop, sf, sctx, xf, 
+                                  cop, kj, pp, pwk, np, nbp, nres, dp, pf, 
+                                  pctx, pq, pj, pd, nq >>
 
 ro_parked(self) == /\ pc[self] = "ro_parked"
                    /\ parkTok[self]
@@ -4331,16 +4480,17 @@ ro_parked(self) == /\ pc[self] = "ro_parked"
                                    cwait, cnotif, cvHeld, sdres, jpanic, sfst, 
                                    slotSt, qrSent, qrWaker, dnState, 
                                    susDropped, dnWaker, barGen, myBar, cdone, 
-                                   rv, rwb, rneed, stres, dsl, atomic, strong, 
-                                   ppPending, ppClosed, ppNotify, ppNC, ppBP, 
-                                   ppDepth, ppAlive, ppHeld, inItems, inClosed, 
-                                   inWaker, pollFn, chuteFn, pwTaken, nextPoll, 
-                                   ppItem, pjLive, ppStage, stack, dead, sti, 
-                                   smax, rq, sq, sj, ww, rsq, bown, bwk, bi, 
-                                   bcur, bw, bsp, jq, jj, jwk, fj, dq, dj, oq, 
-                                   oop, omode, oj, yq, yop, yclaimed, tq, top, 
-                                   af, wf, wop, sf, sctx, xf, cop, kj, pp, pwk, 
-                                   np, nbp, nres, dp, pf, pctx, pq, pj, pd, nq >>
+                                   rv, rwb, rneed, stres, spName, dsl, atomic, 
+                                   strong, ppPending, ppClosed, ppNotify, ppNC, 
+                                   ppBP, ppDepth, ppAlive, ppHeld, inItems, 
+                                   inClosed, inWaker, pollFn, chuteFn, pwTaken, 
+                                   nextPoll, ppItem, pjLive, ppStage, stack, 
+                                   dead, sti, smax, rq, sq, sj, ww, rsq, bown, 
+                                   bwk, bi, bcur, bw, bsp, jq, jj, jwk, fj, dq, 
+                                   dj, oq, oop, omode, oj, yq, yop, yclaimed, 
+                                   tq, top, af, wf, wop, sf, sctx, xf, cop, kj, 
+                                   pp, pwk, np, nbp, nres, dp, pf, pctx, pq, 
+                                   pj, pd, nq >>
 
 RunOne(self) == ro_deq(self) \/ z_ro_after(self) \/ z_ro_done(self)
                    \/ z_ro_panic(self) \/ ro_park(self) \/ ro_check(self)
@@ -4395,16 +4545,16 @@ sy_decide(self) == /\ pc[self] = "sy_decide"
                                    cwait, cnotif, cvHeld, sdres, jpanic, sfst, 
                                    slotSt, qrSent, qrWaker, dnState, 
                                    susDropped, dnWaker, parkTok, barGen, myBar, 
-                                   cdone, rwb, rneed, stres, dsl, atomic, 
-                                   strong, ppPending, ppClosed, ppNotify, ppNC, 
-                                   ppBP, ppDepth, ppAlive, ppHeld, inItems, 
-                                   inClosed, inWaker, pollFn, chuteFn, pwTaken, 
-                                   nextPoll, ppItem, pjLive, ppStage, h, dead, 
-                                   sti, smax, rq, sq, sj, ww, rsq, bown, bwk, 
-                                   bi, bcur, bw, bsp, fj, dq, dj, oq, oop, 
-                                   omode, oj, tq, top, af, wf, wop, sf, sctx, 
-                                   xf, cop, kj, pp, pwk, np, nbp, nres, dp, pf, 
-                                   pctx, pq, pj, pd, nq >>
+                                   cdone, rwb, rneed, stres, spName, dsl, 
+                                   atomic, strong, ppPending, ppClosed, 
+                                   ppNotify, ppNC, ppBP, ppDepth, ppAlive, 
+                                   ppHeld, inItems, inClosed, inWaker, pollFn, 
+                                   chuteFn, pwTaken, nextPoll, ppItem, pjLive, 
+                                   ppStage, h, dead, sti, smax, rq, sq, sj, ww, 
+                                   rsq, bown, bwk, bi, bcur, bw, bsp, fj, dq, 
+                                   dj, oq, oop, omode, oj, tq, top, af, wf, 
+                                   wop, sf, sctx, xf, cop, kj, pp, pwk, np, 
+                                   nbp, nres, dp, pf, pctx, pq, pj, pd, nq >>
 
 z_si_chk(self) == /\ pc[self] = "z_si_chk"
                   /\ IF rv[self] = 9
@@ -4419,16 +4569,16 @@ z_si_chk(self) == /\ pc[self] = "z_si_chk"
                                   sdres, jpanic, sfst, slotSt, qrSent, qrWaker, 
                                   dnState, susDropped, dnWaker, parkTok, 
                                   barGen, myBar, cdone, rv, rwb, rneed, stres, 
-                                  dsl, atomic, strong, ppPending, ppClosed, 
-                                  ppNotify, ppNC, ppBP, ppDepth, ppAlive, 
-                                  ppHeld, inItems, inClosed, inWaker, pollFn, 
-                                  chuteFn, pwTaken, nextPoll, ppItem, pjLive, 
-                                  ppStage, h, stack, dead, sti, smax, rq, sq, 
-                                  sj, ww, rsq, bown, bwk, bi, bcur, bw, bsp, 
-                                  jq, jj, jwk, fj, dq, dj, oq, oop, omode, oj, 
-                                  yq, yop, yclaimed, tq, top, af, wf, wop, sf, 
-                                  sctx, xf, cop, kj, pp, pwk, np, nbp, nres, 
-                                  dp, pf, pctx, pq, pj, pd, nq >>
+                                  spName, dsl, atomic, strong, ppPending, 
+                                  ppClosed, ppNotify, ppNC, ppBP, ppDepth, 
+                                  ppAlive, ppHeld, inItems, inClosed, inWaker, 
+                                  pollFn, chuteFn, pwTaken, nextPoll, ppItem, 
+                                  pjLive, ppStage, h, stack, dead, sti, smax, 
+                                  rq, sq, sj, ww, rsq, bown, bwk, bi, bcur, bw, 
+                                  bsp, jq, jj, jwk, fj, dq, dj, oq, oop, omode, 
+                                  oj, yq, yop, yclaimed, tq, top, af, wf, wop, 
+                                  sf, sctx, xf, cop, kj, pp, pwk, np, nbp, 
+                                  nres, dp, pf, pctx, pq, pj, pd, nq >>
 
 si_idle(self) == /\ pc[self] = "si_idle"
                  /\ qstate' = [qstate EXCEPT ![yq[self]] = "Idle"]
@@ -4446,16 +4596,17 @@ si_idle(self) == /\ pc[self] = "si_idle"
                                  nextDW, ready, cwait, cnotif, cvHeld, sdres, 
                                  jpanic, sfst, slotSt, qrSent, qrWaker, 
                                  dnState, susDropped, dnWaker, parkTok, barGen, 
-                                 myBar, cdone, rv, rwb, rneed, stres, dsl, 
-                                 atomic, strong, ppPending, ppClosed, ppNotify, 
-                                 ppNC, ppBP, ppDepth, ppAlive, ppHeld, inItems, 
-                                 inClosed, inWaker, pollFn, chuteFn, pwTaken, 
-                                 nextPoll, ppItem, pjLive, ppStage, h, dead, 
-                                 sti, smax, sq, sj, ww, rsq, bown, bwk, bi, 
-                                 bcur, bw, bsp, jq, jj, jwk, fj, dq, dj, oq, 
-                                 oop, omode, oj, yq, yop, yclaimed, tq, top, 
-                                 af, wf, wop, sf, sctx, xf, cop, kj, pp, pwk, 
-                                 np, nbp, nres, dp, pf, pctx, pq, pj, pd, nq >>
+                                 myBar, cdone, rv, rwb, rneed, stres, spName, 
+                                 dsl, atomic, strong, ppPending, ppClosed, 
+                                 ppNotify, ppNC, ppBP, ppDepth, ppAlive, 
+                                 ppHeld, inItems, inClosed, inWaker, pollFn, 
+                                 chuteFn, pwTaken, nextPoll, ppItem, pjLive, 
+                                 ppStage, h, dead, sti, smax, sq, sj, ww, rsq, 
+                                 bown, bwk, bi, bcur, bw, bsp, jq, jj, jwk, fj, 
+                                 dq, dj, oq, oop, omode, oj, yq, yop, yclaimed, 
+                                 tq, top, af, wf, wop, sf, sctx, xf, cop, kj, 
+                                 pp, pwk, np, nbp, nres, dp, pf, pctx, pq, pj, 
+                                 pd, nq >>
 
 z_si_ret(self) == /\ pc[self] = "z_si_ret"
                   /\ IF Unw(yop[self])
@@ -4475,16 +4626,17 @@ z_si_ret(self) == /\ pc[self] = "z_si_ret"
                                   dblW2, nextDW, ready, cwait, cnotif, cvHeld, 
                                   sdres, jpanic, sfst, slotSt, qrSent, qrWaker, 
                                   dnState, susDropped, dnWaker, parkTok, 
-                                  barGen, myBar, cdone, rwb, rneed, stres, dsl, 
-                                  atomic, strong, ppPending, ppClosed, 
-                                  ppNotify, ppNC, ppBP, ppDepth, ppAlive, 
-                                  ppHeld, inItems, inClosed, inWaker, pollFn, 
-                                  chuteFn, pwTaken, nextPoll, ppItem, pjLive, 
-                                  ppStage, h, dead, sti, smax, rq, sq, sj, ww, 
-                                  rsq, bown, bwk, bi, bcur, bw, bsp, jq, jj, 
-                                  jwk, fj, dq, dj, oq, oop, omode, oj, tq, top, 
-                                  af, wf, wop, sf, sctx, xf, cop, kj, pp, pwk, 
-                                  np, nbp, nres, dp, pf, pctx, pq, pj, pd, nq >>
+                                  barGen, myBar, cdone, rwb, rneed, stres, 
+                                  spName, dsl, atomic, strong, ppPending, 
+                                  ppClosed, ppNotify, ppNC, ppBP, ppDepth, 
+                                  ppAlive, ppHeld, inItems, inClosed, inWaker, 
+                                  pollFn, chuteFn, pwTaken, nextPoll, ppItem, 
+                                  pjLive, ppStage, h, dead, sti, smax, rq, sq, 
+                                  sj, ww, rsq, bown, bwk, bi, bcur, bw, bsp, 
+                                  jq, jj, jwk, fj, dq, dj, oq, oop, omode, oj, 
+                                  tq, top, af, wf, wop, sf, sctx, xf, cop, kj, 
+                                  pp, pwk, np, nbp, nres, dp, pf, pctx, pq, pj, 
+                                  pd, nq >>
 
 sy_unw(self) == /\ pc[self] = "sy_unw"
                 /\ qstate' = [qstate EXCEPT ![yq[self]] = "Panicked"]
@@ -4502,16 +4654,16 @@ sy_unw(self) == /\ pc[self] = "sy_unw"
                                 nextDW, ready, cwait, cnotif, cvHeld, sdres, 
                                 jpanic, sfst, slotSt, qrSent, qrWaker, dnState, 
                                 susDropped, dnWaker, parkTok, barGen, myBar, 
-                                cdone, rwb, rneed, stres, dsl, atomic, strong, 
-                                ppPending, ppClosed, ppNotify, ppNC, ppBP, 
-                                ppDepth, ppAlive, ppHeld, inItems, inClosed, 
-                                inWaker, pollFn, chuteFn, pwTaken, nextPoll, 
-                                ppItem, pjLive, ppStage, h, dead, sti, smax, 
-                                rq, sq, sj, ww, rsq, bown, bwk, bi, bcur, bw, 
-                                bsp, jq, jj, jwk, fj, dq, dj, oq, oop, omode, 
-                                oj, tq, top, af, wf, wop, sf, sctx, xf, cop, 
-                                kj, pp, pwk, np, nbp, nres, dp, pf, pctx, pq, 
-                                pj, pd, nq >>
+                                cdone, rwb, rneed, stres, spName, dsl, atomic, 
+                                strong, ppPending, ppClosed, ppNotify, ppNC, 
+                                ppBP, ppDepth, ppAlive, ppHeld, inItems, 
+                                inClosed, inWaker, pollFn, chuteFn, pwTaken, 
+                                nextPoll, ppItem, pjLive, ppStage, h, dead, 
+                                sti, smax, rq, sq, sj, ww, rsq, bown, bwk, bi, 
+                                bcur, bw, bsp, jq, jj, jwk, fj, dq, dj, oq, 
+                                oop, omode, oj, tq, top, af, wf, wop, sf, sctx, 
+                                xf, cop, kj, pp, pwk, np, nbp, nres, dp, pf, 
+                                pctx, pq, pj, pd, nq >>
 
 sd_push(self) == /\ pc[self] = "sd_push"
                  /\ jkind' = [jkind EXCEPT ![yop[self]] = "syncdrain"]
@@ -4536,16 +4688,16 @@ sd_push(self) == /\ pc[self] = "sd_push"
                                  nextDW, ready, cwait, cnotif, cvHeld, sdres, 
                                  jpanic, sfst, slotSt, qrSent, qrWaker, 
                                  dnState, susDropped, dnWaker, parkTok, barGen, 
-                                 myBar, cdone, rv, rwb, rneed, stres, dsl, 
-                                 atomic, strong, ppPending, ppClosed, ppNotify, 
-                                 ppNC, ppBP, ppDepth, ppAlive, ppHeld, inItems, 
-                                 inClosed, inWaker, pollFn, chuteFn, pwTaken, 
-                                 nextPoll, ppItem, pjLive, ppStage, h, dead, 
-                                 sti, smax, rq, sq, sj, ww, rsq, bown, bwk, bi, 
-                                 bcur, bw, bsp, jq, jj, jwk, fj, dq, dj, yq, 
-                                 yop, yclaimed, tq, top, af, wf, wop, sf, sctx, 
-                                 xf, cop, kj, pp, pwk, np, nbp, nres, dp, pf, 
-                                 pctx, pq, pj, pd, nq >>
+                                 myBar, cdone, rv, rwb, rneed, stres, spName, 
+                                 dsl, atomic, strong, ppPending, ppClosed, 
+                                 ppNotify, ppNC, ppBP, ppDepth, ppAlive, 
+                                 ppHeld, inItems, inClosed, inWaker, pollFn, 
+                                 chuteFn, pwTaken, nextPoll, ppItem, pjLive, 
+                                 ppStage, h, dead, sti, smax, rq, sq, sj, ww, 
+                                 rsq, bown, bwk, bi, bcur, bw, bsp, jq, jj, 
+                                 jwk, fj, dq, dj, yq, yop, yclaimed, tq, top, 
+                                 af, wf, wop, sf, sctx, xf, cop, kj, pp, pwk, 
+                                 np, nbp, nres, dp, pf, pctx, pq, pj, pd, nq >>
 
 z_sd_chk(self) == /\ pc[self] = "z_sd_chk"
                   /\ IF rv[self] = 9
@@ -4560,16 +4712,16 @@ z_sd_chk(self) == /\ pc[self] = "z_sd_chk"
                                   sdres, jpanic, sfst, slotSt, qrSent, qrWaker, 
                                   dnState, susDropped, dnWaker, parkTok, 
                                   barGen, myBar, cdone, rv, rwb, rneed, stres, 
-                                  dsl, atomic, strong, ppPending, ppClosed, 
-                                  ppNotify, ppNC, ppBP, ppDepth, ppAlive, 
-                                  ppHeld, inItems, inClosed, inWaker, pollFn, 
-                                  chuteFn, pwTaken, nextPoll, ppItem, pjLive, 
-                                  ppStage, h, stack, dead, sti, smax, rq, sq, 
-                                  sj, ww, rsq, bown, bwk, bi, bcur, bw, bsp, 
-                                  jq, jj, jwk, fj, dq, dj, oq, oop, omode, oj, 
-                                  yq, yop, yclaimed, tq, top, af, wf, wop, sf, 
-                                  sctx, xf, cop, kj, pp, pwk, np, nbp, nres, 
-                                  dp, pf, pctx, pq, pj, pd, nq >>
+                                  spName, dsl, atomic, strong, ppPending, 
+                                  ppClosed, ppNotify, ppNC, ppBP, ppDepth, 
+                                  ppAlive, ppHeld, inItems, inClosed, inWaker, 
+                                  pollFn, chuteFn, pwTaken, nextPoll, ppItem, 
+                                  pjLive, ppStage, h, stack, dead, sti, smax, 
+                                  rq, sq, sj, ww, rsq, bown, bwk, bi, bcur, bw, 
+                                  bsp, jq, jj, jwk, fj, dq, dj, oq, oop, omode, 
+                                  oj, yq, yop, yclaimed, tq, top, af, wf, wop, 
+                                  sf, sctx, xf, cop, kj, pp, pwk, np, nbp, 
+                                  nres, dp, pf, pctx, pq, pj, pd, nq >>
 
 sd_idle(self) == /\ pc[self] = "sd_idle"
                  /\ qstate' = [qstate EXCEPT ![yq[self]] = "Idle"]
@@ -4587,16 +4739,17 @@ sd_idle(self) == /\ pc[self] = "sd_idle"
                                  nextDW, ready, cwait, cnotif, cvHeld, sdres, 
                                  jpanic, sfst, slotSt, qrSent, qrWaker, 
                                  dnState, susDropped, dnWaker, parkTok, barGen, 
-                                 myBar, cdone, rv, rwb, rneed, stres, dsl, 
-                                 atomic, strong, ppPending, ppClosed, ppNotify, 
-                                 ppNC, ppBP, ppDepth, ppAlive, ppHeld, inItems, 
-                                 inClosed, inWaker, pollFn, chuteFn, pwTaken, 
-                                 nextPoll, ppItem, pjLive, ppStage, h, dead, 
-                                 sti, smax, sq, sj, ww, rsq, bown, bwk, bi, 
-                                 bcur, bw, bsp, jq, jj, jwk, fj, dq, dj, oq, 
-                                 oop, omode, oj, yq, yop, yclaimed, tq, top, 
-                                 af, wf, wop, sf, sctx, xf, cop, kj, pp, pwk, 
-                                 np, nbp, nres, dp, pf, pctx, pq, pj, pd, nq >>
+                                 myBar, cdone, rv, rwb, rneed, stres, spName, 
+                                 dsl, atomic, strong, ppPending, ppClosed, 
+                                 ppNotify, ppNC, ppBP, ppDepth, ppAlive, 
+                                 ppHeld, inItems, inClosed, inWaker, pollFn, 
+                                 chuteFn, pwTaken, nextPoll, ppItem, pjLive, 
+                                 ppStage, h, dead, sti, smax, sq, sj, ww, rsq, 
+                                 bown, bwk, bi, bcur, bw, bsp, jq, jj, jwk, fj, 
+                                 dq, dj, oq, oop, omode, oj, yq, yop, yclaimed, 
+                                 tq, top, af, wf, wop, sf, sctx, xf, cop, kj, 
+                                 pp, pwk, np, nbp, nres, dp, pf, pctx, pq, pj, 
+                                 pd, nq >>
 
 sb_reg(self) == /\ pc[self] = "sb_reg"
                 /\ wakeBlocked' = [wakeBlocked EXCEPT ![yq[self]] = Append(wakeBlocked[yq[self]], yop[self])]
@@ -4610,9 +4763,9 @@ sb_reg(self) == /\ pc[self] = "sb_reg"
                                 nextDW, ready, cwait, cnotif, sdres, jpanic, 
                                 sfst, slotSt, qrSent, qrWaker, dnState, 
                                 susDropped, dnWaker, parkTok, barGen, myBar, 
-                                cdone, rv, rwb, rneed, stres, dsl, atomic, 
-                                strong, ppPending, ppClosed, ppNotify, ppNC, 
-                                ppBP, ppDepth, ppAlive, ppHeld, inItems, 
+                                cdone, rv, rwb, rneed, stres, spName, dsl, 
+                                atomic, strong, ppPending, ppClosed, ppNotify, 
+                                ppNC, ppBP, ppDepth, ppAlive, ppHeld, inItems, 
                                 inClosed, inWaker, pollFn, chuteFn, pwTaken, 
                                 nextPoll, ppItem, pjLive, ppStage, h, stack, 
                                 dead, sti, smax, rq, sq, sj, ww, rsq, bown, 
@@ -4642,16 +4795,17 @@ sb_push(self) == /\ pc[self] = "sb_push"
                                  nextDW, ready, cwait, cnotif, cvHeld, sdres, 
                                  jpanic, sfst, slotSt, qrSent, qrWaker, 
                                  dnState, susDropped, dnWaker, parkTok, barGen, 
-                                 myBar, cdone, rv, rwb, rneed, stres, dsl, 
-                                 atomic, strong, ppPending, ppClosed, ppNotify, 
-                                 ppNC, ppBP, ppDepth, ppAlive, ppHeld, inItems, 
-                                 inClosed, inWaker, pollFn, chuteFn, pwTaken, 
-                                 nextPoll, ppItem, pjLive, ppStage, h, dead, 
-                                 sti, smax, sq, sj, ww, rsq, bown, bwk, bi, 
-                                 bcur, bw, bsp, jq, jj, jwk, fj, dq, dj, oq, 
-                                 oop, omode, oj, yq, yop, yclaimed, tq, top, 
-                                 af, wf, wop, sf, sctx, xf, cop, kj, pp, pwk, 
-                                 np, nbp, nres, dp, pf, pctx, pq, pj, pd, nq >>
+                                 myBar, cdone, rv, rwb, rneed, stres, spName, 
+                                 dsl, atomic, strong, ppPending, ppClosed, 
+                                 ppNotify, ppNC, ppBP, ppDepth, ppAlive, 
+                                 ppHeld, inItems, inClosed, inWaker, pollFn, 
+                                 chuteFn, pwTaken, nextPoll, ppItem, pjLive, 
+                                 ppStage, h, dead, sti, smax, sq, sj, ww, rsq, 
+                                 bown, bwk, bi, bcur, bw, bsp, jq, jj, jwk, fj, 
+                                 dq, dj, oq, oop, omode, oj, yq, yop, yclaimed, 
+                                 tq, top, af, wf, wop, sf, sctx, xf, cop, kj, 
+                                 pp, pwk, np, nbp, nres, dp, pf, pctx, pq, pj, 
+                                 pd, nq >>
 
 sb_lock(self) == /\ pc[self] = "sb_lock"
                  /\ IF yclaimed[self] /\ Unw(yop[self])
@@ -4668,16 +4822,17 @@ sb_lock(self) == /\ pc[self] = "sb_lock"
                                  nextDW, ready, cwait, cnotif, cvHeld, sdres, 
                                  jpanic, sfst, slotSt, qrSent, qrWaker, 
                                  dnState, susDropped, dnWaker, parkTok, barGen, 
-                                 myBar, cdone, rv, rwb, rneed, stres, dsl, 
-                                 atomic, strong, ppPending, ppClosed, ppNotify, 
-                                 ppNC, ppBP, ppDepth, ppAlive, ppHeld, inItems, 
-                                 inClosed, inWaker, pollFn, chuteFn, pwTaken, 
-                                 nextPoll, ppItem, pjLive, ppStage, h, stack, 
-                                 dead, sti, smax, rq, sq, sj, ww, rsq, bown, 
-                                 bwk, bi, bcur, bw, bsp, jq, jj, jwk, fj, dq, 
-                                 dj, oq, oop, omode, oj, yq, yop, tq, top, af, 
-                                 wf, wop, sf, sctx, xf, cop, kj, pp, pwk, np, 
-                                 nbp, nres, dp, pf, pctx, pq, pj, pd, nq >>
+                                 myBar, cdone, rv, rwb, rneed, stres, spName, 
+                                 dsl, atomic, strong, ppPending, ppClosed, 
+                                 ppNotify, ppNC, ppBP, ppDepth, ppAlive, 
+                                 ppHeld, inItems, inClosed, inWaker, pollFn, 
+                                 chuteFn, pwTaken, nextPoll, ppItem, pjLive, 
+                                 ppStage, h, stack, dead, sti, smax, rq, sq, 
+                                 sj, ww, rsq, bown, bwk, bi, bcur, bw, bsp, jq, 
+                                 jj, jwk, fj, dq, dj, oq, oop, omode, oj, yq, 
+                                 yop, tq, top, af, wf, wop, sf, sctx, xf, cop, 
+                                 kj, pp, pwk, np, nbp, nres, dp, pf, pctx, pq, 
+                                 pj, pd, nq >>
 
 z_sb_lock2(self) == /\ pc[self] = "z_sb_lock2"
                     /\ IF ready[yop[self]]
@@ -4705,17 +4860,18 @@ z_sb_lock2(self) == /\ pc[self] = "z_sb_lock2"
                                     dblW1, dblW2, nextDW, ready, sdres, jpanic, 
                                     sfst, slotSt, qrSent, qrWaker, dnState, 
                                     susDropped, dnWaker, parkTok, barGen, 
-                                    myBar, cdone, rv, rwb, rneed, stres, dsl, 
-                                    atomic, strong, ppPending, ppClosed, 
-                                    ppNotify, ppNC, ppBP, ppDepth, ppAlive, 
-                                    ppHeld, inItems, inClosed, inWaker, pollFn, 
-                                    chuteFn, pwTaken, nextPoll, ppItem, pjLive, 
-                                    ppStage, h, stack, dead, sti, smax, rq, sq, 
-                                    sj, ww, rsq, bown, bwk, bi, bcur, bw, bsp, 
-                                    jq, jj, jwk, fj, dq, dj, oq, oop, omode, 
-                                    oj, yq, yop, tq, top, af, wf, wop, sf, 
-                                    sctx, xf, cop, kj, pp, pwk, np, nbp, nres, 
-                                    dp, pf, pctx, pq, pj, pd, nq >>
+                                    myBar, cdone, rv, rwb, rneed, stres, 
+                                    spName, dsl, atomic, strong, ppPending, 
+                                    ppClosed, ppNotify, ppNC, ppBP, ppDepth, 
+                                    ppAlive, ppHeld, inItems, inClosed, 
+                                    inWaker, pollFn, chuteFn, pwTaken, 
+                                    nextPoll, ppItem, pjLive, ppStage, h, 
+                                    stack, dead, sti, smax, rq, sq, sj, ww, 
+                                    rsq, bown, bwk, bi, bcur, bw, bsp, jq, jj, 
+                                    jwk, fj, dq, dj, oq, oop, omode, oj, yq, 
+                                    yop, tq, top, af, wf, wop, sf, sctx, xf, 
+                                    cop, kj, pp, pwk, np, nbp, nres, dp, pf, 
+                                    pctx, pq, pj, pd, nq >>
 
 sb_claim(self) == /\ pc[self] = "sb_claim"
                   /\ IF qstate[yq[self]] \in {"Pending", "Idle"}
@@ -4733,16 +4889,17 @@ sb_claim(self) == /\ pc[self] = "sb_claim"
                                   ready, cwait, cnotif, cvHeld, sdres, jpanic, 
                                   sfst, slotSt, qrSent, qrWaker, dnState, 
                                   susDropped, dnWaker, parkTok, barGen, myBar, 
-                                  cdone, rv, rwb, rneed, stres, dsl, atomic, 
-                                  strong, ppPending, ppClosed, ppNotify, ppNC, 
-                                  ppBP, ppDepth, ppAlive, ppHeld, inItems, 
-                                  inClosed, inWaker, pollFn, chuteFn, pwTaken, 
-                                  nextPoll, ppItem, pjLive, ppStage, h, stack, 
-                                  dead, sti, smax, rq, sq, sj, ww, rsq, bown, 
-                                  bwk, bi, bcur, bw, bsp, jq, jj, jwk, fj, dq, 
-                                  dj, oq, oop, omode, oj, yq, yop, tq, top, af, 
-                                  wf, wop, sf, sctx, xf, cop, kj, pp, pwk, np, 
-                                  nbp, nres, dp, pf, pctx, pq, pj, pd, nq >>
+                                  cdone, rv, rwb, rneed, stres, spName, dsl, 
+                                  atomic, strong, ppPending, ppClosed, 
+                                  ppNotify, ppNC, ppBP, ppDepth, ppAlive, 
+                                  ppHeld, inItems, inClosed, inWaker, pollFn, 
+                                  chuteFn, pwTaken, nextPoll, ppItem, pjLive, 
+                                  ppStage, h, stack, dead, sti, smax, rq, sq, 
+                                  sj, ww, rsq, bown, bwk, bi, bcur, bw, bsp, 
+                                  jq, jj, jwk, fj, dq, dj, oq, oop, omode, oj, 
+                                  yq, yop, tq, top, af, wf, wop, sf, sctx, xf, 
+                                  cop, kj, pp, pwk, np, nbp, nres, dp, pf, 
+                                  pctx, pq, pj, pd, nq >>
 
 sb_chk(self) == /\ pc[self] = "sb_chk"
                 /\ IF ~ready[yop[self]]
@@ -4768,16 +4925,16 @@ sb_chk(self) == /\ pc[self] = "sb_chk"
                                 dblW2, nextDW, ready, cwait, cnotif, cvHeld, 
                                 sdres, jpanic, sfst, slotSt, qrSent, qrWaker, 
                                 dnState, susDropped, dnWaker, parkTok, barGen, 
-                                myBar, cdone, rv, rwb, rneed, stres, dsl, 
-                                atomic, strong, ppPending, ppClosed, ppNotify, 
-                                ppNC, ppBP, ppDepth, ppAlive, ppHeld, inItems, 
-                                inClosed, inWaker, pollFn, chuteFn, pwTaken, 
-                                nextPoll, ppItem, pjLive, ppStage, h, dead, 
-                                sti, smax, rq, sq, sj, ww, rsq, bown, bwk, bi, 
-                                bcur, bw, bsp, jq, jj, jwk, fj, dq, dj, yq, 
-                                yop, yclaimed, tq, top, af, wf, wop, sf, sctx, 
-                                xf, cop, kj, pp, pwk, np, nbp, nres, dp, pf, 
-                                pctx, pq, pj, pd, nq >>
+                                myBar, cdone, rv, rwb, rneed, stres, spName, 
+                                dsl, atomic, strong, ppPending, ppClosed, 
+                                ppNotify, ppNC, ppBP, ppDepth, ppAlive, ppHeld, 
+                                inItems, inClosed, inWaker, pollFn, chuteFn, 
+                                pwTaken, nextPoll, ppItem, pjLive, ppStage, h, 
+                                dead, sti, smax, rq, sq, sj, ww, rsq, bown, 
+                                bwk, bi, bcur, bw, bsp, jq, jj, jwk, fj, dq, 
+                                dj, yq, yop, yclaimed, tq, top, af, wf, wop, 
+                                sf, sctx, xf, cop, kj, pp, pwk, np, nbp, nres, 
+                                dp, pf, pctx, pq, pj, pd, nq >>
 
 sb_idle(self) == /\ pc[self] = "sb_idle"
                  /\ qstate' = [qstate EXCEPT ![yq[self]] = "Idle"]
@@ -4795,16 +4952,17 @@ sb_idle(self) == /\ pc[self] = "sb_idle"
                                  nextDW, ready, cwait, cnotif, cvHeld, sdres, 
                                  jpanic, sfst, slotSt, qrSent, qrWaker, 
                                  dnState, susDropped, dnWaker, parkTok, barGen, 
-                                 myBar, cdone, rv, rwb, rneed, stres, dsl, 
-                                 atomic, strong, ppPending, ppClosed, ppNotify, 
-                                 ppNC, ppBP, ppDepth, ppAlive, ppHeld, inItems, 
-                                 inClosed, inWaker, pollFn, chuteFn, pwTaken, 
-                                 nextPoll, ppItem, pjLive, ppStage, h, dead, 
-                                 sti, smax, sq, sj, ww, rsq, bown, bwk, bi, 
-                                 bcur, bw, bsp, jq, jj, jwk, fj, dq, dj, oq, 
-                                 oop, omode, oj, yq, yop, yclaimed, tq, top, 
-                                 af, wf, wop, sf, sctx, xf, cop, kj, pp, pwk, 
-                                 np, nbp, nres, dp, pf, pctx, pq, pj, pd, nq >>
+                                 myBar, cdone, rv, rwb, rneed, stres, spName, 
+                                 dsl, atomic, strong, ppPending, ppClosed, 
+                                 ppNotify, ppNC, ppBP, ppDepth, ppAlive, 
+                                 ppHeld, inItems, inClosed, inWaker, pollFn, 
+                                 chuteFn, pwTaken, nextPoll, ppItem, pjLive, 
+                                 ppStage, h, dead, sti, smax, sq, sj, ww, rsq, 
+                                 bown, bwk, bi, bcur, bw, bsp, jq, jj, jwk, fj, 
+                                 dq, dj, oq, oop, omode, oj, yq, yop, yclaimed, 
+                                 tq, top, af, wf, wop, sf, sctx, xf, cop, kj, 
+                                 pp, pwk, np, nbp, nres, dp, pf, pctx, pq, pj, 
+                                 pd, nq >>
 
 z_sb_chk(self) == /\ pc[self] = "z_sb_chk"
                   /\ IF rv[self] = 9
@@ -4830,16 +4988,17 @@ z_sb_chk(self) == /\ pc[self] = "z_sb_chk"
                                   dblW2, nextDW, ready, cwait, cnotif, sdres, 
                                   jpanic, sfst, slotSt, qrSent, qrWaker, 
                                   dnState, susDropped, dnWaker, parkTok, 
-                                  barGen, myBar, cdone, rwb, rneed, stres, dsl, 
-                                  atomic, strong, ppPending, ppClosed, 
-                                  ppNotify, ppNC, ppBP, ppDepth, ppAlive, 
-                                  ppHeld, inItems, inClosed, inWaker, pollFn, 
-                                  chuteFn, pwTaken, nextPoll, ppItem, pjLive, 
-                                  ppStage, h, dead, sti, smax, rq, sq, sj, ww, 
-                                  rsq, bown, bwk, bi, bcur, bw, bsp, jq, jj, 
-                                  jwk, fj, dq, dj, oq, oop, omode, oj, tq, top, 
-                                  af, wf, wop, sf, sctx, xf, cop, kj, pp, pwk, 
-                                  np, nbp, nres, dp, pf, pctx, pq, pj, pd, nq >>
+                                  barGen, myBar, cdone, rwb, rneed, stres, 
+                                  spName, dsl, atomic, strong, ppPending, 
+                                  ppClosed, ppNotify, ppNC, ppBP, ppDepth, 
+                                  ppAlive, ppHeld, inItems, inClosed, inWaker, 
+                                  pollFn, chuteFn, pwTaken, nextPoll, ppItem, 
+                                  pjLive, ppStage, h, dead, sti, smax, rq, sq, 
+                                  sj, ww, rsq, bown, bwk, bi, bcur, bw, bsp, 
+                                  jq, jj, jwk, fj, dq, dj, oq, oop, omode, oj, 
+                                  tq, top, af, wf, wop, sf, sctx, xf, cop, kj, 
+                                  pp, pwk, np, nbp, nres, dp, pf, pctx, pq, pj, 
+                                  pd, nq >>
 
 sb_wait(self) == /\ pc[self] = "sb_wait"
                  /\ cnotif[yop[self]]
@@ -4878,7 +5037,7 @@ sb_wait(self) == /\ pc[self] = "sb_wait"
                                  ready, sdres, jpanic, sfst, slotSt, qrSent, 
                                  qrWaker, dnState, susDropped, dnWaker, 
                                  parkTok, barGen, myBar, cdone, rv, rwb, rneed, 
-                                 stres, dsl, atomic, strong, ppPending, 
+                                 stres, spName, dsl, atomic, strong, ppPending, 
                                  ppClosed, ppNotify, ppNC, ppBP, ppDepth, 
                                  ppAlive, ppHeld, inItems, inClosed, inWaker, 
                                  pollFn, chuteFn, pwTaken, nextPoll, ppItem, 
@@ -4905,16 +5064,16 @@ sb_fin(self) == /\ pc[self] = "sb_fin"
                                 nextDW, ready, cwait, cnotif, cvHeld, sdres, 
                                 jpanic, sfst, slotSt, qrSent, qrWaker, dnState, 
                                 susDropped, dnWaker, parkTok, barGen, myBar, 
-                                cdone, rwb, rneed, stres, dsl, atomic, strong, 
-                                ppPending, ppClosed, ppNotify, ppNC, ppBP, 
-                                ppDepth, ppAlive, ppHeld, inItems, inClosed, 
-                                inWaker, pollFn, chuteFn, pwTaken, nextPoll, 
-                                ppItem, pjLive, ppStage, h, dead, sti, smax, 
-                                rq, sq, sj, ww, rsq, bown, bwk, bi, bcur, bw, 
-                                bsp, jq, jj, jwk, fj, dq, dj, oq, oop, omode, 
-                                oj, tq, top, af, wf, wop, sf, sctx, xf, cop, 
-                                kj, pp, pwk, np, nbp, nres, dp, pf, pctx, pq, 
-                                pj, pd, nq >>
+                                cdone, rwb, rneed, stres, spName, dsl, atomic, 
+                                strong, ppPending, ppClosed, ppNotify, ppNC, 
+                                ppBP, ppDepth, ppAlive, ppHeld, inItems, 
+                                inClosed, inWaker, pollFn, chuteFn, pwTaken, 
+                                nextPoll, ppItem, pjLive, ppStage, h, dead, 
+                                sti, smax, rq, sq, sj, ww, rsq, bown, bwk, bi, 
+                                bcur, bw, bsp, jq, jj, jwk, fj, dq, dj, oq, 
+                                oop, omode, oj, tq, top, af, wf, wop, sf, sctx, 
+                                xf, cop, kj, pp, pwk, np, nbp, nres, dp, pf, 
+                                pctx, pq, pj, pd, nq >>
 
 sy_panic(self) == /\ pc[self] = "sy_panic"
                   /\ qstate' = [qstate EXCEPT ![yq[self]] = "Panicked"]
@@ -4932,16 +5091,17 @@ sy_panic(self) == /\ pc[self] = "sy_panic"
                                   nextDW, ready, cwait, cnotif, cvHeld, sdres, 
                                   jpanic, sfst, slotSt, qrSent, qrWaker, 
                                   dnState, susDropped, dnWaker, parkTok, 
-                                  barGen, myBar, cdone, rwb, rneed, stres, dsl, 
-                                  atomic, strong, ppPending, ppClosed, 
-                                  ppNotify, ppNC, ppBP, ppDepth, ppAlive, 
-                                  ppHeld, inItems, inClosed, inWaker, pollFn, 
-                                  chuteFn, pwTaken, nextPoll, ppItem, pjLive, 
-                                  ppStage, h, dead, sti, smax, rq, sq, sj, ww, 
-                                  rsq, bown, bwk, bi, bcur, bw, bsp, jq, jj, 
-                                  jwk, fj, dq, dj, oq, oop, omode, oj, tq, top, 
-                                  af, wf, wop, sf, sctx, xf, cop, kj, pp, pwk, 
-                                  np, nbp, nres, dp, pf, pctx, pq, pj, pd, nq >>
+                                  barGen, myBar, cdone, rwb, rneed, stres, 
+                                  spName, dsl, atomic, strong, ppPending, 
+                                  ppClosed, ppNotify, ppNC, ppBP, ppDepth, 
+                                  ppAlive, ppHeld, inItems, inClosed, inWaker, 
+                                  pollFn, chuteFn, pwTaken, nextPoll, ppItem, 
+                                  pjLive, ppStage, h, dead, sti, smax, rq, sq, 
+                                  sj, ww, rsq, bown, bwk, bi, bcur, bw, bsp, 
+                                  jq, jj, jwk, fj, dq, dj, oq, oop, omode, oj, 
+                                  tq, top, af, wf, wop, sf, sctx, xf, cop, kj, 
+                                  pp, pwk, np, nbp, nres, dp, pf, pctx, pq, pj, 
+                                  pd, nq >>
 
 Sync(self) == sy_decide(self) \/ z_si_chk(self) \/ si_idle(self)
                  \/ z_si_ret(self) \/ sy_unw(self) \/ sd_push(self)
@@ -4998,16 +5158,16 @@ ts_decide(self) == /\ pc[self] = "ts_decide"
                                    cwait, cnotif, cvHeld, sdres, jpanic, sfst, 
                                    slotSt, qrSent, qrWaker, dnState, 
                                    susDropped, dnWaker, parkTok, barGen, myBar, 
-                                   cdone, rwb, rneed, stres, dsl, atomic, 
-                                   strong, ppPending, ppClosed, ppNotify, ppNC, 
-                                   ppBP, ppDepth, ppAlive, ppHeld, inItems, 
-                                   inClosed, inWaker, pollFn, chuteFn, pwTaken, 
-                                   nextPoll, ppItem, pjLive, ppStage, h, dead, 
-                                   sti, smax, rq, sq, sj, ww, rsq, bown, bwk, 
-                                   bi, bcur, bw, bsp, fj, dq, dj, oq, oop, 
-                                   omode, oj, yq, yop, yclaimed, af, wf, wop, 
-                                   sf, sctx, xf, cop, kj, pp, pwk, np, nbp, 
-                                   nres, dp, pf, pctx, pq, pj, pd, nq >>
+                                   cdone, rwb, rneed, stres, spName, dsl, 
+                                   atomic, strong, ppPending, ppClosed, 
+                                   ppNotify, ppNC, ppBP, ppDepth, ppAlive, 
+                                   ppHeld, inItems, inClosed, inWaker, pollFn, 
+                                   chuteFn, pwTaken, nextPoll, ppItem, pjLive, 
+                                   ppStage, h, dead, sti, smax, rq, sq, sj, ww, 
+                                   rsq, bown, bwk, bi, bcur, bw, bsp, fj, dq, 
+                                   dj, oq, oop, omode, oj, yq, yop, yclaimed, 
+                                   af, wf, wop, sf, sctx, xf, cop, kj, pp, pwk, 
+                                   np, nbp, nres, dp, pf, pctx, pq, pj, pd, nq >>
 
 z_ts_chk(self) == /\ pc[self] = "z_ts_chk"
                   /\ IF rv[self] = 9
@@ -5022,16 +5182,16 @@ z_ts_chk(self) == /\ pc[self] = "z_ts_chk"
                                   sdres, jpanic, sfst, slotSt, qrSent, qrWaker, 
                                   dnState, susDropped, dnWaker, parkTok, 
                                   barGen, myBar, cdone, rv, rwb, rneed, stres, 
-                                  dsl, atomic, strong, ppPending, ppClosed, 
-                                  ppNotify, ppNC, ppBP, ppDepth, ppAlive, 
-                                  ppHeld, inItems, inClosed, inWaker, pollFn, 
-                                  chuteFn, pwTaken, nextPoll, ppItem, pjLive, 
-                                  ppStage, h, stack, dead, sti, smax, rq, sq, 
-                                  sj, ww, rsq, bown, bwk, bi, bcur, bw, bsp, 
-                                  jq, jj, jwk, fj, dq, dj, oq, oop, omode, oj, 
-                                  yq, yop, yclaimed, tq, top, af, wf, wop, sf, 
-                                  sctx, xf, cop, kj, pp, pwk, np, nbp, nres, 
-                                  dp, pf, pctx, pq, pj, pd, nq >>
+                                  spName, dsl, atomic, strong, ppPending, 
+                                  ppClosed, ppNotify, ppNC, ppBP, ppDepth, 
+                                  ppAlive, ppHeld, inItems, inClosed, inWaker, 
+                                  pollFn, chuteFn, pwTaken, nextPoll, ppItem, 
+                                  pjLive, ppStage, h, stack, dead, sti, smax, 
+                                  rq, sq, sj, ww, rsq, bown, bwk, bi, bcur, bw, 
+                                  bsp, jq, jj, jwk, fj, dq, dj, oq, oop, omode, 
+                                  oj, yq, yop, yclaimed, tq, top, af, wf, wop, 
+                                  sf, sctx, xf, cop, kj, pp, pwk, np, nbp, 
+                                  nres, dp, pf, pctx, pq, pj, pd, nq >>
 
 ts_idle(self) == /\ pc[self] = "ts_idle"
                  /\ qstate' = [qstate EXCEPT ![tq[self]] = "Idle"]
@@ -5049,16 +5209,17 @@ ts_idle(self) == /\ pc[self] = "ts_idle"
                                  nextDW, ready, cwait, cnotif, cvHeld, sdres, 
                                  jpanic, sfst, slotSt, qrSent, qrWaker, 
                                  dnState, susDropped, dnWaker, parkTok, barGen, 
-                                 myBar, cdone, rv, rwb, rneed, stres, dsl, 
-                                 atomic, strong, ppPending, ppClosed, ppNotify, 
-                                 ppNC, ppBP, ppDepth, ppAlive, ppHeld, inItems, 
-                                 inClosed, inWaker, pollFn, chuteFn, pwTaken, 
-                                 nextPoll, ppItem, pjLive, ppStage, h, dead, 
-                                 sti, smax, sq, sj, ww, rsq, bown, bwk, bi, 
-                                 bcur, bw, bsp, jq, jj, jwk, fj, dq, dj, oq, 
-                                 oop, omode, oj, yq, yop, yclaimed, tq, top, 
-                                 af, wf, wop, sf, sctx, xf, cop, kj, pp, pwk, 
-                                 np, nbp, nres, dp, pf, pctx, pq, pj, pd, nq >>
+                                 myBar, cdone, rv, rwb, rneed, stres, spName, 
+                                 dsl, atomic, strong, ppPending, ppClosed, 
+                                 ppNotify, ppNC, ppBP, ppDepth, ppAlive, 
+                                 ppHeld, inItems, inClosed, inWaker, pollFn, 
+                                 chuteFn, pwTaken, nextPoll, ppItem, pjLive, 
+                                 ppStage, h, dead, sti, smax, sq, sj, ww, rsq, 
+                                 bown, bwk, bi, bcur, bw, bsp, jq, jj, jwk, fj, 
+                                 dq, dj, oq, oop, omode, oj, yq, yop, yclaimed, 
+                                 tq, top, af, wf, wop, sf, sctx, xf, cop, kj, 
+                                 pp, pwk, np, nbp, nres, dp, pf, pctx, pq, pj, 
+                                 pd, nq >>
 
 z_ts_ret(self) == /\ pc[self] = "z_ts_ret"
                   /\ rv' = [rv EXCEPT ![self] = 0]
@@ -5074,17 +5235,17 @@ z_ts_ret(self) == /\ pc[self] = "z_ts_ret"
                                   dblW2, nextDW, ready, cwait, cnotif, cvHeld, 
                                   sdres, jpanic, sfst, slotSt, qrSent, qrWaker, 
                                   dnState, susDropped, dnWaker, parkTok, 
-                                  barGen, myBar, cdone, rwb, rneed, stres, dsl, 
-                                  atomic, strong, ppPending, ppClosed, 
-                                  ppNotify, ppNC, ppBP, ppDepth, ppAlive, 
-                                  ppHeld, inItems, inClosed, inWaker, pollFn, 
-                                  chuteFn, pwTaken, nextPoll, ppItem, pjLive, 
-                                  ppStage, h, dead, sti, smax, rq, sq, sj, ww, 
-                                  rsq, bown, bwk, bi, bcur, bw, bsp, jq, jj, 
-                                  jwk, fj, dq, dj, oq, oop, omode, oj, yq, yop, 
-                                  yclaimed, af, wf, wop, sf, sctx, xf, cop, kj, 
-                                  pp, pwk, np, nbp, nres, dp, pf, pctx, pq, pj, 
-                                  pd, nq >>
+                                  barGen, myBar, cdone, rwb, rneed, stres, 
+                                  spName, dsl, atomic, strong, ppPending, 
+                                  ppClosed, ppNotify, ppNC, ppBP, ppDepth, 
+                                  ppAlive, ppHeld, inItems, inClosed, inWaker, 
+                                  pollFn, chuteFn, pwTaken, nextPoll, ppItem, 
+                                  pjLive, ppStage, h, dead, sti, smax, rq, sq, 
+                                  sj, ww, rsq, bown, bwk, bi, bcur, bw, bsp, 
+                                  jq, jj, jwk, fj, dq, dj, oq, oop, omode, oj, 
+                                  yq, yop, yclaimed, af, wf, wop, sf, sctx, xf, 
+                                  cop, kj, pp, pwk, np, nbp, nres, dp, pf, 
+                                  pctx, pq, pj, pd, nq >>
 
 ts_panic(self) == /\ pc[self] = "ts_panic"
                   /\ qstate' = [qstate EXCEPT ![tq[self]] = "Panicked"]
@@ -5101,17 +5262,17 @@ ts_panic(self) == /\ pc[self] = "ts_panic"
                                   nextDW, ready, cwait, cnotif, cvHeld, sdres, 
                                   jpanic, sfst, slotSt, qrSent, qrWaker, 
                                   dnState, susDropped, dnWaker, parkTok, 
-                                  barGen, myBar, cdone, rwb, rneed, stres, dsl, 
-                                  atomic, strong, ppPending, ppClosed, 
-                                  ppNotify, ppNC, ppBP, ppDepth, ppAlive, 
-                                  ppHeld, inItems, inClosed, inWaker, pollFn, 
-                                  chuteFn, pwTaken, nextPoll, ppItem, pjLive, 
-                                  ppStage, h, dead, sti, smax, rq, sq, sj, ww, 
-                                  rsq, bown, bwk, bi, bcur, bw, bsp, jq, jj, 
-                                  jwk, fj, dq, dj, oq, oop, omode, oj, yq, yop, 
-                                  yclaimed, af, wf, wop, sf, sctx, xf, cop, kj, 
-                                  pp, pwk, np, nbp, nres, dp, pf, pctx, pq, pj, 
-                                  pd, nq >>
+                                  barGen, myBar, cdone, rwb, rneed, stres, 
+                                  spName, dsl, atomic, strong, ppPending, 
+                                  ppClosed, ppNotify, ppNC, ppBP, ppDepth, 
+                                  ppAlive, ppHeld, inItems, inClosed, inWaker, 
+                                  pollFn, chuteFn, pwTaken, nextPoll, ppItem, 
+                                  pjLive, ppStage, h, dead, sti, smax, rq, sq, 
+                                  sj, ww, rsq, bown, bwk, bi, bcur, bw, bsp, 
+                                  jq, jj, jwk, fj, dq, dj, oq, oop, omode, oj, 
+                                  yq, yop, yclaimed, af, wf, wop, sf, sctx, xf, 
+                                  cop, kj, pp, pwk, np, nbp, nres, dp, pf, 
+                                  pctx, pq, pj, pd, nq >>
 
 TrySync(self) == ts_decide(self) \/ z_ts_chk(self) \/ ts_idle(self)
                     \/ z_ts_ret(self) \/ ts_panic(self)
@@ -5151,16 +5312,16 @@ z_aw_poll(self) == /\ pc[self] = "z_aw_poll"
                                    cwait, cnotif, cvHeld, sdres, jpanic, sfst, 
                                    slotSt, qrSent, qrWaker, dnState, 
                                    susDropped, dnWaker, parkTok, barGen, myBar, 
-                                   cdone, rv, rwb, rneed, stres, dsl, atomic, 
-                                   strong, ppPending, ppClosed, ppNotify, ppNC, 
-                                   ppBP, ppDepth, ppAlive, ppHeld, inItems, 
-                                   inClosed, inWaker, pollFn, chuteFn, pwTaken, 
-                                   nextPoll, ppItem, pjLive, ppStage, h, dead, 
-                                   sti, smax, rq, sq, sj, ww, rsq, bown, bwk, 
-                                   bi, bcur, bw, bsp, jq, jj, jwk, fj, dq, dj, 
-                                   oq, oop, omode, oj, yq, yop, yclaimed, tq, 
-                                   top, af, wf, wop, xf, cop, kj, pp, pwk, np, 
-                                   nbp, nres, dp, nq >>
+                                   cdone, rv, rwb, rneed, stres, spName, dsl, 
+                                   atomic, strong, ppPending, ppClosed, 
+                                   ppNotify, ppNC, ppBP, ppDepth, ppAlive, 
+                                   ppHeld, inItems, inClosed, inWaker, pollFn, 
+                                   chuteFn, pwTaken, nextPoll, ppItem, pjLive, 
+                                   ppStage, h, dead, sti, smax, rq, sq, sj, ww, 
+                                   rsq, bown, bwk, bi, bcur, bw, bsp, jq, jj, 
+                                   jwk, fj, dq, dj, oq, oop, omode, oj, yq, 
+                                   yop, yclaimed, tq, top, af, wf, wop, xf, 
+                                   cop, kj, pp, pwk, np, nbp, nres, dp, nq >>
 
 z_aw_after(self) == /\ pc[self] = "z_aw_after"
                     /\ IF rv[self] = 5
@@ -5182,17 +5343,18 @@ z_aw_after(self) == /\ pc[self] = "z_aw_after"
                                     cwait, cnotif, cvHeld, sdres, jpanic, sfst, 
                                     slotSt, qrSent, qrWaker, dnState, 
                                     susDropped, dnWaker, parkTok, barGen, 
-                                    myBar, cdone, rv, rwb, rneed, stres, dsl, 
-                                    atomic, strong, ppPending, ppClosed, 
-                                    ppNotify, ppNC, ppBP, ppDepth, ppAlive, 
-                                    ppHeld, inItems, inClosed, inWaker, pollFn, 
-                                    chuteFn, pwTaken, nextPoll, ppItem, pjLive, 
-                                    ppStage, dead, sti, smax, rq, sq, sj, ww, 
-                                    rsq, bown, bwk, bi, bcur, bw, bsp, jq, jj, 
-                                    jwk, fj, dq, dj, oq, oop, omode, oj, yq, 
-                                    yop, yclaimed, tq, top, wf, wop, sf, sctx, 
-                                    xf, cop, kj, pp, pwk, np, nbp, nres, dp, 
-                                    pf, pctx, pq, pj, pd, nq >>
+                                    myBar, cdone, rv, rwb, rneed, stres, 
+                                    spName, dsl, atomic, strong, ppPending, 
+                                    ppClosed, ppNotify, ppNC, ppBP, ppDepth, 
+                                    ppAlive, ppHeld, inItems, inClosed, 
+                                    inWaker, pollFn, chuteFn, pwTaken, 
+                                    nextPoll, ppItem, pjLive, ppStage, dead, 
+                                    sti, smax, rq, sq, sj, ww, rsq, bown, bwk, 
+                                    bi, bcur, bw, bsp, jq, jj, jwk, fj, dq, dj, 
+                                    oq, oop, omode, oj, yq, yop, yclaimed, tq, 
+                                    top, wf, wop, sf, sctx, xf, cop, kj, pp, 
+                                    pwk, np, nbp, nres, dp, pf, pctx, pq, pj, 
+                                    pd, nq >>
 
 aw_park(self) == /\ pc[self] = "aw_park"
                  /\ parkTok[self]
@@ -5206,9 +5368,9 @@ aw_park(self) == /\ pc[self] = "aw_park"
                                  dblW2, nextDW, ready, cwait, cnotif, cvHeld, 
                                  sdres, jpanic, sfst, slotSt, qrSent, qrWaker, 
                                  dnState, susDropped, dnWaker, barGen, myBar, 
-                                 cdone, rv, rwb, rneed, stres, dsl, atomic, 
-                                 strong, ppPending, ppClosed, ppNotify, ppNC, 
-                                 ppBP, ppDepth, ppAlive, ppHeld, inItems, 
+                                 cdone, rv, rwb, rneed, stres, spName, dsl, 
+                                 atomic, strong, ppPending, ppClosed, ppNotify, 
+                                 ppNC, ppBP, ppDepth, ppAlive, ppHeld, inItems, 
                                  inClosed, inWaker, pollFn, chuteFn, pwTaken, 
                                  nextPoll, ppItem, pjLive, ppStage, h, stack, 
                                  dead, sti, smax, rq, sq, sj, ww, rsq, bown, 
@@ -5258,9 +5420,9 @@ fs_take(self) == /\ pc[self] = "fs_take"
                                  nextDW, ready, cwait, cnotif, cvHeld, sdres, 
                                  jpanic, sfst, slotSt, qrSent, qrWaker, 
                                  dnState, susDropped, dnWaker, parkTok, barGen, 
-                                 myBar, cdone, rwb, rneed, stres, dsl, atomic, 
-                                 strong, ppPending, ppClosed, ppNotify, ppNC, 
-                                 ppBP, ppDepth, ppAlive, ppHeld, inItems, 
+                                 myBar, cdone, rwb, rneed, stres, spName, dsl, 
+                                 atomic, strong, ppPending, ppClosed, ppNotify, 
+                                 ppNC, ppBP, ppDepth, ppAlive, ppHeld, inItems, 
                                  inClosed, inWaker, pollFn, chuteFn, pwTaken, 
                                  nextPoll, ppItem, pjLive, ppStage, dead, sti, 
                                  smax, rq, sq, sj, ww, rsq, bown, bwk, bi, 
@@ -5287,17 +5449,18 @@ z_fs_after(self) == /\ pc[self] = "z_fs_after"
                                     cwait, cnotif, cvHeld, sdres, jpanic, sfst, 
                                     slotSt, qrSent, qrWaker, dnState, 
                                     susDropped, dnWaker, parkTok, barGen, 
-                                    myBar, cdone, rv, rwb, rneed, stres, dsl, 
-                                    atomic, strong, ppPending, ppClosed, 
-                                    ppNotify, ppNC, ppBP, ppDepth, ppAlive, 
-                                    ppHeld, inItems, inClosed, inWaker, pollFn, 
-                                    chuteFn, pwTaken, nextPoll, ppItem, pjLive, 
-                                    ppStage, dead, sti, smax, rq, sq, sj, ww, 
-                                    rsq, bown, bwk, bi, bcur, bw, bsp, jq, jj, 
-                                    jwk, fj, dq, dj, oq, oop, omode, oj, yq, 
-                                    yop, yclaimed, tq, top, af, sf, sctx, xf, 
-                                    cop, kj, pp, pwk, np, nbp, nres, dp, pf, 
-                                    pctx, pq, pj, pd, nq >>
+                                    myBar, cdone, rv, rwb, rneed, stres, 
+                                    spName, dsl, atomic, strong, ppPending, 
+                                    ppClosed, ppNotify, ppNC, ppBP, ppDepth, 
+                                    ppAlive, ppHeld, inItems, inClosed, 
+                                    inWaker, pollFn, chuteFn, pwTaken, 
+                                    nextPoll, ppItem, pjLive, ppStage, dead, 
+                                    sti, smax, rq, sq, sj, ww, rsq, bown, bwk, 
+                                    bi, bcur, bw, bsp, jq, jj, jwk, fj, dq, dj, 
+                                    oq, oop, omode, oj, yq, yop, yclaimed, tq, 
+                                    top, af, sf, sctx, xf, cop, kj, pp, pwk, 
+                                    np, nbp, nres, dp, pf, pctx, pq, pj, pd, 
+                                    nq >>
 
 WaitSync(self) == fs_take(self) \/ z_fs_after(self)
 
@@ -5371,14 +5534,14 @@ z_ps(self) == /\ pc[self] = "z_ps"
                               cwait, cnotif, cvHeld, sdres, jpanic, sfst, 
                               slotSt, qrSent, qrWaker, dnState, susDropped, 
                               dnWaker, parkTok, barGen, myBar, cdone, rwb, 
-                              rneed, stres, dsl, atomic, strong, ppPending, 
-                              ppClosed, ppNotify, ppNC, ppBP, ppDepth, ppAlive, 
-                              ppHeld, inItems, inClosed, inWaker, pollFn, 
-                              chuteFn, pwTaken, nextPoll, ppItem, pjLive, 
-                              ppStage, h, dead, sti, smax, rq, sq, sj, ww, jq, 
-                              jj, jwk, fj, dq, dj, oq, oop, omode, oj, yq, yop, 
-                              yclaimed, tq, top, af, wf, wop, xf, cop, kj, pp, 
-                              pwk, np, nbp, nres, dp, nq >>
+                              rneed, stres, spName, dsl, atomic, strong, 
+                              ppPending, ppClosed, ppNotify, ppNC, ppBP, 
+                              ppDepth, ppAlive, ppHeld, inItems, inClosed, 
+                              inWaker, pollFn, chuteFn, pwTaken, nextPoll, 
+                              ppItem, pjLive, ppStage, h, dead, sti, smax, rq, 
+                              sq, sj, ww, jq, jj, jwk, fj, dq, dj, oq, oop, 
+                              omode, oj, yq, yop, yclaimed, tq, top, af, wf, 
+                              wop, xf, cop, kj, pp, pwk, np, nbp, nres, dp, nq >>
 
 z_ps_q(self) == /\ pc[self] = "z_ps_q"
                 /\ IF rv[self] \in {2, 4}
@@ -5429,15 +5592,15 @@ z_ps_q(self) == /\ pc[self] = "z_ps_q"
                                 dblW2, nextDW, ready, cwait, cnotif, cvHeld, 
                                 sdres, jpanic, slotSt, qrSent, susDropped, 
                                 dnWaker, parkTok, barGen, myBar, cdone, rwb, 
-                                rneed, stres, dsl, atomic, strong, ppPending, 
-                                ppClosed, ppNotify, ppNC, ppBP, ppDepth, 
-                                ppAlive, ppHeld, inItems, inClosed, inWaker, 
-                                pollFn, chuteFn, pwTaken, nextPoll, ppItem, 
-                                pjLive, ppStage, dead, sti, smax, rq, sq, sj, 
-                                ww, jq, jj, jwk, fj, dq, dj, oq, oop, omode, 
-                                oj, yq, yop, yclaimed, tq, top, af, wf, wop, 
-                                xf, cop, kj, pp, pwk, np, nbp, nres, dp, pf, 
-                                pctx, pq, pj, pd, nq >>
+                                rneed, stres, spName, dsl, atomic, strong, 
+                                ppPending, ppClosed, ppNotify, ppNC, ppBP, 
+                                ppDepth, ppAlive, ppHeld, inItems, inClosed, 
+                                inWaker, pollFn, chuteFn, pwTaken, nextPoll, 
+                                ppItem, pjLive, ppStage, dead, sti, smax, rq, 
+                                sq, sj, ww, jq, jj, jwk, fj, dq, dj, oq, oop, 
+                                omode, oj, yq, yop, yclaimed, tq, top, af, wf, 
+                                wop, xf, cop, kj, pp, pwk, np, nbp, nres, dp, 
+                                pf, pctx, pq, pj, pd, nq >>
 
 z_ps_f(self) == /\ pc[self] = "z_ps_f"
                 /\ IF rv[self] = 5
@@ -5482,7 +5645,7 @@ z_ps_f(self) == /\ pc[self] = "z_ps_f"
                                 dblW2, nextDW, ready, cwait, cnotif, cvHeld, 
                                 sdres, jpanic, slotSt, qrSent, qrWaker, 
                                 susDropped, dnWaker, barGen, myBar, cdone, rv, 
-                                rwb, rneed, stres, dsl, atomic, strong, 
+                                rwb, rneed, stres, spName, dsl, atomic, strong, 
                                 ppPending, ppClosed, ppNotify, ppNC, ppBP, 
                                 ppDepth, ppAlive, ppHeld, inItems, inClosed, 
                                 inWaker, pollFn, chuteFn, pwTaken, nextPoll, 
@@ -5516,16 +5679,16 @@ z_ps_s(self) == /\ pc[self] = "z_ps_s"
                                 dblW2, nextDW, ready, cwait, cnotif, cvHeld, 
                                 sdres, jpanic, sfst, slotSt, qrSent, qrWaker, 
                                 dnState, susDropped, dnWaker, parkTok, barGen, 
-                                myBar, cdone, rv, rwb, rneed, stres, dsl, 
-                                atomic, strong, ppPending, ppClosed, ppNotify, 
-                                ppNC, ppBP, ppDepth, ppAlive, ppHeld, inItems, 
-                                inClosed, inWaker, pollFn, chuteFn, pwTaken, 
-                                nextPoll, ppItem, pjLive, ppStage, h, dead, 
-                                sti, smax, rq, sq, sj, ww, rsq, bown, bwk, bi, 
-                                bcur, bw, bsp, jq, jj, jwk, fj, dq, dj, oq, 
-                                oop, omode, oj, yq, yop, yclaimed, tq, top, af, 
-                                wf, wop, sf, sctx, xf, cop, kj, pp, pwk, np, 
-                                nbp, nres, dp, nq >>
+                                myBar, cdone, rv, rwb, rneed, stres, spName, 
+                                dsl, atomic, strong, ppPending, ppClosed, 
+                                ppNotify, ppNC, ppBP, ppDepth, ppAlive, ppHeld, 
+                                inItems, inClosed, inWaker, pollFn, chuteFn, 
+                                pwTaken, nextPoll, ppItem, pjLive, ppStage, h, 
+                                dead, sti, smax, rq, sq, sj, ww, rsq, bown, 
+                                bwk, bi, bcur, bw, bsp, jq, jj, jwk, fj, dq, 
+                                dj, oq, oop, omode, oj, yq, yop, yclaimed, tq, 
+                                top, af, wf, wop, sf, sctx, xf, cop, kj, pp, 
+                                pwk, np, nbp, nres, dp, nq >>
 
 z_ps_s2(self) == /\ pc[self] = "z_ps_s2"
                  /\ IF rv[self] = 5
@@ -5548,9 +5711,9 @@ z_ps_s2(self) == /\ pc[self] = "z_ps_s2"
                                  dblW2, nextDW, ready, cwait, cnotif, cvHeld, 
                                  sdres, jpanic, slotSt, qrSent, qrWaker, 
                                  dnState, susDropped, dnWaker, parkTok, barGen, 
-                                 myBar, cdone, rwb, rneed, stres, dsl, atomic, 
-                                 strong, ppPending, ppClosed, ppNotify, ppNC, 
-                                 ppBP, ppDepth, ppAlive, ppHeld, inItems, 
+                                 myBar, cdone, rwb, rneed, stres, spName, dsl, 
+                                 atomic, strong, ppPending, ppClosed, ppNotify, 
+                                 ppNC, ppBP, ppDepth, ppAlive, ppHeld, inItems, 
                                  inClosed, inWaker, pollFn, chuteFn, pwTaken, 
                                  nextPoll, ppItem, pjLive, ppStage, h, dead, 
                                  sti, smax, rq, sq, sj, ww, rsq, bown, bwk, bi, 
@@ -5574,8 +5737,8 @@ z_ps_panic(self) == /\ pc[self] = "z_ps_panic"
                                     cwait, cnotif, cvHeld, sdres, jpanic, sfst, 
                                     slotSt, qrSent, qrWaker, dnState, 
                                     susDropped, dnWaker, parkTok, barGen, 
-                                    myBar, cdone, rwb, rneed, stres, dsl, 
-                                    atomic, strong, ppPending, ppClosed, 
+                                    myBar, cdone, rwb, rneed, stres, spName, 
+                                    dsl, atomic, strong, ppPending, ppClosed, 
                                     ppNotify, ppNC, ppBP, ppDepth, ppAlive, 
                                     ppHeld, inItems, inClosed, inWaker, pollFn, 
                                     chuteFn, pwTaken, nextPoll, ppItem, pjLive, 
@@ -5646,7 +5809,7 @@ z_df(self) == /\ pc[self] = "z_df"
                               dwSt, dwW, dblTaken, dblW1, dblW2, nextDW, ready, 
                               cwait, cnotif, cvHeld, sdres, jpanic, slotSt, 
                               qrSent, qrWaker, dnWaker, barGen, myBar, cdone, 
-                              rwb, rneed, stres, dsl, atomic, strong, 
+                              rwb, rneed, stres, spName, dsl, atomic, strong, 
                               ppPending, ppClosed, ppNotify, ppNC, ppBP, 
                               ppDepth, ppAlive, ppHeld, inItems, inClosed, 
                               inWaker, pollFn, chuteFn, pwTaken, nextPoll, 
@@ -5670,9 +5833,9 @@ z_df2(self) == /\ pc[self] = "z_df2"
                                dblW2, nextDW, ready, cwait, cnotif, cvHeld, 
                                sdres, jpanic, sfst, slotSt, qrSent, qrWaker, 
                                dnState, susDropped, dnWaker, parkTok, barGen, 
-                               myBar, cdone, rwb, rneed, stres, dsl, atomic, 
-                               strong, ppPending, ppClosed, ppNotify, ppNC, 
-                               ppBP, ppDepth, ppAlive, ppHeld, inItems, 
+                               myBar, cdone, rwb, rneed, stres, spName, dsl, 
+                               atomic, strong, ppPending, ppClosed, ppNotify, 
+                               ppNC, ppBP, ppDepth, ppAlive, ppHeld, inItems, 
                                inClosed, inWaker, pollFn, chuteFn, pwTaken, 
                                nextPoll, ppItem, pjLive, ppStage, h, dead, sti, 
                                smax, rq, sq, sj, ww, rsq, bown, bwk, bi, bcur, 
@@ -5695,17 +5858,17 @@ z_df_sus(self) == /\ pc[self] = "z_df_sus"
                                   nextDW, ready, cwait, cnotif, cvHeld, sdres, 
                                   jpanic, sfst, slotSt, qrSent, qrWaker, 
                                   dnState, susDropped, dnWaker, parkTok, 
-                                  barGen, myBar, cdone, rwb, rneed, stres, dsl, 
-                                  atomic, strong, ppPending, ppClosed, 
-                                  ppNotify, ppNC, ppBP, ppDepth, ppAlive, 
-                                  ppHeld, inItems, inClosed, inWaker, pollFn, 
-                                  chuteFn, pwTaken, nextPoll, ppItem, pjLive, 
-                                  ppStage, h, dead, sti, smax, rq, sq, sj, ww, 
-                                  rsq, bown, bwk, bi, bcur, bw, bsp, jq, jj, 
-                                  jwk, fj, dq, dj, oq, oop, omode, oj, yq, yop, 
-                                  yclaimed, tq, top, af, wf, wop, sf, sctx, 
-                                  cop, kj, pp, pwk, np, nbp, nres, dp, pf, 
-                                  pctx, pq, pj, pd, nq >>
+                                  barGen, myBar, cdone, rwb, rneed, stres, 
+                                  spName, dsl, atomic, strong, ppPending, 
+                                  ppClosed, ppNotify, ppNC, ppBP, ppDepth, 
+                                  ppAlive, ppHeld, inItems, inClosed, inWaker, 
+                                  pollFn, chuteFn, pwTaken, nextPoll, ppItem, 
+                                  pjLive, ppStage, h, dead, sti, smax, rq, sq, 
+                                  sj, ww, rsq, bown, bwk, bi, bcur, bw, bsp, 
+                                  jq, jj, jwk, fj, dq, dj, oq, oop, omode, oj, 
+                                  yq, yop, yclaimed, tq, top, af, wf, wop, sf, 
+                                  sctx, cop, kj, pp, pwk, np, nbp, nres, dp, 
+                                  pf, pctx, pq, pj, pd, nq >>
 
 DropFuture(self) == z_df(self) \/ z_df2(self) \/ z_df_sus(self)
 
@@ -5732,15 +5895,15 @@ z_pcr1(self) == /\ pc[self] = "z_pcr1"
                                 nextDW, ready, cwait, cnotif, cvHeld, sdres, 
                                 jpanic, sfst, slotSt, qrSent, qrWaker, dnState, 
                                 susDropped, dnWaker, parkTok, barGen, myBar, 
-                                cdone, rv, rwb, rneed, stres, dsl, atomic, 
-                                ppPending, ppClosed, ppNotify, ppNC, ppBP, 
-                                ppDepth, ppHeld, inItems, inClosed, inWaker, 
-                                chuteFn, pwTaken, ppItem, ppStage, h, dead, 
-                                sti, smax, rq, ww, rsq, bown, bwk, bi, bcur, 
-                                bw, bsp, jq, jj, jwk, fj, dq, dj, oq, oop, 
-                                omode, oj, yq, yop, yclaimed, tq, top, af, wf, 
-                                wop, sf, sctx, xf, cop, kj, pp, pwk, np, nbp, 
-                                nres, dp, pf, pctx, pq, pj, pd, nq >>
+                                cdone, rv, rwb, rneed, stres, spName, dsl, 
+                                atomic, ppPending, ppClosed, ppNotify, ppNC, 
+                                ppBP, ppDepth, ppHeld, inItems, inClosed, 
+                                inWaker, chuteFn, pwTaken, ppItem, ppStage, h, 
+                                dead, sti, smax, rq, ww, rsq, bown, bwk, bi, 
+                                bcur, bw, bsp, jq, jj, jwk, fj, dq, dj, oq, 
+                                oop, omode, oj, yq, yop, yclaimed, tq, top, af, 
+                                wf, wop, sf, sctx, xf, cop, kj, pp, pwk, np, 
+                                nbp, nres, dp, pf, pctx, pq, pj, pd, nq >>
 
 z_pcr2(self) == /\ pc[self] = "z_pcr2"
                 /\ strong' = [strong EXCEPT ![O(cop[self])] = strong[O(cop[self])] - 1]
@@ -5762,9 +5925,9 @@ z_pcr2(self) == /\ pc[self] = "z_pcr2"
                                 dblW2, nextDW, ready, cwait, cnotif, cvHeld, 
                                 sdres, jpanic, sfst, slotSt, qrSent, qrWaker, 
                                 dnState, susDropped, dnWaker, parkTok, barGen, 
-                                myBar, cdone, rv, rwb, rneed, stres, dsl, 
-                                atomic, ppPending, ppClosed, ppNotify, ppNC, 
-                                ppBP, ppDepth, ppAlive, ppHeld, inItems, 
+                                myBar, cdone, rv, rwb, rneed, stres, spName, 
+                                dsl, atomic, ppPending, ppClosed, ppNotify, 
+                                ppNC, ppBP, ppDepth, ppAlive, ppHeld, inItems, 
                                 inClosed, inWaker, pollFn, chuteFn, pwTaken, 
                                 nextPoll, ppItem, pjLive, ppStage, h, dead, 
                                 sti, smax, rq, sq, sj, ww, rsq, bown, bwk, bi, 
@@ -5785,16 +5948,16 @@ z_pcr3(self) == /\ pc[self] = "z_pcr3"
                                 dblW2, nextDW, ready, cwait, cnotif, cvHeld, 
                                 sdres, jpanic, sfst, slotSt, qrSent, qrWaker, 
                                 dnState, susDropped, dnWaker, parkTok, barGen, 
-                                myBar, cdone, rv, rwb, rneed, stres, dsl, 
-                                atomic, strong, ppPending, ppClosed, ppNotify, 
-                                ppNC, ppBP, ppDepth, ppAlive, ppHeld, inItems, 
-                                inClosed, inWaker, pollFn, chuteFn, pwTaken, 
-                                nextPoll, ppItem, pjLive, ppStage, h, dead, 
-                                sti, smax, rq, sq, sj, ww, rsq, bown, bwk, bi, 
-                                bcur, bw, bsp, jq, jj, jwk, fj, dq, dj, oq, 
-                                oop, omode, oj, yq, yop, yclaimed, tq, top, af, 
-                                wf, wop, sf, sctx, xf, kj, pp, pwk, np, nbp, 
-                                nres, dp, pf, pctx, pq, pj, pd, nq >>
+                                myBar, cdone, rv, rwb, rneed, stres, spName, 
+                                dsl, atomic, strong, ppPending, ppClosed, 
+                                ppNotify, ppNC, ppBP, ppDepth, ppAlive, ppHeld, 
+                                inItems, inClosed, inWaker, pollFn, chuteFn, 
+                                pwTaken, nextPoll, ppItem, pjLive, ppStage, h, 
+                                dead, sti, smax, rq, sq, sj, ww, rsq, bown, 
+                                bwk, bi, bcur, bw, bsp, jq, jj, jwk, fj, dq, 
+                                dj, oq, oop, omode, oj, yq, yop, yclaimed, tq, 
+                                top, af, wf, wop, sf, sctx, xf, kj, pp, pwk, 
+                                np, nbp, nres, dp, pf, pctx, pq, pj, pd, nq >>
 
 PipeCreate(self) == z_pcr1(self) \/ z_pcr2(self) \/ z_pcr3(self)
 
@@ -5811,17 +5974,18 @@ z_pp_entry(self) == /\ pc[self] = "z_pp_entry"
                                     cwait, cnotif, cvHeld, sdres, jpanic, sfst, 
                                     slotSt, qrSent, qrWaker, dnState, 
                                     susDropped, dnWaker, parkTok, barGen, 
-                                    myBar, cdone, rv, rwb, rneed, stres, dsl, 
-                                    atomic, strong, ppPending, ppClosed, 
-                                    ppNotify, ppNC, ppBP, ppDepth, ppAlive, 
-                                    ppHeld, inItems, inClosed, inWaker, pollFn, 
-                                    chuteFn, pwTaken, nextPoll, ppItem, pjLive, 
-                                    ppStage, h, stack, dead, sti, smax, rq, sq, 
-                                    sj, ww, rsq, bown, bwk, bi, bcur, bw, bsp, 
-                                    jq, jj, jwk, fj, dq, dj, oq, oop, omode, 
-                                    oj, yq, yop, yclaimed, tq, top, af, wf, 
-                                    wop, sf, sctx, xf, cop, kj, pp, pwk, np, 
-                                    nbp, nres, dp, pf, pctx, pq, pj, pd, nq >>
+                                    myBar, cdone, rv, rwb, rneed, stres, 
+                                    spName, dsl, atomic, strong, ppPending, 
+                                    ppClosed, ppNotify, ppNC, ppBP, ppDepth, 
+                                    ppAlive, ppHeld, inItems, inClosed, 
+                                    inWaker, pollFn, chuteFn, pwTaken, 
+                                    nextPoll, ppItem, pjLive, ppStage, h, 
+                                    stack, dead, sti, smax, rq, sq, sj, ww, 
+                                    rsq, bown, bwk, bi, bcur, bw, bsp, jq, jj, 
+                                    jwk, fj, dq, dj, oq, oop, omode, oj, yq, 
+                                    yop, yclaimed, tq, top, af, wf, wop, sf, 
+                                    sctx, xf, cop, kj, pp, pwk, np, nbp, nres, 
+                                    dp, pf, pctx, pq, pj, pd, nq >>
 
 pp_fn(self) == /\ pc[self] = "pp_fn"
                /\ IF ~pollFn[pp[self]]
@@ -5849,9 +6013,9 @@ pp_fn(self) == /\ pc[self] = "pp_fn"
                                dblW2, nextDW, ready, cwait, cnotif, cvHeld, 
                                sdres, jpanic, sfst, slotSt, qrSent, qrWaker, 
                                dnState, susDropped, dnWaker, parkTok, barGen, 
-                               myBar, cdone, rwb, rneed, stres, dsl, atomic, 
-                               strong, ppPending, ppClosed, ppNotify, ppNC, 
-                               ppBP, ppDepth, ppAlive, inItems, inClosed, 
+                               myBar, cdone, rwb, rneed, stres, spName, dsl, 
+                               atomic, strong, ppPending, ppClosed, ppNotify, 
+                               ppNC, ppBP, ppDepth, ppAlive, inItems, inClosed, 
                                inWaker, pollFn, chuteFn, pwTaken, nextPoll, 
                                ppItem, pjLive, ppStage, h, dead, sti, smax, rq, 
                                sq, sj, ww, rsq, bown, bwk, bi, bcur, bw, bsp, 
@@ -5882,16 +6046,16 @@ pp_bp(self) == /\ pc[self] = "pp_bp"
                                dblW2, nextDW, ready, cwait, cnotif, cvHeld, 
                                sdres, jpanic, sfst, slotSt, qrSent, qrWaker, 
                                dnState, susDropped, dnWaker, parkTok, barGen, 
-                               myBar, cdone, rwb, rneed, stres, dsl, atomic, 
-                               strong, ppPending, ppClosed, ppNotify, ppNC, 
-                               ppDepth, ppAlive, inItems, inClosed, inWaker, 
-                               pollFn, chuteFn, pwTaken, nextPoll, ppItem, 
-                               pjLive, ppStage, h, dead, sti, smax, rq, sq, sj, 
-                               ww, rsq, bown, bwk, bi, bcur, bw, bsp, jq, jj, 
-                               jwk, fj, dq, dj, oq, oop, omode, oj, yq, yop, 
-                               yclaimed, tq, top, af, wf, wop, sf, sctx, xf, 
-                               cop, np, nbp, nres, dp, pf, pctx, pq, pj, pd, 
-                               nq >>
+                               myBar, cdone, rwb, rneed, stres, spName, dsl, 
+                               atomic, strong, ppPending, ppClosed, ppNotify, 
+                               ppNC, ppDepth, ppAlive, inItems, inClosed, 
+                               inWaker, pollFn, chuteFn, pwTaken, nextPoll, 
+                               ppItem, pjLive, ppStage, h, dead, sti, smax, rq, 
+                               sq, sj, ww, rsq, bown, bwk, bi, bcur, bw, bsp, 
+                               jq, jj, jwk, fj, dq, dj, oq, oop, omode, oj, yq, 
+                               yop, yclaimed, tq, top, af, wf, wop, sf, sctx, 
+                               xf, cop, np, nbp, nres, dp, pf, pctx, pq, pj, 
+                               pd, nq >>
 
 pp_clear(self) == /\ pc[self] = "pp_clear"
                   /\ IF FixD5 /\ ppClosed[pp[self]]
@@ -5910,16 +6074,16 @@ pp_clear(self) == /\ pc[self] = "pp_clear"
                                   sdres, jpanic, sfst, slotSt, qrSent, qrWaker, 
                                   dnState, susDropped, dnWaker, parkTok, 
                                   barGen, myBar, cdone, rv, rwb, rneed, stres, 
-                                  dsl, atomic, strong, ppPending, ppClosed, 
-                                  ppNotify, ppBP, ppDepth, ppAlive, inItems, 
-                                  inClosed, inWaker, pollFn, chuteFn, pwTaken, 
-                                  nextPoll, ppItem, pjLive, ppStage, h, stack, 
-                                  dead, sti, smax, rq, sq, sj, ww, rsq, bown, 
-                                  bwk, bi, bcur, bw, bsp, jq, jj, jwk, fj, dq, 
-                                  dj, oq, oop, omode, oj, yq, yop, yclaimed, 
-                                  tq, top, af, wf, wop, sf, sctx, xf, cop, kj, 
-                                  pp, pwk, np, nbp, nres, dp, pf, pctx, pq, pj, 
-                                  pd, nq >>
+                                  spName, dsl, atomic, strong, ppPending, 
+                                  ppClosed, ppNotify, ppBP, ppDepth, ppAlive, 
+                                  inItems, inClosed, inWaker, pollFn, chuteFn, 
+                                  pwTaken, nextPoll, ppItem, pjLive, ppStage, 
+                                  h, stack, dead, sti, smax, rq, sq, sj, ww, 
+                                  rsq, bown, bwk, bi, bcur, bw, bsp, jq, jj, 
+                                  jwk, fj, dq, dj, oq, oop, omode, oj, yq, yop, 
+                                  yclaimed, tq, top, af, wf, wop, sf, sctx, xf, 
+                                  cop, kj, pp, pwk, np, nbp, nres, dp, pf, 
+                                  pctx, pq, pj, pd, nq >>
 
 pp_in(self) == /\ pc[self] = "pp_in"
                /\ IF inItems[pp[self]] # << >>
@@ -5941,16 +6105,16 @@ pp_in(self) == /\ pc[self] = "pp_in"
                                dblW2, nextDW, ready, cwait, cnotif, cvHeld, 
                                sdres, jpanic, sfst, slotSt, qrSent, qrWaker, 
                                dnState, susDropped, dnWaker, parkTok, barGen, 
-                               myBar, cdone, rv, rwb, rneed, stres, dsl, 
-                               atomic, strong, ppPending, ppClosed, ppNotify, 
-                               ppNC, ppBP, ppDepth, ppAlive, ppHeld, inClosed, 
-                               inWaker, pollFn, chuteFn, pwTaken, nextPoll, 
-                               pjLive, ppStage, stack, dead, sti, smax, rq, sq, 
-                               sj, ww, rsq, bown, bwk, bi, bcur, bw, bsp, jq, 
-                               jj, jwk, fj, dq, dj, oq, oop, omode, oj, yq, 
-                               yop, yclaimed, tq, top, af, wf, wop, sf, sctx, 
-                               xf, cop, kj, pp, pwk, np, nbp, nres, dp, pf, 
-                               pctx, pq, pj, pd, nq >>
+                               myBar, cdone, rv, rwb, rneed, stres, spName, 
+                               dsl, atomic, strong, ppPending, ppClosed, 
+                               ppNotify, ppNC, ppBP, ppDepth, ppAlive, ppHeld, 
+                               inClosed, inWaker, pollFn, chuteFn, pwTaken, 
+                               nextPoll, pjLive, ppStage, stack, dead, sti, 
+                               smax, rq, sq, sj, ww, rsq, bown, bwk, bi, bcur, 
+                               bw, bsp, jq, jj, jwk, fj, dq, dj, oq, oop, 
+                               omode, oj, yq, yop, yclaimed, tq, top, af, wf, 
+                               wop, sf, sctx, xf, cop, kj, pp, pwk, np, nbp, 
+                               nres, dp, pf, pctx, pq, pj, pd, nq >>
 
 pp_in2(self) == /\ pc[self] = "pp_in2"
                 /\ inWaker' = [inWaker EXCEPT ![pp[self]] = PW(kj[self])]
@@ -5973,16 +6137,16 @@ pp_in2(self) == /\ pc[self] = "pp_in2"
                                 dblW2, nextDW, ready, cwait, cnotif, cvHeld, 
                                 sdres, jpanic, sfst, slotSt, qrSent, qrWaker, 
                                 dnState, susDropped, dnWaker, parkTok, barGen, 
-                                myBar, cdone, rv, rwb, rneed, stres, dsl, 
-                                atomic, strong, ppPending, ppClosed, ppNotify, 
-                                ppNC, ppBP, ppDepth, ppAlive, ppHeld, inClosed, 
-                                pollFn, chuteFn, pwTaken, nextPoll, pjLive, 
-                                ppStage, stack, dead, sti, smax, rq, sq, sj, 
-                                ww, rsq, bown, bwk, bi, bcur, bw, bsp, jq, jj, 
-                                jwk, fj, dq, dj, oq, oop, omode, oj, yq, yop, 
-                                yclaimed, tq, top, af, wf, wop, sf, sctx, xf, 
-                                cop, kj, pp, pwk, np, nbp, nres, dp, pf, pctx, 
-                                pq, pj, pd, nq >>
+                                myBar, cdone, rv, rwb, rneed, stres, spName, 
+                                dsl, atomic, strong, ppPending, ppClosed, 
+                                ppNotify, ppNC, ppBP, ppDepth, ppAlive, ppHeld, 
+                                inClosed, pollFn, chuteFn, pwTaken, nextPoll, 
+                                pjLive, ppStage, stack, dead, sti, smax, rq, 
+                                sq, sj, ww, rsq, bown, bwk, bi, bcur, bw, bsp, 
+                                jq, jj, jwk, fj, dq, dj, oq, oop, omode, oj, 
+                                yq, yop, yclaimed, tq, top, af, wf, wop, sf, 
+                                sctx, xf, cop, kj, pp, pwk, np, nbp, nres, dp, 
+                                pf, pctx, pq, pj, pd, nq >>
 
 pp_reg(self) == /\ pc[self] = "pp_reg"
                 /\ IF FixD5 /\ ppClosed[pp[self]]
@@ -6005,16 +6169,16 @@ pp_reg(self) == /\ pc[self] = "pp_reg"
                                 dblW2, nextDW, ready, cwait, cnotif, cvHeld, 
                                 sdres, jpanic, sfst, slotSt, qrSent, qrWaker, 
                                 dnState, susDropped, dnWaker, parkTok, barGen, 
-                                myBar, cdone, rwb, rneed, stres, dsl, atomic, 
-                                strong, ppPending, ppClosed, ppNotify, ppBP, 
-                                ppDepth, ppAlive, inItems, inClosed, inWaker, 
-                                pollFn, chuteFn, pwTaken, nextPoll, ppItem, 
-                                pjLive, ppStage, h, dead, sti, smax, rq, sq, 
-                                sj, ww, rsq, bown, bwk, bi, bcur, bw, bsp, jq, 
-                                jj, jwk, fj, dq, dj, oq, oop, omode, oj, yq, 
-                                yop, yclaimed, tq, top, af, wf, wop, sf, sctx, 
-                                xf, cop, np, nbp, nres, dp, pf, pctx, pq, pj, 
-                                pd, nq >>
+                                myBar, cdone, rwb, rneed, stres, spName, dsl, 
+                                atomic, strong, ppPending, ppClosed, ppNotify, 
+                                ppBP, ppDepth, ppAlive, inItems, inClosed, 
+                                inWaker, pollFn, chuteFn, pwTaken, nextPoll, 
+                                ppItem, pjLive, ppStage, h, dead, sti, smax, 
+                                rq, sq, sj, ww, rsq, bown, bwk, bi, bcur, bw, 
+                                bsp, jq, jj, jwk, fj, dq, dj, oq, oop, omode, 
+                                oj, yq, yop, yclaimed, tq, top, af, wf, wop, 
+                                sf, sctx, xf, cop, np, nbp, nres, dp, pf, pctx, 
+                                pq, pj, pd, nq >>
 
 pp_end(self) == /\ pc[self] = "pp_end"
                 /\ ppClosed' = [ppClosed EXCEPT ![pp[self]] = TRUE]
@@ -6030,8 +6194,8 @@ pp_end(self) == /\ pc[self] = "pp_end"
                                 dblW2, nextDW, ready, cwait, cnotif, cvHeld, 
                                 sdres, jpanic, sfst, slotSt, qrSent, qrWaker, 
                                 dnState, susDropped, dnWaker, barGen, myBar, 
-                                cdone, rv, rwb, rneed, stres, dsl, atomic, 
-                                strong, ppPending, ppNC, ppBP, ppDepth, 
+                                cdone, rv, rwb, rneed, stres, spName, dsl, 
+                                atomic, strong, ppPending, ppNC, ppBP, ppDepth, 
                                 ppAlive, inItems, inClosed, inWaker, pollFn, 
                                 chuteFn, pwTaken, nextPoll, ppItem, pjLive, 
                                 ppStage, h, stack, dead, sti, smax, rq, sq, sj, 
@@ -6055,16 +6219,17 @@ pp_closed(self) == /\ pc[self] = "pp_closed"
                                    cwait, cnotif, cvHeld, sdres, jpanic, sfst, 
                                    slotSt, qrSent, qrWaker, dnState, 
                                    susDropped, dnWaker, barGen, myBar, cdone, 
-                                   rv, rwb, rneed, stres, dsl, atomic, strong, 
-                                   ppPending, ppClosed, ppNC, ppBP, ppDepth, 
-                                   ppAlive, inItems, inClosed, inWaker, pollFn, 
-                                   chuteFn, pwTaken, nextPoll, ppItem, pjLive, 
-                                   ppStage, h, stack, dead, sti, smax, rq, sq, 
-                                   sj, ww, rsq, bown, bwk, bi, bcur, bw, bsp, 
-                                   jq, jj, jwk, fj, dq, dj, oq, oop, omode, oj, 
-                                   yq, yop, yclaimed, tq, top, af, wf, wop, sf, 
-                                   sctx, xf, cop, kj, pp, pwk, np, nbp, nres, 
-                                   dp, pf, pctx, pq, pj, pd, nq >>
+                                   rv, rwb, rneed, stres, spName, dsl, atomic, 
+                                   strong, ppPending, ppClosed, ppNC, ppBP, 
+                                   ppDepth, ppAlive, inItems, inClosed, 
+                                   inWaker, pollFn, chuteFn, pwTaken, nextPoll, 
+                                   ppItem, pjLive, ppStage, h, stack, dead, 
+                                   sti, smax, rq, sq, sj, ww, rsq, bown, bwk, 
+                                   bi, bcur, bw, bsp, jq, jj, jwk, fj, dq, dj, 
+                                   oq, oop, omode, oj, yq, yop, yclaimed, tq, 
+                                   top, af, wf, wop, sf, sctx, xf, cop, kj, pp, 
+                                   pwk, np, nbp, nres, dp, pf, pctx, pq, pj, 
+                                   pd, nq >>
 
 pp_proc(self) == /\ pc[self] = "pp_proc"
                  /\ h' = ObsProcStart(h, self, pp[self], ppItem[kj[self]])
@@ -6077,17 +6242,17 @@ pp_proc(self) == /\ pc[self] = "pp_proc"
                                  dblW2, nextDW, ready, cwait, cnotif, cvHeld, 
                                  sdres, jpanic, sfst, slotSt, qrSent, qrWaker, 
                                  dnState, susDropped, dnWaker, parkTok, barGen, 
-                                 myBar, cdone, rv, rwb, rneed, stres, dsl, 
-                                 atomic, strong, ppPending, ppClosed, ppNotify, 
-                                 ppNC, ppBP, ppDepth, ppAlive, ppHeld, inItems, 
-                                 inClosed, inWaker, pollFn, chuteFn, pwTaken, 
-                                 nextPoll, ppItem, pjLive, ppStage, stack, 
-                                 dead, sti, smax, rq, sq, sj, ww, rsq, bown, 
-                                 bwk, bi, bcur, bw, bsp, jq, jj, jwk, fj, dq, 
-                                 dj, oq, oop, omode, oj, yq, yop, yclaimed, tq, 
-                                 top, af, wf, wop, sf, sctx, xf, cop, kj, pp, 
-                                 pwk, np, nbp, nres, dp, pf, pctx, pq, pj, pd, 
-                                 nq >>
+                                 myBar, cdone, rv, rwb, rneed, stres, spName, 
+                                 dsl, atomic, strong, ppPending, ppClosed, 
+                                 ppNotify, ppNC, ppBP, ppDepth, ppAlive, 
+                                 ppHeld, inItems, inClosed, inWaker, pollFn, 
+                                 chuteFn, pwTaken, nextPoll, ppItem, pjLive, 
+                                 ppStage, stack, dead, sti, smax, rq, sq, sj, 
+                                 ww, rsq, bown, bwk, bi, bcur, bw, bsp, jq, jj, 
+                                 jwk, fj, dq, dj, oq, oop, omode, oj, yq, yop, 
+                                 yclaimed, tq, top, af, wf, wop, sf, sctx, xf, 
+                                 cop, kj, pp, pwk, np, nbp, nres, dp, pf, pctx, 
+                                 pq, pj, pd, nq >>
 
 pp_body(self) == /\ pc[self] = "pp_body"
                  /\ IF OpTab[PipeOp(pp[self])].g # 0 /\ OpTab[PipeOp(pp[self])].g \notin gfired
@@ -6120,16 +6285,16 @@ pp_body(self) == /\ pc[self] = "pp_body"
                                  ready, cwait, cnotif, cvHeld, sdres, jpanic, 
                                  sfst, slotSt, qrSent, qrWaker, dnState, 
                                  susDropped, dnWaker, parkTok, barGen, myBar, 
-                                 cdone, rwb, rneed, stres, dsl, atomic, strong, 
-                                 ppPending, ppClosed, ppNotify, ppNC, ppBP, 
-                                 ppDepth, ppAlive, ppHeld, inItems, inClosed, 
-                                 inWaker, pollFn, chuteFn, pwTaken, nextPoll, 
-                                 ppItem, pjLive, dead, sti, smax, rq, sq, sj, 
-                                 ww, rsq, bown, bwk, bi, bcur, bw, bsp, jq, jj, 
-                                 jwk, fj, dq, dj, oq, oop, omode, oj, yq, yop, 
-                                 yclaimed, tq, top, af, wf, wop, sf, sctx, xf, 
-                                 cop, np, nbp, nres, dp, pf, pctx, pq, pj, pd, 
-                                 nq >>
+                                 cdone, rwb, rneed, stres, spName, dsl, atomic, 
+                                 strong, ppPending, ppClosed, ppNotify, ppNC, 
+                                 ppBP, ppDepth, ppAlive, ppHeld, inItems, 
+                                 inClosed, inWaker, pollFn, chuteFn, pwTaken, 
+                                 nextPoll, ppItem, pjLive, dead, sti, smax, rq, 
+                                 sq, sj, ww, rsq, bown, bwk, bi, bcur, bw, bsp, 
+                                 jq, jj, jwk, fj, dq, dj, oq, oop, omode, oj, 
+                                 yq, yop, yclaimed, tq, top, af, wf, wop, sf, 
+                                 sctx, xf, cop, np, nbp, nres, dp, pf, pctx, 
+                                 pq, pj, pd, nq >>
 
 pp_resumed(self) == /\ pc[self] = "pp_resumed"
                     /\ ppStage' = [ppStage EXCEPT ![kj[self]] = 0]
@@ -6146,17 +6311,18 @@ pp_resumed(self) == /\ pc[self] = "pp_resumed"
                                     cwait, cnotif, cvHeld, sdres, jpanic, sfst, 
                                     slotSt, qrSent, qrWaker, dnState, 
                                     susDropped, dnWaker, parkTok, barGen, 
-                                    myBar, cdone, rv, rwb, rneed, stres, dsl, 
-                                    atomic, strong, ppPending, ppClosed, 
-                                    ppNotify, ppNC, ppBP, ppDepth, ppAlive, 
-                                    ppHeld, inItems, inClosed, inWaker, pollFn, 
-                                    chuteFn, pwTaken, nextPoll, ppItem, pjLive, 
-                                    stack, dead, sti, smax, rq, sq, sj, ww, 
-                                    rsq, bown, bwk, bi, bcur, bw, bsp, jq, jj, 
-                                    jwk, fj, dq, dj, oq, oop, omode, oj, yq, 
-                                    yop, yclaimed, tq, top, af, wf, wop, sf, 
-                                    sctx, xf, cop, kj, pp, pwk, np, nbp, nres, 
-                                    dp, pf, pctx, pq, pj, pd, nq >>
+                                    myBar, cdone, rv, rwb, rneed, stres, 
+                                    spName, dsl, atomic, strong, ppPending, 
+                                    ppClosed, ppNotify, ppNC, ppBP, ppDepth, 
+                                    ppAlive, ppHeld, inItems, inClosed, 
+                                    inWaker, pollFn, chuteFn, pwTaken, 
+                                    nextPoll, ppItem, pjLive, stack, dead, sti, 
+                                    smax, rq, sq, sj, ww, rsq, bown, bwk, bi, 
+                                    bcur, bw, bsp, jq, jj, jwk, fj, dq, dj, oq, 
+                                    oop, omode, oj, yq, yop, yclaimed, tq, top, 
+                                    af, wf, wop, sf, sctx, xf, cop, kj, pp, 
+                                    pwk, np, nbp, nres, dp, pf, pctx, pq, pj, 
+                                    pd, nq >>
 
 pp_push(self) == /\ pc[self] = "pp_push"
                  /\ ppPending' = [ppPending EXCEPT ![pp[self]] = Append(ppPending[pp[self]], 10 * ppItem[kj[self]])]
@@ -6171,8 +6337,8 @@ pp_push(self) == /\ pc[self] = "pp_push"
                                  dblW2, nextDW, ready, cwait, cnotif, cvHeld, 
                                  sdres, jpanic, sfst, slotSt, qrSent, qrWaker, 
                                  dnState, susDropped, dnWaker, barGen, myBar, 
-                                 cdone, rv, rwb, rneed, stres, dsl, atomic, 
-                                 strong, ppClosed, ppNC, ppBP, ppDepth, 
+                                 cdone, rv, rwb, rneed, stres, spName, dsl, 
+                                 atomic, strong, ppClosed, ppNC, ppBP, ppDepth, 
                                  ppAlive, ppHeld, inItems, inClosed, inWaker, 
                                  pollFn, chuteFn, pwTaken, nextPoll, ppItem, 
                                  pjLive, ppStage, h, stack, dead, sti, smax, 
@@ -6202,16 +6368,16 @@ pi_in(self) == /\ pc[self] = "pi_in"
                                dblW2, nextDW, ready, cwait, cnotif, cvHeld, 
                                sdres, jpanic, sfst, slotSt, qrSent, qrWaker, 
                                dnState, susDropped, dnWaker, parkTok, barGen, 
-                               myBar, cdone, rv, rwb, rneed, stres, dsl, 
-                               atomic, strong, ppPending, ppClosed, ppNotify, 
-                               ppNC, ppBP, ppDepth, ppAlive, ppHeld, inClosed, 
-                               inWaker, pollFn, chuteFn, pwTaken, nextPoll, 
-                               pjLive, ppStage, stack, dead, sti, smax, rq, sq, 
-                               sj, ww, rsq, bown, bwk, bi, bcur, bw, bsp, jq, 
-                               jj, jwk, fj, dq, dj, oq, oop, omode, oj, yq, 
-                               yop, yclaimed, tq, top, af, wf, wop, sf, sctx, 
-                               xf, cop, kj, pp, pwk, np, nbp, nres, dp, pf, 
-                               pctx, pq, pj, pd, nq >>
+                               myBar, cdone, rv, rwb, rneed, stres, spName, 
+                               dsl, atomic, strong, ppPending, ppClosed, 
+                               ppNotify, ppNC, ppBP, ppDepth, ppAlive, ppHeld, 
+                               inClosed, inWaker, pollFn, chuteFn, pwTaken, 
+                               nextPoll, pjLive, ppStage, stack, dead, sti, 
+                               smax, rq, sq, sj, ww, rsq, bown, bwk, bi, bcur, 
+                               bw, bsp, jq, jj, jwk, fj, dq, dj, oq, oop, 
+                               omode, oj, yq, yop, yclaimed, tq, top, af, wf, 
+                               wop, sf, sctx, xf, cop, kj, pp, pwk, np, nbp, 
+                               nres, dp, pf, pctx, pq, pj, pd, nq >>
 
 pi_in2(self) == /\ pc[self] = "pi_in2"
                 /\ inWaker' = [inWaker EXCEPT ![pp[self]] = PW(kj[self])]
@@ -6240,9 +6406,9 @@ pi_in2(self) == /\ pc[self] = "pi_in2"
                                 dblW2, nextDW, ready, cwait, cnotif, cvHeld, 
                                 sdres, jpanic, sfst, slotSt, qrSent, qrWaker, 
                                 dnState, susDropped, dnWaker, parkTok, barGen, 
-                                myBar, cdone, rwb, rneed, stres, dsl, atomic, 
-                                strong, ppPending, ppClosed, ppNotify, ppNC, 
-                                ppBP, ppDepth, ppAlive, ppHeld, inClosed, 
+                                myBar, cdone, rwb, rneed, stres, spName, dsl, 
+                                atomic, strong, ppPending, ppClosed, ppNotify, 
+                                ppNC, ppBP, ppDepth, ppAlive, ppHeld, inClosed, 
                                 pollFn, chuteFn, pwTaken, nextPoll, pjLive, 
                                 ppStage, dead, sti, smax, rq, sq, sj, ww, rsq, 
                                 bown, bwk, bi, bcur, bw, bsp, jq, jj, jwk, fj, 
@@ -6271,8 +6437,8 @@ pp_dealloc(self) == /\ pc[self] = "pp_dealloc"
                                     cwait, cnotif, cvHeld, sdres, jpanic, sfst, 
                                     slotSt, qrSent, qrWaker, dnState, 
                                     susDropped, dnWaker, parkTok, barGen, 
-                                    myBar, cdone, rwb, rneed, stres, dsl, 
-                                    atomic, strong, ppPending, ppClosed, 
+                                    myBar, cdone, rwb, rneed, stres, spName, 
+                                    dsl, atomic, strong, ppPending, ppClosed, 
                                     ppNotify, ppNC, ppBP, ppDepth, ppAlive, 
                                     ppHeld, inItems, inClosed, inWaker, 
                                     chuteFn, pwTaken, nextPoll, ppItem, pjLive, 
@@ -6323,15 +6489,16 @@ cn_poll(self) == /\ pc[self] = "cn_poll"
                                  dblW2, nextDW, ready, cwait, cnotif, cvHeld, 
                                  sdres, jpanic, sfst, slotSt, qrSent, qrWaker, 
                                  dnState, susDropped, dnWaker, parkTok, barGen, 
-                                 myBar, cdone, rwb, rneed, stres, dsl, atomic, 
-                                 strong, ppClosed, ppNC, ppDepth, ppAlive, 
-                                 ppHeld, inItems, inClosed, inWaker, pollFn, 
-                                 chuteFn, pwTaken, nextPoll, ppItem, pjLive, 
-                                 ppStage, h, dead, sti, smax, rq, sq, sj, rsq, 
-                                 bown, bwk, bi, bcur, bw, bsp, jq, jj, jwk, fj, 
-                                 dq, dj, oq, oop, omode, oj, yq, yop, yclaimed, 
-                                 tq, top, af, wf, wop, sf, sctx, xf, cop, kj, 
-                                 pp, pwk, np, dp, pf, pctx, pq, pj, pd, nq >>
+                                 myBar, cdone, rwb, rneed, stres, spName, dsl, 
+                                 atomic, strong, ppClosed, ppNC, ppDepth, 
+                                 ppAlive, ppHeld, inItems, inClosed, inWaker, 
+                                 pollFn, chuteFn, pwTaken, nextPoll, ppItem, 
+                                 pjLive, ppStage, h, dead, sti, smax, rq, sq, 
+                                 sj, rsq, bown, bwk, bi, bcur, bw, bsp, jq, jj, 
+                                 jwk, fj, dq, dj, oq, oop, omode, oj, yq, yop, 
+                                 yclaimed, tq, top, af, wf, wop, sf, sctx, xf, 
+                                 cop, kj, pp, pwk, np, dp, pf, pctx, pq, pj, 
+                                 pd, nq >>
 
 z_cn_after(self) == /\ pc[self] = "z_cn_after"
                     /\ IF rv[self] = 5
@@ -6352,17 +6519,17 @@ z_cn_after(self) == /\ pc[self] = "z_cn_after"
                                     cwait, cnotif, cvHeld, sdres, jpanic, sfst, 
                                     slotSt, qrSent, qrWaker, dnState, 
                                     susDropped, dnWaker, parkTok, barGen, 
-                                    myBar, cdone, rv, rwb, rneed, stres, dsl, 
-                                    atomic, strong, ppPending, ppClosed, 
-                                    ppNotify, ppNC, ppBP, ppDepth, ppAlive, 
-                                    ppHeld, inItems, inClosed, inWaker, pollFn, 
-                                    chuteFn, pwTaken, nextPoll, ppItem, pjLive, 
-                                    ppStage, dead, sti, smax, rq, sq, sj, ww, 
-                                    rsq, bown, bwk, bi, bcur, bw, bsp, jq, jj, 
-                                    jwk, fj, dq, dj, oq, oop, omode, oj, yq, 
-                                    yop, yclaimed, tq, top, af, wf, wop, sf, 
-                                    sctx, xf, cop, kj, pp, pwk, dp, pf, pctx, 
-                                    pq, pj, pd, nq >>
+                                    myBar, cdone, rv, rwb, rneed, stres, 
+                                    spName, dsl, atomic, strong, ppPending, 
+                                    ppClosed, ppNotify, ppNC, ppBP, ppDepth, 
+                                    ppAlive, ppHeld, inItems, inClosed, 
+                                    inWaker, pollFn, chuteFn, pwTaken, 
+                                    nextPoll, ppItem, pjLive, ppStage, dead, 
+                                    sti, smax, rq, sq, sj, ww, rsq, bown, bwk, 
+                                    bi, bcur, bw, bsp, jq, jj, jwk, fj, dq, dj, 
+                                    oq, oop, omode, oj, yq, yop, yclaimed, tq, 
+                                    top, af, wf, wop, sf, sctx, xf, cop, kj, 
+                                    pp, pwk, dp, pf, pctx, pq, pj, pd, nq >>
 
 cn_park(self) == /\ pc[self] = "cn_park"
                  /\ parkTok[self]
@@ -6376,9 +6543,9 @@ cn_park(self) == /\ pc[self] = "cn_park"
                                  dblW2, nextDW, ready, cwait, cnotif, cvHeld, 
                                  sdres, jpanic, sfst, slotSt, qrSent, qrWaker, 
                                  dnState, susDropped, dnWaker, barGen, myBar, 
-                                 cdone, rv, rwb, rneed, stres, dsl, atomic, 
-                                 strong, ppPending, ppClosed, ppNotify, ppNC, 
-                                 ppBP, ppDepth, ppAlive, ppHeld, inItems, 
+                                 cdone, rv, rwb, rneed, stres, spName, dsl, 
+                                 atomic, strong, ppPending, ppClosed, ppNotify, 
+                                 ppNC, ppBP, ppDepth, ppAlive, ppHeld, inItems, 
                                  inClosed, inWaker, pollFn, chuteFn, pwTaken, 
                                  nextPoll, ppItem, pjLive, ppStage, h, stack, 
                                  dead, sti, smax, rq, sq, sj, ww, rsq, bown, 
@@ -6411,8 +6578,8 @@ ps_drop(self) == /\ pc[self] = "ps_drop"
                                  dblW2, nextDW, ready, cwait, cnotif, cvHeld, 
                                  sdres, jpanic, sfst, slotSt, qrSent, qrWaker, 
                                  dnState, susDropped, dnWaker, parkTok, barGen, 
-                                 myBar, cdone, rv, rwb, rneed, stres, dsl, 
-                                 strong, ppNotify, ppNC, ppBP, ppDepth, 
+                                 myBar, cdone, rv, rwb, rneed, stres, spName, 
+                                 dsl, strong, ppNotify, ppNC, ppBP, ppDepth, 
                                  ppAlive, ppHeld, inItems, inClosed, inWaker, 
                                  pollFn, chuteFn, pwTaken, nextPoll, ppItem, 
                                  pjLive, ppStage, h, dead, sti, smax, rq, sq, 
@@ -6441,16 +6608,16 @@ z_ps2(self) == /\ pc[self] = "z_ps2"
                                ready, cwait, cnotif, cvHeld, sdres, jpanic, 
                                sfst, slotSt, qrSent, qrWaker, dnState, 
                                susDropped, dnWaker, parkTok, barGen, myBar, 
-                               cdone, rv, rwb, rneed, stres, dsl, atomic, 
-                               strong, ppPending, ppClosed, ppNotify, ppBP, 
-                               ppDepth, ppAlive, ppHeld, inItems, inClosed, 
-                               inWaker, pollFn, chuteFn, pwTaken, nextPoll, 
-                               ppItem, pjLive, ppStage, h, dead, sti, smax, rq, 
-                               ww, rsq, bown, bwk, bi, bcur, bw, bsp, jq, jj, 
-                               jwk, fj, dq, dj, oq, oop, omode, oj, yq, yop, 
-                               yclaimed, tq, top, af, wf, wop, sf, sctx, xf, 
-                               cop, kj, pp, pwk, np, nbp, nres, dp, pf, pctx, 
-                               pq, pj, pd, nq >>
+                               cdone, rv, rwb, rneed, stres, spName, dsl, 
+                               atomic, strong, ppPending, ppClosed, ppNotify, 
+                               ppBP, ppDepth, ppAlive, ppHeld, inItems, 
+                               inClosed, inWaker, pollFn, chuteFn, pwTaken, 
+                               nextPoll, ppItem, pjLive, ppStage, h, dead, sti, 
+                               smax, rq, ww, rsq, bown, bwk, bi, bcur, bw, bsp, 
+                               jq, jj, jwk, fj, dq, dj, oq, oop, omode, oj, yq, 
+                               yop, yclaimed, tq, top, af, wf, wop, sf, sctx, 
+                               xf, cop, kj, pp, pwk, np, nbp, nres, dp, pf, 
+                               pctx, pq, pj, pd, nq >>
 
 z_ps3(self) == /\ pc[self] = "z_ps3"
                /\ atomic' = [atomic EXCEPT ![self] = FALSE]
@@ -6465,16 +6632,16 @@ z_ps3(self) == /\ pc[self] = "z_ps3"
                                dblW2, nextDW, ready, cwait, cnotif, cvHeld, 
                                sdres, jpanic, sfst, slotSt, qrSent, qrWaker, 
                                dnState, susDropped, dnWaker, parkTok, barGen, 
-                               myBar, cdone, rwb, rneed, stres, dsl, strong, 
-                               ppPending, ppClosed, ppNotify, ppNC, ppBP, 
-                               ppDepth, ppHeld, inItems, inClosed, inWaker, 
-                               pollFn, chuteFn, pwTaken, nextPoll, ppItem, 
-                               pjLive, ppStage, h, stack, dead, sti, smax, rq, 
-                               sq, sj, ww, rsq, bown, bwk, bi, bcur, bw, bsp, 
-                               jq, jj, jwk, fj, dq, dj, oq, oop, omode, oj, yq, 
-                               yop, yclaimed, tq, top, af, wf, wop, sf, sctx, 
-                               xf, cop, kj, pp, pwk, np, nbp, nres, dp, pf, 
-                               pctx, pq, pj, pd, nq >>
+                               myBar, cdone, rwb, rneed, stres, spName, dsl, 
+                               strong, ppPending, ppClosed, ppNotify, ppNC, 
+                               ppBP, ppDepth, ppHeld, inItems, inClosed, 
+                               inWaker, pollFn, chuteFn, pwTaken, nextPoll, 
+                               ppItem, pjLive, ppStage, h, stack, dead, sti, 
+                               smax, rq, sq, sj, ww, rsq, bown, bwk, bi, bcur, 
+                               bw, bsp, jq, jj, jwk, fj, dq, dj, oq, oop, 
+                               omode, oj, yq, yop, yclaimed, tq, top, af, wf, 
+                               wop, sf, sctx, xf, cop, kj, pp, pwk, np, nbp, 
+                               nres, dp, pf, pctx, pq, pj, pd, nq >>
 
 z_ps_gc(self) == /\ pc[self] = "z_ps_gc"
                  /\ IF pollFn[dp[self]] /\ ~CtxAlive(dp[self])
@@ -6493,16 +6660,16 @@ z_ps_gc(self) == /\ pc[self] = "z_ps_gc"
                                  dblW2, nextDW, ready, cwait, cnotif, cvHeld, 
                                  sdres, jpanic, sfst, slotSt, qrSent, qrWaker, 
                                  dnState, susDropped, dnWaker, parkTok, barGen, 
-                                 myBar, cdone, rv, rwb, rneed, stres, dsl, 
-                                 atomic, strong, ppPending, ppClosed, ppNotify, 
-                                 ppNC, ppBP, ppDepth, ppAlive, ppHeld, inItems, 
-                                 inClosed, inWaker, chuteFn, pwTaken, nextPoll, 
-                                 ppItem, pjLive, ppStage, dead, sti, smax, rq, 
-                                 sq, sj, ww, rsq, bown, bwk, bi, bcur, bw, bsp, 
-                                 jq, jj, jwk, fj, dq, dj, oq, oop, omode, oj, 
-                                 yq, yop, yclaimed, tq, top, af, wf, wop, sf, 
-                                 sctx, xf, cop, kj, pp, pwk, np, nbp, nres, pf, 
-                                 pctx, pq, pj, pd, nq >>
+                                 myBar, cdone, rv, rwb, rneed, stres, spName, 
+                                 dsl, atomic, strong, ppPending, ppClosed, 
+                                 ppNotify, ppNC, ppBP, ppDepth, ppAlive, 
+                                 ppHeld, inItems, inClosed, inWaker, chuteFn, 
+                                 pwTaken, nextPoll, ppItem, pjLive, ppStage, 
+                                 dead, sti, smax, rq, sq, sj, ww, rsq, bown, 
+                                 bwk, bi, bcur, bw, bsp, jq, jj, jwk, fj, dq, 
+                                 dj, oq, oop, omode, oj, yq, yop, yclaimed, tq, 
+                                 top, af, wf, wop, sf, sctx, xf, cop, kj, pp, 
+                                 pwk, np, nbp, nres, pf, pctx, pq, pj, pd, nq >>
 
 PipeDrop(self) == ps_drop(self) \/ z_ps2(self) \/ z_ps3(self)
                      \/ z_ps_gc(self)
@@ -6518,17 +6685,17 @@ ds_max(self) == /\ pc[self] = "ds_max"
                                 dblW2, nextDW, ready, cwait, cnotif, cvHeld, 
                                 sdres, jpanic, sfst, slotSt, qrSent, qrWaker, 
                                 dnState, susDropped, dnWaker, parkTok, barGen, 
-                                myBar, cdone, rv, rwb, rneed, stres, dsl, 
-                                atomic, strong, ppPending, ppClosed, ppNotify, 
-                                ppNC, ppBP, ppDepth, ppAlive, ppHeld, inItems, 
-                                inClosed, inWaker, pollFn, chuteFn, pwTaken, 
-                                nextPoll, ppItem, pjLive, ppStage, h, stack, 
-                                dead, sti, smax, rq, sq, sj, ww, rsq, bown, 
-                                bwk, bi, bcur, bw, bsp, jq, jj, jwk, fj, dq, 
-                                dj, oq, oop, omode, oj, yq, yop, yclaimed, tq, 
-                                top, af, wf, wop, sf, sctx, xf, cop, kj, pp, 
-                                pwk, np, nbp, nres, dp, pf, pctx, pq, pj, pd, 
-                                nq >>
+                                myBar, cdone, rv, rwb, rneed, stres, spName, 
+                                dsl, atomic, strong, ppPending, ppClosed, 
+                                ppNotify, ppNC, ppBP, ppDepth, ppAlive, ppHeld, 
+                                inItems, inClosed, inWaker, pollFn, chuteFn, 
+                                pwTaken, nextPoll, ppItem, pjLive, ppStage, h, 
+                                stack, dead, sti, smax, rq, sq, sj, ww, rsq, 
+                                bown, bwk, bi, bcur, bw, bsp, jq, jj, jwk, fj, 
+                                dq, dj, oq, oop, omode, oj, yq, yop, yclaimed, 
+                                tq, top, af, wf, wop, sf, sctx, xf, cop, kj, 
+                                pp, pwk, np, nbp, nres, dp, pf, pctx, pq, pj, 
+                                pd, nq >>
 
 ds_pop(self) == /\ pc[self] = "ds_pop"
                 /\ thrHeld = ""
@@ -6549,16 +6716,16 @@ ds_pop(self) == /\ pc[self] = "ds_pop"
                                 cwait, cnotif, cvHeld, sdres, jpanic, sfst, 
                                 slotSt, qrSent, qrWaker, dnState, susDropped, 
                                 dnWaker, parkTok, barGen, myBar, cdone, rwb, 
-                                rneed, stres, atomic, strong, ppPending, 
-                                ppClosed, ppNotify, ppNC, ppBP, ppDepth, 
-                                ppAlive, ppHeld, inItems, inClosed, inWaker, 
-                                pollFn, chuteFn, pwTaken, nextPoll, ppItem, 
-                                pjLive, ppStage, h, dead, sti, smax, rq, sq, 
-                                sj, ww, rsq, bown, bwk, bi, bcur, bw, bsp, jq, 
-                                jj, jwk, fj, dq, dj, oq, oop, omode, oj, yq, 
-                                yop, yclaimed, tq, top, af, wf, wop, sf, sctx, 
-                                xf, cop, kj, pp, pwk, np, nbp, nres, dp, pf, 
-                                pctx, pq, pj, pd, nq >>
+                                rneed, stres, spName, atomic, strong, 
+                                ppPending, ppClosed, ppNotify, ppNC, ppBP, 
+                                ppDepth, ppAlive, ppHeld, inItems, inClosed, 
+                                inWaker, pollFn, chuteFn, pwTaken, nextPoll, 
+                                ppItem, pjLive, ppStage, h, dead, sti, smax, 
+                                rq, sq, sj, ww, rsq, bown, bwk, bi, bcur, bw, 
+                                bsp, jq, jj, jwk, fj, dq, dj, oq, oop, omode, 
+                                oj, yq, yop, yclaimed, tq, top, af, wf, wop, 
+                                sf, sctx, xf, cop, kj, pp, pwk, np, nbp, nres, 
+                                dp, pf, pctx, pq, pj, pd, nq >>
 
 ds_join(self) == /\ pc[self] = "ds_join"
                  /\ pfin[Head(dsl[self])]
@@ -6578,9 +6745,9 @@ ds_join(self) == /\ pc[self] = "ds_join"
                                  dblW2, nextDW, ready, cwait, cnotif, cvHeld, 
                                  sdres, jpanic, sfst, slotSt, qrSent, qrWaker, 
                                  dnState, susDropped, dnWaker, parkTok, barGen, 
-                                 myBar, cdone, rwb, rneed, stres, atomic, 
-                                 strong, ppPending, ppClosed, ppNotify, ppNC, 
-                                 ppBP, ppDepth, ppAlive, ppHeld, inItems, 
+                                 myBar, cdone, rwb, rneed, stres, spName, 
+                                 atomic, strong, ppPending, ppClosed, ppNotify, 
+                                 ppNC, ppBP, ppDepth, ppAlive, ppHeld, inItems, 
                                  inClosed, inWaker, pollFn, chuteFn, pwTaken, 
                                  nextPoll, ppItem, pjLive, ppStage, dead, sti, 
                                  smax, rq, sq, sj, ww, rsq, bown, bwk, bi, 
@@ -6659,16 +6826,17 @@ pf_decide(self) == /\ pc[self] = "pf_decide"
                                    cwait, cnotif, cvHeld, sdres, jpanic, sfst, 
                                    slotSt, qrSent, qrWaker, dnState, 
                                    susDropped, dnWaker, parkTok, barGen, myBar, 
-                                   cdone, rwb, rneed, stres, dsl, atomic, 
-                                   strong, ppPending, ppClosed, ppNotify, ppNC, 
-                                   ppBP, ppDepth, ppAlive, ppHeld, inItems, 
-                                   inClosed, inWaker, pollFn, chuteFn, pwTaken, 
-                                   nextPoll, ppItem, pjLive, ppStage, h, dead, 
-                                   sti, smax, rq, sq, sj, ww, rsq, bown, bwk, 
-                                   bi, bcur, bw, bsp, jq, jj, jwk, fj, dq, dj, 
-                                   oq, oop, omode, oj, yq, yop, yclaimed, tq, 
-                                   top, af, wf, wop, sf, sctx, xf, cop, kj, pp, 
-                                   pwk, np, nbp, nres, dp, nq >>
+                                   cdone, rwb, rneed, stres, spName, dsl, 
+                                   atomic, strong, ppPending, ppClosed, 
+                                   ppNotify, ppNC, ppBP, ppDepth, ppAlive, 
+                                   ppHeld, inItems, inClosed, inWaker, pollFn, 
+                                   chuteFn, pwTaken, nextPoll, ppItem, pjLive, 
+                                   ppStage, h, dead, sti, smax, rq, sq, sj, ww, 
+                                   rsq, bown, bwk, bi, bcur, bw, bsp, jq, jj, 
+                                   jwk, fj, dq, dj, oq, oop, omode, oj, yq, 
+                                   yop, yclaimed, tq, top, af, wf, wop, sf, 
+                                   sctx, xf, cop, kj, pp, pwk, np, nbp, nres, 
+                                   dp, nq >>
 
 dq_res(self) == /\ pc[self] = "dq_res"
                 /\ IF fres[pf[self]] = "some"
@@ -6689,16 +6857,17 @@ dq_res(self) == /\ pc[self] = "dq_res"
                                 nextDW, ready, cwait, cnotif, cvHeld, sdres, 
                                 jpanic, sfst, slotSt, qrSent, qrWaker, dnState, 
                                 susDropped, dnWaker, parkTok, barGen, myBar, 
-                                cdone, rwb, rneed, stres, dsl, atomic, strong, 
-                                ppPending, ppClosed, ppNotify, ppNC, ppBP, 
-                                ppDepth, ppAlive, ppHeld, inItems, inClosed, 
-                                inWaker, pollFn, chuteFn, pwTaken, nextPoll, 
-                                ppItem, pjLive, ppStage, h, stack, dead, sti, 
-                                smax, rq, sq, sj, ww, rsq, bown, bwk, bi, bcur, 
-                                bw, bsp, jq, jj, jwk, fj, dq, dj, oq, oop, 
-                                omode, oj, yq, yop, yclaimed, tq, top, af, wf, 
-                                wop, sf, sctx, xf, cop, kj, pp, pwk, np, nbp, 
-                                nres, dp, pf, pctx, pq, pj, pd, nq >>
+                                cdone, rwb, rneed, stres, spName, dsl, atomic, 
+                                strong, ppPending, ppClosed, ppNotify, ppNC, 
+                                ppBP, ppDepth, ppAlive, ppHeld, inItems, 
+                                inClosed, inWaker, pollFn, chuteFn, pwTaken, 
+                                nextPoll, ppItem, pjLive, ppStage, h, stack, 
+                                dead, sti, smax, rq, sq, sj, ww, rsq, bown, 
+                                bwk, bi, bcur, bw, bsp, jq, jj, jwk, fj, dq, 
+                                dj, oq, oop, omode, oj, yq, yop, yclaimed, tq, 
+                                top, af, wf, wop, sf, sctx, xf, cop, kj, pp, 
+                                pwk, np, nbp, nres, dp, pf, pctx, pq, pj, pd, 
+                                nq >>
 
 dq_deq(self) == /\ pc[self] = "dq_deq"
                 /\ IF qstate[pq[self]] \in Waiting \/ jobs[pq[self]] = << >>
@@ -6727,9 +6896,9 @@ dq_deq(self) == /\ pc[self] = "dq_deq"
                                 ready, cwait, cnotif, cvHeld, sdres, jpanic, 
                                 sfst, slotSt, qrSent, qrWaker, dnState, 
                                 susDropped, dnWaker, parkTok, barGen, myBar, 
-                                cdone, rv, rwb, rneed, stres, dsl, atomic, 
-                                strong, ppPending, ppClosed, ppNotify, ppNC, 
-                                ppBP, ppDepth, ppAlive, ppHeld, inItems, 
+                                cdone, rv, rwb, rneed, stres, spName, dsl, 
+                                atomic, strong, ppPending, ppClosed, ppNotify, 
+                                ppNC, ppBP, ppDepth, ppAlive, ppHeld, inItems, 
                                 inClosed, inWaker, pollFn, chuteFn, pwTaken, 
                                 nextPoll, ppItem, pjLive, ppStage, h, dead, 
                                 sti, smax, rq, sq, sj, ww, rsq, bown, bwk, bi, 
@@ -6770,17 +6939,18 @@ z_dq_after(self) == /\ pc[self] = "z_dq_after"
                                     cwait, cnotif, cvHeld, sdres, jpanic, sfst, 
                                     slotSt, qrSent, qrWaker, dnState, 
                                     susDropped, dnWaker, parkTok, barGen, 
-                                    myBar, cdone, rv, rwb, rneed, stres, dsl, 
-                                    atomic, strong, ppPending, ppClosed, 
-                                    ppNotify, ppNC, ppBP, ppDepth, ppAlive, 
-                                    ppHeld, inItems, inClosed, inWaker, pollFn, 
-                                    chuteFn, pwTaken, nextPoll, ppItem, pjLive, 
-                                    ppStage, h, dead, sti, smax, rq, sq, sj, 
-                                    ww, rsq, bown, bwk, bi, bcur, bw, bsp, jq, 
-                                    jj, jwk, dq, dj, oq, oop, omode, oj, yq, 
-                                    yop, yclaimed, tq, top, af, wf, wop, sf, 
-                                    sctx, xf, cop, kj, pp, pwk, np, nbp, nres, 
-                                    dp, pf, pctx, pq, pj, pd, nq >>
+                                    myBar, cdone, rv, rwb, rneed, stres, 
+                                    spName, dsl, atomic, strong, ppPending, 
+                                    ppClosed, ppNotify, ppNC, ppBP, ppDepth, 
+                                    ppAlive, ppHeld, inItems, inClosed, 
+                                    inWaker, pollFn, chuteFn, pwTaken, 
+                                    nextPoll, ppItem, pjLive, ppStage, h, dead, 
+                                    sti, smax, rq, sq, sj, ww, rsq, bown, bwk, 
+                                    bi, bcur, bw, bsp, jq, jj, jwk, dq, dj, oq, 
+                                    oop, omode, oj, yq, yop, yclaimed, tq, top, 
+                                    af, wf, wop, sf, sctx, xf, cop, kj, pp, 
+                                    pwk, np, nbp, nres, dp, pf, pctx, pq, pj, 
+                                    pd, nq >>
 
 dq_requeue(self) == /\ pc[self] = "dq_requeue"
                     /\ jobs' = [jobs EXCEPT ![pq[self]] = << pj[self] >> \o jobs[pq[self]]]
@@ -6794,17 +6964,18 @@ dq_requeue(self) == /\ pc[self] = "dq_requeue"
                                     cwait, cnotif, cvHeld, sdres, jpanic, sfst, 
                                     slotSt, qrSent, qrWaker, dnState, 
                                     susDropped, dnWaker, parkTok, barGen, 
-                                    myBar, cdone, rv, rwb, rneed, stres, dsl, 
-                                    atomic, strong, ppPending, ppClosed, 
-                                    ppNotify, ppNC, ppBP, ppDepth, ppAlive, 
-                                    ppHeld, inItems, inClosed, inWaker, pollFn, 
-                                    chuteFn, pwTaken, nextPoll, ppItem, pjLive, 
-                                    ppStage, h, stack, dead, sti, smax, rq, sq, 
-                                    sj, ww, rsq, bown, bwk, bi, bcur, bw, bsp, 
-                                    jq, jj, jwk, fj, dq, dj, oq, oop, omode, 
-                                    oj, yq, yop, yclaimed, tq, top, af, wf, 
-                                    wop, sf, sctx, xf, cop, kj, pp, pwk, np, 
-                                    nbp, nres, dp, pf, pctx, pq, pj, pd, nq >>
+                                    myBar, cdone, rv, rwb, rneed, stres, 
+                                    spName, dsl, atomic, strong, ppPending, 
+                                    ppClosed, ppNotify, ppNC, ppBP, ppDepth, 
+                                    ppAlive, ppHeld, inItems, inClosed, 
+                                    inWaker, pollFn, chuteFn, pwTaken, 
+                                    nextPoll, ppItem, pjLive, ppStage, h, 
+                                    stack, dead, sti, smax, rq, sq, sj, ww, 
+                                    rsq, bown, bwk, bi, bcur, bw, bsp, jq, jj, 
+                                    jwk, fj, dq, dj, oq, oop, omode, oj, yq, 
+                                    yop, yclaimed, tq, top, af, wf, wop, sf, 
+                                    sctx, xf, cop, kj, pp, pwk, np, nbp, nres, 
+                                    dp, pf, pctx, pq, pj, pd, nq >>
 
 dq_res2(self) == /\ pc[self] = "dq_res2"
                  /\ IF fres[pf[self]] = "some"
@@ -6825,9 +6996,9 @@ dq_res2(self) == /\ pc[self] = "dq_res2"
                                  nextDW, ready, cwait, cnotif, cvHeld, sdres, 
                                  jpanic, sfst, slotSt, qrSent, qrWaker, 
                                  dnState, susDropped, dnWaker, parkTok, barGen, 
-                                 myBar, cdone, rwb, rneed, stres, dsl, atomic, 
-                                 strong, ppPending, ppClosed, ppNotify, ppNC, 
-                                 ppBP, ppDepth, ppAlive, ppHeld, inItems, 
+                                 myBar, cdone, rwb, rneed, stres, spName, dsl, 
+                                 atomic, strong, ppPending, ppClosed, ppNotify, 
+                                 ppNC, ppBP, ppDepth, ppAlive, ppHeld, inItems, 
                                  inClosed, inWaker, pollFn, chuteFn, pwTaken, 
                                  nextPoll, ppItem, pjLive, ppStage, h, stack, 
                                  dead, sti, smax, rq, sq, sj, ww, rsq, bown, 
@@ -6850,17 +7021,18 @@ dq_waitwake(self) == /\ pc[self] = "dq_waitwake"
                                      jpanic, sfst, slotSt, qrSent, qrWaker, 
                                      dnState, susDropped, dnWaker, parkTok, 
                                      barGen, myBar, cdone, rv, rwb, rneed, 
-                                     stres, dsl, atomic, strong, ppPending, 
-                                     ppClosed, ppNotify, ppNC, ppBP, ppDepth, 
-                                     ppAlive, ppHeld, inItems, inClosed, 
-                                     inWaker, pollFn, chuteFn, pwTaken, 
-                                     nextPoll, ppItem, pjLive, ppStage, h, 
-                                     stack, dead, sti, smax, rq, sq, sj, ww, 
-                                     rsq, bown, bwk, bi, bcur, bw, bsp, jq, jj, 
-                                     jwk, fj, dq, dj, oq, oop, omode, oj, yq, 
-                                     yop, yclaimed, tq, top, af, wf, wop, sf, 
-                                     sctx, xf, cop, kj, pp, pwk, np, nbp, nres, 
-                                     dp, pf, pctx, pq, pj, pd, nq >>
+                                     stres, spName, dsl, atomic, strong, 
+                                     ppPending, ppClosed, ppNotify, ppNC, ppBP, 
+                                     ppDepth, ppAlive, ppHeld, inItems, 
+                                     inClosed, inWaker, pollFn, chuteFn, 
+                                     pwTaken, nextPoll, ppItem, pjLive, 
+                                     ppStage, h, stack, dead, sti, smax, rq, 
+                                     sq, sj, ww, rsq, bown, bwk, bi, bcur, bw, 
+                                     bsp, jq, jj, jwk, fj, dq, dj, oq, oop, 
+                                     omode, oj, yq, yop, yclaimed, tq, top, af, 
+                                     wf, wop, sf, sctx, xf, cop, kj, pp, pwk, 
+                                     np, nbp, nres, dp, pf, pctx, pq, pj, pd, 
+                                     nq >>
 
 dq_ww1(self) == /\ pc[self] = "dq_ww1"
                 /\ IF dwSt[pd[self]] = "Woken"
@@ -6883,9 +7055,9 @@ dq_ww1(self) == /\ pc[self] = "dq_ww1"
                                 nextDW, ready, cwait, cnotif, cvHeld, sdres, 
                                 jpanic, sfst, slotSt, qrSent, qrWaker, dnState, 
                                 susDropped, dnWaker, parkTok, barGen, myBar, 
-                                cdone, rv, rwb, rneed, stres, dsl, atomic, 
-                                strong, ppPending, ppClosed, ppNotify, ppNC, 
-                                ppBP, ppDepth, ppAlive, ppHeld, inItems, 
+                                cdone, rv, rwb, rneed, stres, spName, dsl, 
+                                atomic, strong, ppPending, ppClosed, ppNotify, 
+                                ppNC, ppBP, ppDepth, ppAlive, ppHeld, inItems, 
                                 inClosed, inWaker, pollFn, chuteFn, pwTaken, 
                                 nextPoll, ppItem, pjLive, ppStage, h, dead, 
                                 sti, smax, rq, sq, sj, rsq, bown, bwk, bi, 
@@ -6911,17 +7083,17 @@ z_dq_ready(self) == /\ pc[self] = "z_dq_ready"
                                     cwait, cnotif, cvHeld, sdres, jpanic, sfst, 
                                     slotSt, qrSent, qrWaker, dnState, 
                                     susDropped, dnWaker, parkTok, barGen, 
-                                    myBar, cdone, rv, rwb, rneed, stres, dsl, 
-                                    atomic, strong, ppPending, ppClosed, 
-                                    ppNotify, ppNC, ppBP, ppDepth, ppAlive, 
-                                    ppHeld, inItems, inClosed, inWaker, pollFn, 
-                                    chuteFn, pwTaken, nextPoll, ppItem, pjLive, 
-                                    ppStage, h, dead, sti, smax, rq, sq, sj, 
-                                    ww, rsq, bown, bwk, bi, bcur, bw, bsp, jq, 
-                                    jj, jwk, fj, dq, dj, oq, oop, omode, oj, 
-                                    yq, yop, yclaimed, tq, top, af, wf, wop, 
-                                    sf, sctx, xf, cop, kj, pp, pwk, np, nbp, 
-                                    nres, dp, nq >>
+                                    myBar, cdone, rv, rwb, rneed, stres, 
+                                    spName, dsl, atomic, strong, ppPending, 
+                                    ppClosed, ppNotify, ppNC, ppBP, ppDepth, 
+                                    ppAlive, ppHeld, inItems, inClosed, 
+                                    inWaker, pollFn, chuteFn, pwTaken, 
+                                    nextPoll, ppItem, pjLive, ppStage, h, dead, 
+                                    sti, smax, rq, sq, sj, ww, rsq, bown, bwk, 
+                                    bi, bcur, bw, bsp, jq, jj, jwk, fj, dq, dj, 
+                                    oq, oop, omode, oj, yq, yop, yclaimed, tq, 
+                                    top, af, wf, wop, sf, sctx, xf, cop, kj, 
+                                    pp, pwk, np, nbp, nres, dp, nq >>
 
 dq_setwaker(self) == /\ pc[self] = "dq_setwaker"
                      /\ fwaker' = [fwaker EXCEPT ![pf[self]] = pctx[self]]
@@ -6936,17 +7108,18 @@ dq_setwaker(self) == /\ pc[self] = "dq_setwaker"
                                      jpanic, sfst, slotSt, qrSent, qrWaker, 
                                      dnState, susDropped, dnWaker, parkTok, 
                                      barGen, myBar, cdone, rv, rwb, rneed, 
-                                     stres, dsl, atomic, strong, ppPending, 
-                                     ppClosed, ppNotify, ppNC, ppBP, ppDepth, 
-                                     ppAlive, ppHeld, inItems, inClosed, 
-                                     inWaker, pollFn, chuteFn, pwTaken, 
-                                     nextPoll, ppItem, pjLive, ppStage, h, 
-                                     stack, dead, sti, smax, rq, sq, sj, ww, 
-                                     rsq, bown, bwk, bi, bcur, bw, bsp, jq, jj, 
-                                     jwk, fj, dq, dj, oq, oop, omode, oj, yq, 
-                                     yop, yclaimed, tq, top, af, wf, wop, sf, 
-                                     sctx, xf, cop, kj, pp, pwk, np, nbp, nres, 
-                                     dp, pf, pctx, pq, pj, pd, nq >>
+                                     stres, spName, dsl, atomic, strong, 
+                                     ppPending, ppClosed, ppNotify, ppNC, ppBP, 
+                                     ppDepth, ppAlive, ppHeld, inItems, 
+                                     inClosed, inWaker, pollFn, chuteFn, 
+                                     pwTaken, nextPoll, ppItem, pjLive, 
+                                     ppStage, h, stack, dead, sti, smax, rq, 
+                                     sq, sj, ww, rsq, bown, bwk, bi, bcur, bw, 
+                                     bsp, jq, jj, jwk, fj, dq, dj, oq, oop, 
+                                     omode, oj, yq, yop, yclaimed, tq, top, af, 
+                                     wf, wop, sf, sctx, xf, cop, kj, pp, pwk, 
+                                     np, nbp, nres, dp, pf, pctx, pq, pj, pd, 
+                                     nq >>
 
 dq_waitpoll(self) == /\ pc[self] = "dq_waitpoll"
                      /\ qstate' = [qstate EXCEPT ![pq[self]] = "WaitingForPoll"]
@@ -6961,18 +7134,18 @@ dq_waitpoll(self) == /\ pc[self] = "dq_waitpoll"
                                      cnotif, cvHeld, sdres, jpanic, sfst, 
                                      slotSt, qrSent, qrWaker, dnState, 
                                      susDropped, dnWaker, parkTok, barGen, 
-                                     myBar, cdone, rv, rwb, rneed, stres, dsl, 
-                                     atomic, strong, ppPending, ppClosed, 
-                                     ppNotify, ppNC, ppBP, ppDepth, ppAlive, 
-                                     ppHeld, inItems, inClosed, inWaker, 
-                                     pollFn, chuteFn, pwTaken, nextPoll, 
-                                     ppItem, pjLive, ppStage, h, stack, dead, 
-                                     sti, smax, rq, sq, sj, ww, rsq, bown, bwk, 
-                                     bi, bcur, bw, bsp, jq, jj, jwk, fj, dq, 
-                                     dj, oq, oop, omode, oj, yq, yop, yclaimed, 
-                                     tq, top, af, wf, wop, sf, sctx, xf, cop, 
-                                     kj, pp, pwk, np, nbp, nres, dp, pf, pctx, 
-                                     pq, pj, pd, nq >>
+                                     myBar, cdone, rv, rwb, rneed, stres, 
+                                     spName, dsl, atomic, strong, ppPending, 
+                                     ppClosed, ppNotify, ppNC, ppBP, ppDepth, 
+                                     ppAlive, ppHeld, inItems, inClosed, 
+                                     inWaker, pollFn, chuteFn, pwTaken, 
+                                     nextPoll, ppItem, pjLive, ppStage, h, 
+                                     stack, dead, sti, smax, rq, sq, sj, ww, 
+                                     rsq, bown, bwk, bi, bcur, bw, bsp, jq, jj, 
+                                     jwk, fj, dq, dj, oq, oop, omode, oj, yq, 
+                                     yop, yclaimed, tq, top, af, wf, wop, sf, 
+                                     sctx, xf, cop, kj, pp, pwk, np, nbp, nres, 
+                                     dp, pf, pctx, pq, pj, pd, nq >>
 
 dq_ww2(self) == /\ pc[self] = "dq_ww2"
                 /\ dblW1' = [dblW1 EXCEPT ![pd[self]] = WQ(pq[self])]
@@ -6997,7 +7170,7 @@ dq_ww2(self) == /\ pc[self] = "dq_ww2"
                                 cwait, cnotif, cvHeld, sdres, jpanic, sfst, 
                                 slotSt, qrSent, qrWaker, dnState, susDropped, 
                                 dnWaker, parkTok, barGen, myBar, cdone, rv, 
-                                rwb, rneed, stres, dsl, atomic, strong, 
+                                rwb, rneed, stres, spName, dsl, atomic, strong, 
                                 ppPending, ppClosed, ppNotify, ppNC, ppBP, 
                                 ppDepth, ppAlive, ppHeld, inItems, inClosed, 
                                 inWaker, pollFn, chuteFn, pwTaken, nextPoll, 
@@ -7027,17 +7200,17 @@ z_dq_pending(self) == /\ pc[self] = "z_dq_pending"
                                       sdres, jpanic, sfst, slotSt, qrSent, 
                                       qrWaker, dnState, susDropped, dnWaker, 
                                       parkTok, barGen, myBar, cdone, rwb, 
-                                      rneed, stres, dsl, atomic, strong, 
-                                      ppPending, ppClosed, ppNotify, ppNC, 
-                                      ppBP, ppDepth, ppAlive, ppHeld, inItems, 
-                                      inClosed, inWaker, pollFn, chuteFn, 
-                                      pwTaken, nextPoll, ppItem, pjLive, 
-                                      ppStage, h, dead, sti, smax, rq, sq, sj, 
-                                      ww, rsq, bown, bwk, bi, bcur, bw, bsp, 
-                                      jq, jj, jwk, fj, dq, dj, oq, oop, omode, 
-                                      oj, yq, yop, yclaimed, tq, top, af, wf, 
-                                      wop, sf, sctx, xf, cop, kj, pp, pwk, np, 
-                                      nbp, nres, dp, nq >>
+                                      rneed, stres, spName, dsl, atomic, 
+                                      strong, ppPending, ppClosed, ppNotify, 
+                                      ppNC, ppBP, ppDepth, ppAlive, ppHeld, 
+                                      inItems, inClosed, inWaker, pollFn, 
+                                      chuteFn, pwTaken, nextPoll, ppItem, 
+                                      pjLive, ppStage, h, dead, sti, smax, rq, 
+                                      sq, sj, ww, rsq, bown, bwk, bi, bcur, bw, 
+                                      bsp, jq, jj, jwk, fj, dq, dj, oq, oop, 
+                                      omode, oj, yq, yop, yclaimed, tq, top, 
+                                      af, wf, wop, sf, sctx, xf, cop, kj, pp, 
+                                      pwk, np, nbp, nres, dp, nq >>
 
 dq_empty_w(self) == /\ pc[self] = "dq_empty_w"
                     /\ fwaker' = [fwaker EXCEPT ![pf[self]] = pctx[self]]
@@ -7051,17 +7224,18 @@ dq_empty_w(self) == /\ pc[self] = "dq_empty_w"
                                     cwait, cnotif, cvHeld, sdres, jpanic, sfst, 
                                     slotSt, qrSent, qrWaker, dnState, 
                                     susDropped, dnWaker, parkTok, barGen, 
-                                    myBar, cdone, rv, rwb, rneed, stres, dsl, 
-                                    atomic, strong, ppPending, ppClosed, 
-                                    ppNotify, ppNC, ppBP, ppDepth, ppAlive, 
-                                    ppHeld, inItems, inClosed, inWaker, pollFn, 
-                                    chuteFn, pwTaken, nextPoll, ppItem, pjLive, 
-                                    ppStage, h, stack, dead, sti, smax, rq, sq, 
-                                    sj, ww, rsq, bown, bwk, bi, bcur, bw, bsp, 
-                                    jq, jj, jwk, fj, dq, dj, oq, oop, omode, 
-                                    oj, yq, yop, yclaimed, tq, top, af, wf, 
-                                    wop, sf, sctx, xf, cop, kj, pp, pwk, np, 
-                                    nbp, nres, dp, pf, pctx, pq, pj, pd, nq >>
+                                    myBar, cdone, rv, rwb, rneed, stres, 
+                                    spName, dsl, atomic, strong, ppPending, 
+                                    ppClosed, ppNotify, ppNC, ppBP, ppDepth, 
+                                    ppAlive, ppHeld, inItems, inClosed, 
+                                    inWaker, pollFn, chuteFn, pwTaken, 
+                                    nextPoll, ppItem, pjLive, ppStage, h, 
+                                    stack, dead, sti, smax, rq, sq, sj, ww, 
+                                    rsq, bown, bwk, bi, bcur, bw, bsp, jq, jj, 
+                                    jwk, fj, dq, dj, oq, oop, omode, oj, yq, 
+                                    yop, yclaimed, tq, top, af, wf, wop, sf, 
+                                    sctx, xf, cop, kj, pp, pwk, np, nbp, nres, 
+                                    dp, pf, pctx, pq, pj, pd, nq >>
 
 dq_empty_idle(self) == /\ pc[self] = "dq_empty_idle"
                        /\ qstate' = [qstate EXCEPT ![pq[self]] = "Idle"]
@@ -7081,18 +7255,18 @@ dq_empty_idle(self) == /\ pc[self] = "dq_empty_idle"
                                        cvHeld, sdres, jpanic, sfst, slotSt, 
                                        qrSent, qrWaker, dnState, susDropped, 
                                        dnWaker, parkTok, barGen, myBar, cdone, 
-                                       rv, rwb, rneed, stres, dsl, atomic, 
-                                       strong, ppPending, ppClosed, ppNotify, 
-                                       ppNC, ppBP, ppDepth, ppAlive, ppHeld, 
-                                       inItems, inClosed, inWaker, pollFn, 
-                                       chuteFn, pwTaken, nextPoll, ppItem, 
-                                       pjLive, ppStage, h, dead, sti, smax, sq, 
-                                       sj, ww, rsq, bown, bwk, bi, bcur, bw, 
-                                       bsp, jq, jj, jwk, fj, dq, dj, oq, oop, 
-                                       omode, oj, yq, yop, yclaimed, tq, top, 
-                                       af, wf, wop, sf, sctx, xf, cop, kj, pp, 
-                                       pwk, np, nbp, nres, dp, pf, pctx, pq, 
-                                       pj, pd, nq >>
+                                       rv, rwb, rneed, stres, spName, dsl, 
+                                       atomic, strong, ppPending, ppClosed, 
+                                       ppNotify, ppNC, ppBP, ppDepth, ppAlive, 
+                                       ppHeld, inItems, inClosed, inWaker, 
+                                       pollFn, chuteFn, pwTaken, nextPoll, 
+                                       ppItem, pjLive, ppStage, h, dead, sti, 
+                                       smax, sq, sj, ww, rsq, bown, bwk, bi, 
+                                       bcur, bw, bsp, jq, jj, jwk, fj, dq, dj, 
+                                       oq, oop, omode, oj, yq, yop, yclaimed, 
+                                       tq, top, af, wf, wop, sf, sctx, xf, cop, 
+                                       kj, pp, pwk, np, nbp, nres, dp, pf, 
+                                       pctx, pq, pj, pd, nq >>
 
 dq_idle(self) == /\ pc[self] = "dq_idle"
                  /\ qstate' = [qstate EXCEPT ![pq[self]] = "Idle"]
@@ -7110,16 +7284,17 @@ dq_idle(self) == /\ pc[self] = "dq_idle"
                                  nextDW, ready, cwait, cnotif, cvHeld, sdres, 
                                  jpanic, sfst, slotSt, qrSent, qrWaker, 
                                  dnState, susDropped, dnWaker, parkTok, barGen, 
-                                 myBar, cdone, rv, rwb, rneed, stres, dsl, 
-                                 atomic, strong, ppPending, ppClosed, ppNotify, 
-                                 ppNC, ppBP, ppDepth, ppAlive, ppHeld, inItems, 
-                                 inClosed, inWaker, pollFn, chuteFn, pwTaken, 
-                                 nextPoll, ppItem, pjLive, ppStage, h, dead, 
-                                 sti, smax, sq, sj, ww, rsq, bown, bwk, bi, 
-                                 bcur, bw, bsp, jq, jj, jwk, fj, dq, dj, oq, 
-                                 oop, omode, oj, yq, yop, yclaimed, tq, top, 
-                                 af, wf, wop, sf, sctx, xf, cop, kj, pp, pwk, 
-                                 np, nbp, nres, dp, pf, pctx, pq, pj, pd, nq >>
+                                 myBar, cdone, rv, rwb, rneed, stres, spName, 
+                                 dsl, atomic, strong, ppPending, ppClosed, 
+                                 ppNotify, ppNC, ppBP, ppDepth, ppAlive, 
+                                 ppHeld, inItems, inClosed, inWaker, pollFn, 
+                                 chuteFn, pwTaken, nextPoll, ppItem, pjLive, 
+                                 ppStage, h, dead, sti, smax, sq, sj, ww, rsq, 
+                                 bown, bwk, bi, bcur, bw, bsp, jq, jj, jwk, fj, 
+                                 dq, dj, oq, oop, omode, oj, yq, yop, yclaimed, 
+                                 tq, top, af, wf, wop, sf, sctx, xf, cop, kj, 
+                                 pp, pwk, np, nbp, nres, dp, pf, pctx, pq, pj, 
+                                 pd, nq >>
 
 dq_panic(self) == /\ pc[self] = "dq_panic"
                   /\ qstate' = [qstate EXCEPT ![pq[self]] = "Panicked"]
@@ -7139,16 +7314,17 @@ dq_panic(self) == /\ pc[self] = "dq_panic"
                                   nextDW, ready, cwait, cnotif, cvHeld, sdres, 
                                   jpanic, sfst, slotSt, qrSent, qrWaker, 
                                   dnState, susDropped, dnWaker, parkTok, 
-                                  barGen, myBar, cdone, rwb, rneed, stres, dsl, 
-                                  atomic, strong, ppPending, ppClosed, 
-                                  ppNotify, ppNC, ppBP, ppDepth, ppAlive, 
-                                  ppHeld, inItems, inClosed, inWaker, pollFn, 
-                                  chuteFn, pwTaken, nextPoll, ppItem, pjLive, 
-                                  ppStage, h, dead, sti, smax, rq, sq, sj, ww, 
-                                  rsq, bown, bwk, bi, bcur, bw, bsp, jq, jj, 
-                                  jwk, fj, dq, dj, oq, oop, omode, oj, yq, yop, 
-                                  yclaimed, tq, top, af, wf, wop, sf, sctx, xf, 
-                                  cop, kj, pp, pwk, np, nbp, nres, dp, nq >>
+                                  barGen, myBar, cdone, rwb, rneed, stres, 
+                                  spName, dsl, atomic, strong, ppPending, 
+                                  ppClosed, ppNotify, ppNC, ppBP, ppDepth, 
+                                  ppAlive, ppHeld, inItems, inClosed, inWaker, 
+                                  pollFn, chuteFn, pwTaken, nextPoll, ppItem, 
+                                  pjLive, ppStage, h, dead, sti, smax, rq, sq, 
+                                  sj, ww, rsq, bown, bwk, bi, bcur, bw, bsp, 
+                                  jq, jj, jwk, fj, dq, dj, oq, oop, omode, oj, 
+                                  yq, yop, yclaimed, tq, top, af, wf, wop, sf, 
+                                  sctx, xf, cop, kj, pp, pwk, np, nbp, nres, 
+                                  dp, nq >>
 
 PollFuture(self) == pf_decide(self) \/ dq_res(self) \/ dq_deq(self)
                        \/ z_dq_after(self) \/ dq_requeue(self)
@@ -7186,16 +7362,16 @@ c_start(self) == /\ pc[self] = "c_start"
                                  dblW2, nextDW, ready, cwait, cnotif, cvHeld, 
                                  sdres, jpanic, sfst, slotSt, qrSent, qrWaker, 
                                  dnState, susDropped, dnWaker, parkTok, barGen, 
-                                 myBar, cdone, rv, rwb, rneed, stres, dsl, 
-                                 atomic, strong, ppPending, ppClosed, ppNotify, 
-                                 ppNC, ppBP, ppDepth, ppAlive, ppHeld, inItems, 
-                                 inClosed, inWaker, pollFn, chuteFn, pwTaken, 
-                                 nextPoll, ppItem, pjLive, ppStage, h, dead, 
-                                 sti, smax, rq, sq, sj, ww, jq, jj, jwk, fj, 
-                                 dq, dj, oq, oop, omode, oj, yq, yop, yclaimed, 
-                                 tq, top, af, wf, wop, sf, sctx, xf, cop, kj, 
-                                 pp, pwk, np, nbp, nres, dp, pf, pctx, pq, pj, 
-                                 pd, nq >>
+                                 myBar, cdone, rv, rwb, rneed, stres, spName, 
+                                 dsl, atomic, strong, ppPending, ppClosed, 
+                                 ppNotify, ppNC, ppBP, ppDepth, ppAlive, 
+                                 ppHeld, inItems, inClosed, inWaker, pollFn, 
+                                 chuteFn, pwTaken, nextPoll, ppItem, pjLive, 
+                                 ppStage, h, dead, sti, smax, rq, sq, sj, ww, 
+                                 jq, jj, jwk, fj, dq, dj, oq, oop, omode, oj, 
+                                 yq, yop, yclaimed, tq, top, af, wf, wop, sf, 
+                                 sctx, xf, cop, kj, pp, pwk, np, nbp, nres, dp, 
+                                 pf, pctx, pq, pj, pd, nq >>
 
 z_c_exit(self) == /\ pc[self] = "z_c_exit"
                   /\ h' = ObsExit(h, self, 0, 0)
@@ -7209,8 +7385,8 @@ z_c_exit(self) == /\ pc[self] = "z_c_exit"
                                   dblW2, nextDW, ready, cwait, cnotif, cvHeld, 
                                   sdres, jpanic, sfst, slotSt, qrSent, qrWaker, 
                                   dnState, susDropped, dnWaker, parkTok, 
-                                  barGen, myBar, rv, rwb, rneed, stres, dsl, 
-                                  atomic, strong, ppPending, ppClosed, 
+                                  barGen, myBar, rv, rwb, rneed, stres, spName, 
+                                  dsl, atomic, strong, ppPending, ppClosed, 
                                   ppNotify, ppNC, ppBP, ppDepth, ppAlive, 
                                   ppHeld, inItems, inClosed, inWaker, pollFn, 
                                   chuteFn, pwTaken, nextPoll, ppItem, pjLive, 
@@ -7241,17 +7417,17 @@ pt_recv(self) == /\ pc[self] = "pt_recv"
                                  nextDW, ready, cwait, cnotif, cvHeld, sdres, 
                                  jpanic, sfst, slotSt, qrSent, qrWaker, 
                                  dnState, susDropped, dnWaker, parkTok, barGen, 
-                                 myBar, cdone, rv, rwb, rneed, stres, dsl, 
-                                 atomic, strong, ppPending, ppClosed, ppNotify, 
-                                 ppNC, ppBP, ppDepth, ppAlive, ppHeld, inItems, 
-                                 inClosed, inWaker, pollFn, chuteFn, pwTaken, 
-                                 nextPoll, ppItem, pjLive, ppStage, stack, 
-                                 dead, sti, smax, rq, sq, sj, ww, rsq, bown, 
-                                 bwk, bi, bcur, bw, bsp, jq, jj, jwk, fj, dq, 
-                                 dj, oq, oop, omode, oj, yq, yop, yclaimed, tq, 
-                                 top, af, wf, wop, sf, sctx, xf, cop, kj, pp, 
-                                 pwk, np, nbp, nres, dp, pf, pctx, pq, pj, pd, 
-                                 nq >>
+                                 myBar, cdone, rv, rwb, rneed, stres, spName, 
+                                 dsl, atomic, strong, ppPending, ppClosed, 
+                                 ppNotify, ppNC, ppBP, ppDepth, ppAlive, 
+                                 ppHeld, inItems, inClosed, inWaker, pollFn, 
+                                 chuteFn, pwTaken, nextPoll, ppItem, pjLive, 
+                                 ppStage, stack, dead, sti, smax, rq, sq, sj, 
+                                 ww, rsq, bown, bwk, bi, bcur, bw, bsp, jq, jj, 
+                                 jwk, fj, dq, dj, oq, oop, omode, oj, yq, yop, 
+                                 yclaimed, tq, top, af, wf, wop, sf, sctx, xf, 
+                                 cop, kj, pp, pwk, np, nbp, nres, dp, pf, pctx, 
+                                 pq, pj, pd, nq >>
 
 pt_next(self) == /\ pc[self] = "pt_next"
                  /\ LET r == NTR(schedule) IN
@@ -7272,7 +7448,7 @@ pt_next(self) == /\ pc[self] = "pt_next"
                                  cvHeld, sdres, jpanic, sfst, slotSt, qrSent, 
                                  qrWaker, dnState, susDropped, dnWaker, 
                                  parkTok, barGen, myBar, cdone, rv, rwb, rneed, 
-                                 stres, dsl, atomic, strong, ppPending, 
+                                 stres, spName, dsl, atomic, strong, ppPending, 
                                  ppClosed, ppNotify, ppNC, ppBP, ppDepth, 
                                  ppAlive, ppHeld, inItems, inClosed, inWaker, 
                                  pollFn, chuteFn, pwTaken, nextPoll, ppItem, 
@@ -7306,16 +7482,17 @@ pt_after(self) == /\ pc[self] = "pt_after"
                                   ready, cwait, cnotif, cvHeld, sdres, jpanic, 
                                   sfst, slotSt, qrSent, qrWaker, dnState, 
                                   susDropped, dnWaker, parkTok, barGen, myBar, 
-                                  cdone, rv, rwb, rneed, stres, dsl, atomic, 
-                                  strong, ppPending, ppClosed, ppNotify, ppNC, 
-                                  ppBP, ppDepth, ppAlive, ppHeld, inItems, 
-                                  inClosed, inWaker, pollFn, chuteFn, pwTaken, 
-                                  nextPoll, ppItem, pjLive, ppStage, h, dead, 
-                                  sti, smax, rq, sq, sj, ww, rsq, bown, bwk, 
-                                  bi, bcur, bw, bsp, jq, jj, jwk, fj, oq, oop, 
-                                  omode, oj, yq, yop, yclaimed, tq, top, af, 
-                                  wf, wop, sf, sctx, xf, cop, kj, pp, pwk, np, 
-                                  nbp, nres, dp, pf, pctx, pq, pj, pd, nq >>
+                                  cdone, rv, rwb, rneed, stres, spName, dsl, 
+                                  atomic, strong, ppPending, ppClosed, 
+                                  ppNotify, ppNC, ppBP, ppDepth, ppAlive, 
+                                  ppHeld, inItems, inClosed, inWaker, pollFn, 
+                                  chuteFn, pwTaken, nextPoll, ppItem, pjLive, 
+                                  ppStage, h, dead, sti, smax, rq, sq, sj, ww, 
+                                  rsq, bown, bwk, bi, bcur, bw, bsp, jq, jj, 
+                                  jwk, fj, oq, oop, omode, oj, yq, yop, 
+                                  yclaimed, tq, top, af, wf, wop, sf, sctx, xf, 
+                                  cop, kj, pp, pwk, np, nbp, nres, dp, pf, 
+                                  pctx, pq, pj, pd, nq >>
 
 z_pt_chk(self) == /\ pc[self] = "z_pt_chk"
                   /\ IF rv[self] = 9
@@ -7333,16 +7510,16 @@ z_pt_chk(self) == /\ pc[self] = "z_pt_chk"
                                   jpanic, sfst, slotSt, qrSent, qrWaker, 
                                   dnState, susDropped, dnWaker, parkTok, 
                                   barGen, myBar, cdone, rv, rwb, rneed, stres, 
-                                  dsl, atomic, strong, ppPending, ppClosed, 
-                                  ppNotify, ppNC, ppBP, ppDepth, ppAlive, 
-                                  ppHeld, inItems, inClosed, inWaker, pollFn, 
-                                  chuteFn, pwTaken, nextPoll, ppItem, pjLive, 
-                                  ppStage, stack, dead, sti, smax, rq, sq, sj, 
-                                  ww, rsq, bown, bwk, bi, bcur, bw, bsp, jq, 
-                                  jj, jwk, fj, dq, dj, oq, oop, omode, oj, yq, 
-                                  yop, yclaimed, tq, top, af, wf, wop, sf, 
-                                  sctx, xf, cop, kj, pp, pwk, np, nbp, nres, 
-                                  dp, pf, pctx, pq, pj, pd, nq >>
+                                  spName, dsl, atomic, strong, ppPending, 
+                                  ppClosed, ppNotify, ppNC, ppBP, ppDepth, 
+                                  ppAlive, ppHeld, inItems, inClosed, inWaker, 
+                                  pollFn, chuteFn, pwTaken, nextPoll, ppItem, 
+                                  pjLive, ppStage, stack, dead, sti, smax, rq, 
+                                  sq, sj, ww, rsq, bown, bwk, bi, bcur, bw, 
+                                  bsp, jq, jj, jwk, fj, dq, dj, oq, oop, omode, 
+                                  oj, yq, yop, yclaimed, tq, top, af, wf, wop, 
+                                  sf, sctx, xf, cop, kj, pp, pwk, np, nbp, 
+                                  nres, dp, pf, pctx, pq, pj, pd, nq >>
 
 z_pt_done(self) == /\ pc[self] = "z_pt_done"
                    /\ TRUE
@@ -7356,17 +7533,17 @@ z_pt_done(self) == /\ pc[self] = "z_pt_done"
                                    cwait, cnotif, cvHeld, sdres, jpanic, sfst, 
                                    slotSt, qrSent, qrWaker, dnState, 
                                    susDropped, dnWaker, parkTok, barGen, myBar, 
-                                   cdone, rv, rwb, rneed, stres, dsl, atomic, 
-                                   strong, ppPending, ppClosed, ppNotify, ppNC, 
-                                   ppBP, ppDepth, ppAlive, ppHeld, inItems, 
-                                   inClosed, inWaker, pollFn, chuteFn, pwTaken, 
-                                   nextPoll, ppItem, pjLive, ppStage, h, stack, 
-                                   dead, sti, smax, rq, sq, sj, ww, rsq, bown, 
-                                   bwk, bi, bcur, bw, bsp, jq, jj, jwk, fj, dq, 
-                                   dj, oq, oop, omode, oj, yq, yop, yclaimed, 
-                                   tq, top, af, wf, wop, sf, sctx, xf, cop, kj, 
-                                   pp, pwk, np, nbp, nres, dp, pf, pctx, pq, 
-                                   pj, pd, nq >>
+                                   cdone, rv, rwb, rneed, stres, spName, dsl, 
+                                   atomic, strong, ppPending, ppClosed, 
+                                   ppNotify, ppNC, ppBP, ppDepth, ppAlive, 
+                                   ppHeld, inItems, inClosed, inWaker, pollFn, 
+                                   chuteFn, pwTaken, nextPoll, ppItem, pjLive, 
+                                   ppStage, h, stack, dead, sti, smax, rq, sq, 
+                                   sj, ww, rsq, bown, bwk, bi, bcur, bw, bsp, 
+                                   jq, jj, jwk, fj, dq, dj, oq, oop, omode, oj, 
+                                   yq, yop, yclaimed, tq, top, af, wf, wop, sf, 
+                                   sctx, xf, cop, kj, pp, pwk, np, nbp, nres, 
+                                   dp, pf, pctx, pq, pj, pd, nq >>
 
 pool(self) == pt_recv(self) \/ pt_next(self) \/ pt_after(self)
                  \/ z_pt_chk(self) \/ z_pt_done(self)
